@@ -7,6 +7,7 @@ import (
 	"go/types"
 	"sort"
 	"strings"
+	"time"
 
 	"golang.org/x/tools/go/ssa"
 )
@@ -15,23 +16,24 @@ func init() {
 	register(&PropSpec{
 		ID:    "C05",
 		Title: "The index is a function of the set of blobs, not of their arrival order (bookkeeping obligations only)",
-		Explanation: "Decided (structural necessary conditions for 'a blob whose dependencies have not arrived is remembered, not dropped'): " +
-			"I-pending — every success return of (*Index).ReceiveBlob is one of: already-indexed shortcut (the have: row read back ends in the same '|indexed' suffix the writer uses), missing-dependency return (preceded by a loop of noteNeeded calls over the fetcher's recorded misses, no failed noteNeeded/commit/addBlob can reach a success return, the miss list is known non-empty), or indexed-now return (commit of the populated mutation map succeeded, then noteBlobIndexedLocked and removeAllMissingEdges of the same ref); populateMutationMap writes the '|indexed' suffix only where the populate error is known not to be errMissingDep; noteNeededLocked reports success only after the missing| row was stored and both in-memory maps were updated with the right key/value roles. " +
-			"I-miss — every `return errMissingDep` in pkg/index is justified by a recorded miss (a successful noteNeeded of the same function, or allErrNotExist()==true on a trackErrorsFetcher wrapping the function's own missTrackFetcher), and missTrackFetcher.Fetch appends the ref on every NotExist path. " +
+		Explanation: "Every rule looks at a function's EFFECTIVE BODY: the function plus, transitively (depth 4), the function literals and the unexported same-package functions/methods it calls with a plain static call, as one context-sensitive control-flow graph (a helper's parameter stands for the caller's argument, its results for what it returns; dominance, branch facts - also those implied by what a helper returned -, and path exploration that carries booleans and nil-ness through phis, calls and returns are computed on that graph). A site that sits in a pure helper (unexported, only ever entered by plain calls of its own package) and cannot be judged there is judged in the effective bodies of all its callers (3 levels). The named anchors are ReceiveBlob, populateMutationMap, commit, addBlob, noteNeededLocked, noteBlobIndexedLocked, removeAllMissingEdges, allErrNotExist, indexReadyBlobs, indexBlob, getNewPendingBlobIndex, MarkDone, initNeededMapsLocked, Reindex, New (noteNeeded and noteNeededMemoryLocked are optional: their bodies may be written out at the call sites). " +
+			"Decided (structural necessary conditions for 'a blob whose dependencies have not arrived is remembered, not dropped'): " +
+			"I-pending — every success return of (*Index).ReceiveBlob is one of: already-indexed shortcut (the have: row read back ends in the same '|indexed' suffix the writer uses), missing-dependency return (preceded by a loop of noteNeeded calls over the fetcher's recorded misses - the list itself, not a proper sub-slice -, no success return reachable once a noteNeeded/commit/addBlob has failed, the miss list known non-empty), or indexed-now return (commit of the populated mutation map succeeded, then noteBlobIndexedLocked and removeAllMissingEdges of the same ref); populateMutationMap writes the '|indexed' suffix only where the populate error is known not to be errMissingDep; noteNeededLocked reports success only after the missing| row was stored and both in-memory maps were updated with the right key/value roles. " +
+			"I-miss — every `return errMissingDep` in pkg/index is justified by a recorded miss (a successful noteNeeded before it, or allErrNotExist()==true on a trackErrorsFetcher wrapping the function's own missTrackFetcher), and missTrackFetcher.Fetch appends the ref on every NotExist path. " +
 			"I-wg — every reindexWg.Add(1) is followed on all paths by a go of a function that Dones the same WaitGroup on all its paths, indexReadyBlobs is only ever started that way and re-queues blobs whose re-index failed; every successful getNewPendingBlobIndex is paired with MarkDone on all exits, MarkDone always unregisters and wakes waiters; Reindex joins its workers, then reindexWg, before it reads needs/readyReindex or returns success. " +
 			"I-open — index.New reloads needs/neededBy (initNeededMapsLocked ok) before every success return, except under aboutToReindex, which is only set where a successful Wipe precedes New; the reload parses the missing| key in the order noteNeededLocked writes it. " +
 			"I-recent — noteBlobIndexedLocked always records the ref in recentDone and never removes a blob from needs without queueing it in readyReindex; recentDone is cleared only when no indexing is pending and after the sweep that re-notes recently done dependencies; getNewPendingBlobIndex registers what it returns. " +
-			"NOT decided: confluence of the index rows under reordering/interleaving, equality with a full reindex, liveness of the out-of-order queue (a ready blob whose re-index fails, or a restart between a dependency's indexing and its dependants' re-index, is only remembered in memory/rows, never retried by itself), correctness of what is written to the rows, behaviour of any concrete schedule.",
+			"NOT decided: confluence of the index rows under reordering/interleaving, equality with a full reindex, liveness of the out-of-order queue (a ready blob whose re-index fails, or a restart between a dependency's indexing and its dependants' re-index, is only remembered in memory/rows, never retried by itself), correctness of what is written to the rows, behaviour of any concrete schedule; helpers reached through interfaces, function values, go/defer (other than the deferred-function forms named above) or more than 4 calls deep are not looked into.",
 		RuleDocs: map[string]string{
-			"I-pending": "classifies every maybe-nil-error return of (*Index).ReceiveBlob (dominance + phi-aware path exploration from the failure edges of noteNeeded*/commit/addBlob); have: row suffix writer/reader agreement and errMissingDep guard in populateMutationMap; persistence and key roles in noteNeededLocked/noteNeededMemoryLocked",
-			"I-miss":    "enumerates every return of the errMissingDep sentinel in pkg/index and demands a recorded miss; missTrackFetcher.Fetch records on every NotExist path",
+			"I-pending": "classifies every maybe-nil-error return of the effective body of (*Index).ReceiveBlob (returns of helpers whose results are returned included; dominance and path exploration with the failed call's error assumed non-nil, flags/helper results/nil-ness carried along the paths); have: row suffix writer/reader agreement and errMissingDep guard in populateMutationMap; persistence and key roles in noteNeededLocked/noteNeededMemoryLocked",
+			"I-miss":    "enumerates every return of the errMissingDep sentinel in pkg/index and demands a recorded miss (judged in the callers when the return sits in a pure helper); missTrackFetcher.Fetch records on every NotExist path",
 			"I-wg":      "pairing of reindexWg.Add with go+Done, of getNewPendingBlobIndex with MarkDone, MarkDone's unconditional unregister/close, Reindex's join order, re-queue of failed out-of-order blobs",
 			"I-open":    "index.New success returns dominated by initNeededMapsLocked success (exception: aboutToReindex, re-checked: set only before a successful Wipe that precedes New); reload loop and key-part order agreement",
 			"I-recent":  "recentDone/readyReindex/pending map discipline in noteBlobIndexedLocked, MarkDone and getNewPendingBlobIndex",
 		},
 		Run:       runC05,
 		DesignRef: "DESIGN.md §4 C05",
-		Technique: "static analysis: dominance facts and phi-aware CFG path exploration over go/ssa, acquire/release pairing, writer/reader constant agreement",
+		Technique: "static analysis over go/ssa on virtually inlined (context-sensitive) control-flow graphs: dominance and branch facts incl. facts conditioned on helper results, path exploration tracking booleans and nil-ness through phis/calls/returns, acquire/release pairing, caller-lifting of sites in pure helpers, writer/reader constant agreement",
 		LevelText: "Decides only the bookkeeping obligations without which an out-of-order blob would be dropped instead of remembered (success returns of ReceiveBlob, justification of errMissingDep, WaitGroup/pending pairing, reload of the needs maps at start-up, recentDone discipline). Does not decide that the index is independent of arrival order, equals a full reindex, or that the out-of-order queue ever drains (level 'other').",
 	})
 }
@@ -42,34 +44,1558 @@ const c05PkgPath = "perkeep.org/pkg/index"
 func runC05(p *Program, r *Reporter) {
 	fns := p.FuncsIn(c05Pkg)
 	r.Analysed("functions", len(fns))
-	c05RulePending(p, r)
-	c05RuleMiss(p, r)
-	c05RuleWg(p, r)
-	c05RuleOpen(p, r)
+	env := c05EnvFor(p)
+	t0 := time.Now()
+	var times []string
+	lap := func(name string) {
+		times = append(times, fmt.Sprintf("%s %.2fs", name, time.Since(t0).Seconds()))
+		t0 = time.Now()
+	}
+	c05RulePending(p, r, env)
+	lap("I-pending")
+	c05RuleMiss(p, r, env)
+	lap("I-miss")
+	c05RuleWg(p, r, env)
+	lap("I-wg")
+	c05RuleOpen(p, r, env)
+	lap("I-open")
 	c05RuleRecent(p, r)
+	lap("I-recent")
+	r.Note("rule time after loading: %s", strings.Join(times, ", "))
+	nodes := 0
+	for _, g := range env.graphs {
+		nodes += len(g.nodes)
+	}
+	r.Analysed("effective_bodies", len(env.graphs))
+	r.Analysed("effective_body_nodes", nodes)
 }
 
-// ---------------------------------------------------------------------------
-// General helpers (c05-prefixed; candidates for helpers.go)
+// c05EnvFor returns the per-program analysis state (one entry: only the most
+// recently analysed program is kept alive).
+var c05LastEnv *c05Env
 
-// c05Explorer enumerates CFG paths like LeakingExits, but additionally tracks
-// the value of boolean phis along the path (so that a flag such as
-// `allRecorded` set to false on one edge is known false when tested later),
-// evaluates constant conditions, and nil tests of values whose nil-ness the
-// caller asserts.
-type c05Explorer struct {
-	NonNil       []ssa.Value
-	Nil          []ssa.Value
-	Assume       func(cond ssa.Value) (known, val bool)
-	Stop         func(in ssa.Instruction) bool // obligation met: the path ends fine
-	Fail         func(in ssa.Instruction) bool // reaching this instruction is a leak
-	ExitOK       func(in ssa.Instruction) bool // acceptable Return / Panic
+func c05EnvFor(p *Program) *c05Env {
+	if c05LastEnv == nil || c05LastEnv.p != p {
+		c05LastEnv = c05NewEnv(p)
+	}
+	return c05LastEnv
+}
+
+// ===========================================================================
+// Effective bodies.
+//
+// A rule that looks for a site "in function F" looks in F's effective body: F
+// plus, transitively (depth <= c05MaxDepth), the function literals and the
+// unexported functions/methods of the same package that F calls statically
+// with a plain call. The view is context sensitive (one context per call
+// string) and is a real control-flow graph: a block that contains an inlined
+// call is split at the call, the first half flows into the callee's entry and
+// the callee's returns flow into the second half. On that graph the usual
+// facts are recomputed: dominance ("P precedes Q" also when P sits in a helper
+// called before Q, or both sit in different helpers), branch facts (including
+// facts that follow from what a helper returned: `if h() {` gives, inside the
+// branch, everything that is known at every `return <maybe true>` of h),
+// value identity (a helper's parameter stands for the caller's argument, a
+// helper's result for what it returns) and path exploration that carries the
+// known boolean / nil-ness of values through phis, calls and returns.
+//
+// The rules' named anchors (env.stop) are never inlined: calls to them are
+// the sites the rules look for.
+
+const c05MaxDepth = 4
+
+type c05Env struct {
+	p         *Program
+	stop      map[*ssa.Function]bool
+	graphs    map[*ssa.Function]*c05Graph
+	graphless *c05Graph // for value helpers on plain SSA values (no contexts)
+}
+
+// c05AnchorNames: the functions whose calls are the rules' primitive sites.
+var c05AnchorNames = [][2]string{
+	{"Index", "ReceiveBlob"}, {"Index", "populateMutationMap"}, {"Index", "commit"}, {"Corpus", "addBlob"},
+	{"Index", "noteNeededLocked"}, {"Index", "noteNeeded"}, {"Index", "noteNeededMemoryLocked"},
+	{"Index", "noteBlobIndexedLocked"}, {"Index", "removeAllMissingEdges"}, {"trackErrorsFetcher", "allErrNotExist"},
+	{"Index", "indexReadyBlobs"}, {"Index", "indexBlob"}, {"Index", "getNewPendingBlobIndex"},
+	{"pendingBlobIndex", "MarkDone"}, {"Index", "initNeededMapsLocked"}, {"Index", "Reindex"}, {"", "New"},
+}
+
+func c05NewEnv(p *Program) *c05Env {
+	e := &c05Env{p: p, stop: map[*ssa.Function]bool{}, graphs: map[*ssa.Function]*c05Graph{}}
+	e.graphless = &c05Graph{env: e, segs: map[c05BK][]*c05Node{}, originMemo: map[c05V]c05V{}, factMemo: map[*c05Node][]c05Fact{}, factBusy: map[*c05Node]bool{}}
+	for _, a := range c05AnchorNames {
+		if f := p.LookupFunc(c05Pkg, a[0], a[1]); f != nil {
+			e.stop[f] = true
+		}
+	}
+	return e
+}
+
+// graph returns the effective body rooted at fn (cached per run).
+func (e *c05Env) graph(fn *ssa.Function) *c05Graph {
+	if g, ok := e.graphs[fn]; ok {
+		return g
+	}
+	g := &c05Graph{env: e, segs: map[c05BK][]*c05Node{}, originMemo: map[c05V]c05V{}, factMemo: map[*c05Node][]c05Fact{}, factBusy: map[*c05Node]bool{}}
+	g.root = g.newCtx(nil, nil, fn, false)
+	g.computeDom()
+	e.graphs[fn] = g
+	return g
+}
+
+type c05Ctx struct {
+	g      *c05Graph
+	parent *c05Ctx
+	site   ssa.CallInstruction // the call in parent.fn that enters fn (nil for the root)
+	fn     *ssa.Function
+	depth  int
+	id     int
+	kids   map[ssa.CallInstruction]*c05Ctx
+	side   bool // deferred callee: explored on request, not linked into the graph
+	rets   map[*ssa.Return][]ssa.Value
+}
+
+type c05BK struct {
+	ctx *c05Ctx
+	b   *ssa.BasicBlock
+}
+
+// c05Node is a straight-line piece of a block in a context: instructions
+// [lo,hi) of b. When kid != nil, instruction hi-1 is an inlined call.
+type c05Node struct {
+	id           int
+	ctx          *c05Ctx
+	b            *ssa.BasicBlock
+	lo, hi       int
+	kid          *c05Ctx
+	succs, preds []*c05Node
+	idom         *c05Node
+	rpo          int // -1: unreachable from the root's entry
+}
+
+type c05Graph struct {
+	env        *c05Env
+	root       *c05Ctx
+	ctxs       []*c05Ctx
+	nodes      []*c05Node
+	segs       map[c05BK][]*c05Node
+	originMemo map[c05V]c05V
+	factMemo   map[*c05Node][]c05Fact
+	factBusy   map[*c05Node]bool
+	relevant   map[c05V]bool
+}
+
+// c05I / c05V / c05S: an instruction, a value, a call site in a context.
+type c05I struct {
+	Ctx *c05Ctx
+	In  ssa.Instruction
+}
+type c05V struct {
+	Ctx *c05Ctx
+	V   ssa.Value
+}
+type c05S struct {
+	Ctx *c05Ctx
+	CallSite
+}
+
+func (s c05S) I() c05I { return c05I{s.Ctx, s.Instr} }
+func (s c05S) Arg(i int) c05V {
+	a := s.Args()
+	if i >= len(a) {
+		return c05V{s.Ctx, nil}
+	}
+	return c05V{s.Ctx, a[i]}
+}
+func (s c05S) NArgs() int { return len(s.Args()) }
+
+func (g *c05Graph) inlinable(ctx *c05Ctx, f *ssa.Function) bool {
+	if f == nil || len(f.Blocks) == 0 || g.env.stop[f] || ctx.depth >= c05MaxDepth {
+		return false
+	}
+	for c := ctx; c != nil; c = c.parent {
+		if c.fn == f {
+			return false
+		}
+	}
+	if f.Parent() != nil {
+		return true // function literal
+	}
+	if f.Synthetic != "" || f.Pkg == nil {
+		return false
+	}
+	top := TopFunc(g.root.fn)
+	if top.Pkg == nil || f.Pkg != top.Pkg {
+		return false
+	}
+	return !token.IsExported(f.Name())
+}
+
+func (g *c05Graph) newCtx(parent *c05Ctx, site ssa.CallInstruction, fn *ssa.Function, side bool) *c05Ctx {
+	c := &c05Ctx{g: g, parent: parent, site: site, fn: fn, id: len(g.ctxs), kids: map[ssa.CallInstruction]*c05Ctx{}, side: side, rets: map[*ssa.Return][]ssa.Value{}}
+	if parent != nil {
+		c.depth = parent.depth + 1
+	} else if g.root == nil {
+		g.root = c
+	}
+	g.ctxs = append(g.ctxs, c)
+	for _, ri := range Returns(fn) {
+		c.rets[ri.Ret] = ri.Results
+	}
+	g.expand(c)
+	return c
+}
+
+func (g *c05Graph) newNode(c *c05Ctx, b *ssa.BasicBlock, lo, hi int) *c05Node {
+	n := &c05Node{id: len(g.nodes), ctx: c, b: b, lo: lo, hi: hi, rpo: -1}
+	g.nodes = append(g.nodes, n)
+	return n
+}
+
+func c05Link(a, b *c05Node) {
+	a.succs = append(a.succs, b)
+	b.preds = append(b.preds, a)
+}
+
+func (g *c05Graph) expand(c *c05Ctx) {
+	callee := map[*ssa.Call]*ssa.Function{}
+	for _, b := range c.fn.Blocks {
+		lo := 0
+		var segs []*c05Node
+		for i, in := range b.Instrs {
+			call, ok := in.(*ssa.Call)
+			if !ok {
+				continue
+			}
+			f := (CallSite{c.fn, call}).Callee()
+			if !g.inlinable(c, f) {
+				continue
+			}
+			callee[call] = f
+			segs = append(segs, g.newNode(c, b, lo, i+1))
+			lo = i + 1
+		}
+		segs = append(segs, g.newNode(c, b, lo, len(b.Instrs)))
+		g.segs[c05BK{c, b}] = segs
+	}
+	for _, b := range c.fn.Blocks {
+		segs := g.segs[c05BK{c, b}]
+		for k, n := range segs {
+			if k == len(segs)-1 {
+				for _, s := range b.Succs {
+					c05Link(n, g.segs[c05BK{c, s}][0])
+				}
+				continue
+			}
+			call := b.Instrs[n.hi-1].(*ssa.Call)
+			kid := g.newCtx(c, call, callee[call], false)
+			c.kids[call] = kid
+			n.kid = kid
+			c05Link(n, kid.entry())
+			for _, r := range kid.returnNodes() {
+				c05Link(r, segs[k+1])
+			}
+		}
+	}
+}
+
+func (c *c05Ctx) entry() *c05Node { return c.g.segs[c05BK{c, c.fn.Blocks[0]}][0] }
+
+// returnNodes: the nodes of c that end in a Return (the recover block excluded).
+func (c *c05Ctx) returnNodes() []*c05Node {
+	var out []*c05Node
+	for _, b := range c.fn.Blocks {
+		if b == c.fn.Recover || len(b.Instrs) == 0 {
+			continue
+		}
+		if _, ok := b.Instrs[len(b.Instrs)-1].(*ssa.Return); ok {
+			segs := c.g.segs[c05BK{c, b}]
+			out = append(out, segs[len(segs)-1])
+		}
+	}
+	return out
+}
+
+// sideCtx builds (once) the body of the static callee of a defer/go/call
+// instruction as a detached context, so that it can be explored with the
+// caller's values standing for its parameters and captured variables.
+func (g *c05Graph) sideCtx(ctx *c05Ctx, in ssa.CallInstruction) *c05Ctx {
+	if k, ok := ctx.kids[in]; ok {
+		return k
+	}
+	f := (CallSite{ctx.fn, in}).Callee()
+	if f == nil || len(f.Blocks) == 0 || ctx.depth >= c05MaxDepth+2 || !InModule(TopFunc(f)) {
+		return nil
+	}
+	for c := ctx; c != nil; c = c.parent {
+		if c.fn == f {
+			return nil
+		}
+	}
+	k := g.newCtx(ctx, in, f, true)
+	ctx.kids[in] = k
+	return k
+}
+
+func (n *c05Node) last() ssa.Instruction { return n.b.Instrs[n.hi-1] }
+
+// lastNode / firstNode of a block in a context.
+func (g *c05Graph) lastNode(c *c05Ctx, b *ssa.BasicBlock) *c05Node {
+	s := g.segs[c05BK{c, b}]
+	if len(s) == 0 {
+		return nil
+	}
+	return s[len(s)-1]
+}
+func (g *c05Graph) firstNode(c *c05Ctx, b *ssa.BasicBlock) *c05Node {
+	s := g.segs[c05BK{c, b}]
+	if len(s) == 0 {
+		return nil
+	}
+	return s[0]
+}
+
+func (g *c05Graph) nodeOf(i c05I) (*c05Node, int) {
+	idx := instrIndex(i.In)
+	for _, n := range g.segs[c05BK{i.Ctx, i.In.Block()}] {
+		if n.lo <= idx && idx < n.hi {
+			return n, idx
+		}
+	}
+	return nil, -1
+}
+
+// ---- dominance
+
+func (g *c05Graph) computeDom() {
+	entry := g.root.entry()
+	var post []*c05Node
+	seen := map[*c05Node]bool{}
+	var dfs func(n *c05Node)
+	dfs = func(n *c05Node) {
+		seen[n] = true
+		for _, s := range n.succs {
+			if !seen[s] {
+				dfs(s)
+			}
+		}
+		post = append(post, n)
+	}
+	dfs(entry)
+	for i, n := range post {
+		n.rpo = len(post) - 1 - i
+	}
+	entry.idom = entry
+	intersect := func(a, b *c05Node) *c05Node {
+		for a != b {
+			for a.rpo > b.rpo {
+				a = a.idom
+			}
+			for b.rpo > a.rpo {
+				b = b.idom
+			}
+		}
+		return a
+	}
+	for changed := true; changed; {
+		changed = false
+		for i := len(post) - 1; i >= 0; i-- {
+			n := post[i]
+			if n == entry {
+				continue
+			}
+			var ni *c05Node
+			for _, p := range n.preds {
+				if p.rpo < 0 || p.idom == nil {
+					continue
+				}
+				if ni == nil {
+					ni = p
+				} else {
+					ni = intersect(p, ni)
+				}
+			}
+			if ni != nil && n.idom != ni {
+				n.idom = ni
+				changed = true
+			}
+		}
+	}
+}
+
+// dominates: a == b, or every path from the root's entry to b passes a.
+func (g *c05Graph) dominates(a, b *c05Node) bool {
+	if a == nil || b == nil || a.rpo < 0 || b.rpo < 0 {
+		return false
+	}
+	for x := b; ; x = x.idom {
+		if x == a {
+			return true
+		}
+		if x.idom == nil || x.idom == x || x.rpo < a.rpo {
+			return false
+		}
+	}
+}
+
+// precedes: a executes before b on every path to b.
+func (g *c05Graph) precedes(a, b c05I) bool {
+	na, ia := g.nodeOf(a)
+	nb, ib := g.nodeOf(b)
+	if na == nil || nb == nil {
+		return false
+	}
+	if na == nb {
+		return ia < ib
+	}
+	return g.dominates(na, nb)
+}
+
+// precedesEnd: a has executed whenever the end of node n is reached.
+func (g *c05Graph) precedesEnd(a c05I, n *c05Node) bool {
+	na, _ := g.nodeOf(a)
+	return na != nil && (na == n || g.dominates(na, n))
+}
+
+// inCycle: the node of i lies on a cycle of the effective body (a loop in its
+// own function, or a helper called from a loop).
+func (g *c05Graph) inCycle(i c05I) bool {
+	n, _ := g.nodeOf(i)
+	if n == nil {
+		return false
+	}
+	seen := map[*c05Node]bool{}
+	var walk func(x *c05Node) bool
+	walk = func(x *c05Node) bool {
+		for _, s := range x.succs {
+			if s == n {
+				return true
+			}
+			if !seen[s] {
+				seen[s] = true
+				if walk(s) {
+					return true
+				}
+			}
+		}
+		return false
+	}
+	return walk(n)
+}
+
+// reaches: b can execute after a (plain graph reachability).
+func (g *c05Graph) reaches(a, b c05I) bool {
+	na, ia := g.nodeOf(a)
+	nb, ib := g.nodeOf(b)
+	if na == nil || nb == nil {
+		return false
+	}
+	if na == nb && ia < ib {
+		return true
+	}
+	seen := map[*c05Node]bool{}
+	var walk func(x *c05Node) bool
+	walk = func(x *c05Node) bool {
+		for _, s := range x.succs {
+			if s == nb {
+				return true
+			}
+			if !seen[s] {
+				seen[s] = true
+				if walk(s) {
+					return true
+				}
+			}
+		}
+		return false
+	}
+	return walk(na)
+}
+
+// ---- enumeration
+
+// calls lists every call/go/defer instruction of the effective body (the
+// inlined calls themselves included; side contexts excluded).
+func (g *c05Graph) calls() []c05S {
+	var out []c05S
+	for _, c := range g.ctxs {
+		if c.side {
+			continue
+		}
+		for _, b := range c.fn.Blocks {
+			for _, in := range b.Instrs {
+				if ci, ok := in.(ssa.CallInstruction); ok {
+					out = append(out, c05S{c, CallSite{c.fn, ci}})
+				}
+			}
+		}
+	}
+	return out
+}
+
+func (g *c05Graph) callsTo(f *ssa.Function) []c05S {
+	var out []c05S
+	for _, s := range g.calls() {
+		if s.Callee() == f {
+			out = append(out, s)
+		}
+	}
+	return out
+}
+
+// instrs visits every instruction of the effective body.
+func (g *c05Graph) instrs(visit func(i c05I)) {
+	for _, c := range g.ctxs {
+		if c.side {
+			continue
+		}
+		for _, b := range c.fn.Blocks {
+			for _, in := range b.Instrs {
+				visit(c05I{c, in})
+			}
+		}
+	}
+}
+
+// ctxsOf lists the contexts in which fn is (virtually) executed.
+func (g *c05Graph) ctxsOf(fn *ssa.Function) []*c05Ctx {
+	var out []*c05Ctx
+	for _, c := range g.ctxs {
+		if c.fn == fn && !c.side {
+			out = append(out, c)
+		}
+	}
+	return out
+}
+
+// ---- values
+
+func c05ValueFn(v ssa.Value) *ssa.Function {
+	switch x := v.(type) {
+	case *ssa.Parameter:
+		return x.Parent()
+	case *ssa.FreeVar:
+		return x.Parent()
+	case ssa.Instruction:
+		return x.Parent()
+	}
+	return nil
+}
+
+// ctxFor finds the context (c or an ancestor) that executes fn; c itself when
+// there is none (the value then belongs to a function outside the view).
+func c05CtxFor(c *c05Ctx, fn *ssa.Function) *c05Ctx {
+	if fn == nil {
+		return nil
+	}
+	for x := c; x != nil; x = x.parent {
+		if x.fn == fn {
+			return x
+		}
+	}
+	return c
+}
+
+func (c *c05Ctx) paramArg(p *ssa.Parameter) (c05V, bool) {
+	if c == nil || c.parent == nil || p.Parent() != c.fn {
+		return c05V{}, false
+	}
+	args := (CallSite{c.parent.fn, c.site}).Common().Args
+	for i, q := range c.fn.Params {
+		if q == p {
+			if i < len(args) {
+				return c05V{c.parent, args[i]}, true
+			}
+		}
+	}
+	return c05V{}, false
+}
+
+// resultOf: when v is (an Extract of) the value of an inlined call, the
+// callee's context and the result index.
+func (g *c05Graph) resultOf(v c05V) (*c05Ctx, int, bool) {
+	if v.Ctx == nil {
+		return nil, 0, false
+	}
+	switch x := v.V.(type) {
+	case *ssa.Call:
+		if k := v.Ctx.kids[x]; k != nil && !k.side && k.fn.Signature.Results().Len() == 1 {
+			return k, 0, true
+		}
+	case *ssa.Extract:
+		if call, ok := x.Tuple.(*ssa.Call); ok {
+			if k := v.Ctx.kids[call]; k != nil && !k.side {
+				return k, x.Index, true
+			}
+		}
+	}
+	return nil, 0, false
+}
+
+// origin resolves v to the value it stands for: value-preserving wrappers and
+// single-assignment variables (originValue), a helper's parameter -> the
+// caller's argument, a captured variable -> its binding, the result of an
+// inlined call -> the returned value when all returns agree.
+func (g *c05Graph) origin(v c05V) c05V {
+	if v.V == nil {
+		return v
+	}
+	if o, ok := g.originMemo[v]; ok {
+		return o
+	}
+	in := v
+	for i := 0; i < 32; i++ {
+		o := originValue(v.V)
+		if o == nil {
+			break
+		}
+		if fn := c05ValueFn(o); fn != nil {
+			v = c05V{c05CtxFor(v.Ctx, fn), o}
+		} else {
+			v = c05V{nil, o}
+			break
+		}
+		switch x := o.(type) {
+		case *ssa.Parameter:
+			if a, ok := v.Ctx.paramArg(x); ok {
+				v = a
+				continue
+			}
+		case *ssa.FreeVar:
+			if b := bindingOf(x); b != nil {
+				v = c05V{c05CtxFor(v.Ctx, x.Parent().Parent()), b}
+				continue
+			}
+		case *ssa.Field:
+			// a field of a struct value built once in a local variable
+			ox := g.origin(c05V{v.Ctx, x.X})
+			if ld, ok := ox.V.(*ssa.UnOp); ok && ld.Op == token.MUL {
+				if al, ok := ld.X.(*ssa.Alloc); ok {
+					if fv := c05StructFieldStore(al, x.Field); fv != nil {
+						v = c05V{ox.Ctx, fv}
+						continue
+					}
+				}
+			}
+		case *ssa.UnOp:
+			if x.Op == token.MUL {
+				if fa, ok := x.X.(*ssa.FieldAddr); ok {
+					if al, ok := fa.X.(*ssa.Alloc); ok {
+						if fv := c05StructFieldStore(al, fa.Field); fv != nil {
+							v = c05V{v.Ctx, fv}
+							continue
+						}
+						// a by-value struct parameter spilled to a local: the field of what was passed
+						if w := c05StructWholeStore(al); w != nil {
+							ox := g.origin(c05V{v.Ctx, w})
+							if ld, ok := ox.V.(*ssa.UnOp); ok && ld.Op == token.MUL {
+								if al2, ok := ld.X.(*ssa.Alloc); ok {
+									if fv := c05StructFieldStore(al2, fa.Field); fv != nil {
+										v = c05V{ox.Ctx, fv}
+										continue
+									}
+								}
+							}
+						}
+					}
+				}
+			}
+		case *ssa.Call, *ssa.Extract:
+			if k, idx, ok := g.resultOf(v); ok {
+				var first c05V
+				same := len(k.rets) > 0
+				n := 0
+				for _, res := range k.rets {
+					if idx >= len(res) {
+						same = false
+						break
+					}
+					ro := g.origin(c05V{k, res[idx]})
+					if n == 0 {
+						first = ro
+					} else if ro != first {
+						same = false
+					}
+					n++
+				}
+				if same && n > 0 {
+					v = first
+					continue
+				}
+			}
+		}
+		break
+	}
+	g.originMemo[in] = v
+	return v
+}
+
+// c05StructFieldStore: for a local struct variable whose address does not
+// escape and whose field idx is stored exactly once (a composite literal
+// hoisted into a variable), the stored value.
+func c05StructFieldStore(al *ssa.Alloc, idx int) ssa.Value {
+	if al.Referrers() == nil {
+		return nil
+	}
+	var val ssa.Value
+	n := 0
+	for _, r := range *al.Referrers() {
+		switch x := r.(type) {
+		case *ssa.FieldAddr:
+			if x.Referrers() == nil {
+				continue
+			}
+			for _, r2 := range *x.Referrers() {
+				switch y := r2.(type) {
+				case *ssa.Store:
+					if y.Addr != ssa.Value(x) {
+						return nil
+					}
+					if x.Field == idx {
+						val = y.Val
+						n++
+					}
+				case *ssa.UnOp:
+					if y.Op != token.MUL {
+						return nil
+					}
+				case *ssa.DebugRef:
+				default:
+					return nil
+				}
+			}
+		case *ssa.UnOp:
+			if x.Op != token.MUL {
+				return nil
+			}
+		case *ssa.DebugRef:
+		default:
+			return nil
+		}
+	}
+	if n != 1 {
+		return nil
+	}
+	return val
+}
+
+// c05StructWholeStore: for a local struct variable that is assigned as a
+// whole exactly once, never field-wise, and whose address does not escape,
+// the assigned value.
+func c05StructWholeStore(al *ssa.Alloc) ssa.Value {
+	if al.Referrers() == nil {
+		return nil
+	}
+	var val ssa.Value
+	n := 0
+	for _, r := range *al.Referrers() {
+		switch x := r.(type) {
+		case *ssa.Store:
+			if x.Addr != ssa.Value(al) {
+				return nil
+			}
+			val = x.Val
+			n++
+		case *ssa.FieldAddr:
+			if x.Referrers() == nil {
+				continue
+			}
+			for _, r2 := range *x.Referrers() {
+				switch y := r2.(type) {
+				case *ssa.UnOp:
+					if y.Op != token.MUL {
+						return nil
+					}
+				case *ssa.DebugRef:
+				default:
+					return nil
+				}
+			}
+		case *ssa.UnOp:
+			if x.Op != token.MUL {
+				return nil
+			}
+		case *ssa.DebugRef:
+		default:
+			return nil
+		}
+	}
+	if n != 1 {
+		return nil
+	}
+	return val
+}
+
+// same: the two values denote the same run-time value as far as the view can tell.
+func (g *c05Graph) same(a, b c05V) bool { return g.sameAs(a, b, true) }
+
+// sameAs: with throughCalls, the result of an inlined call also stands for
+// each of the values the callee may return (as a phi stands for its operands);
+// facts about nil-ness must not be transferred that way.
+func (g *c05Graph) sameAs(a, b c05V, throughCalls bool) bool {
+	if a.V == nil || b.V == nil {
+		return false
+	}
+	oa, ob := g.origin(a), g.origin(b)
+	if oa == ob {
+		return true
+	}
+	// a phi (or the result of an inlined call) one of whose incoming values is the other
+	flows := func(x, y c05V) bool {
+		if ph, ok := x.V.(*ssa.Phi); ok {
+			for _, e := range ph.Edges {
+				if g.origin(c05V{x.Ctx, e}) == y {
+					return true
+				}
+			}
+		}
+		if !throughCalls {
+			return false
+		}
+		if k, idx, ok := g.resultOf(x); ok {
+			for _, res := range k.rets {
+				if idx < len(res) {
+					for _, l := range c05Leaves(res[idx], nil, 0) {
+						if g.origin(c05V{k, l.V}) == y {
+							return true
+						}
+					}
+				}
+			}
+		}
+		return false
+	}
+	return flows(oa, ob) || flows(ob, oa)
+}
+
+// isParam: v stands for parameter idx of the root function.
+func (g *c05Graph) isParam(v c05V, idx int) bool {
+	ps := g.root.fn.Params
+	return idx < len(ps) && g.same(v, c05V{g.root, ps[idx]})
+}
+
+// dependsOn: v transitively depends (operands, variable stores, elements
+// stored into locally built arrays/structs, a helper's parameter -> the
+// argument, an inlined call's result -> what it returns) on a value
+// satisfying target.
+func (g *c05Graph) dependsOn(v c05V, target func(c05V) bool) bool {
+	return g.dependsOnB(v, target, nil)
+}
+
+// c05IsSubSlice: v is x[lo:hi] with a bound (a proper part of x as far as can be told).
+func c05IsSubSlice(v c05V) bool {
+	sl, ok := v.V.(*ssa.Slice)
+	return ok && (sl.Low != nil || sl.High != nil)
+}
+
+// dependsOnB is dependsOn that does not look through values satisfying barrier.
+func (g *c05Graph) dependsOnB(v c05V, target func(c05V) bool, barrier func(c05V) bool) bool {
+	seen := map[c05V]bool{}
+	var walk func(v c05V, depth int) bool
+	walk = func(v c05V, depth int) bool {
+		if v.V == nil || seen[v] || depth > 80 {
+			return false
+		}
+		seen[v] = true
+		if fn := c05ValueFn(v.V); fn != nil {
+			v.Ctx = c05CtxFor(v.Ctx, fn)
+		}
+		if target(v) {
+			return true
+		}
+		if barrier != nil && barrier(v) {
+			return false
+		}
+		switch x := v.V.(type) {
+		case *ssa.Parameter:
+			if a, ok := v.Ctx.paramArg(x); ok {
+				return walk(a, depth+1)
+			}
+			return false
+		case *ssa.FreeVar:
+			if b := bindingOf(x); b != nil {
+				return walk(c05V{c05CtxFor(v.Ctx, x.Parent().Parent()), b}, depth+1)
+			}
+			return false
+		case *ssa.Alloc:
+			if x.Referrers() == nil {
+				return false
+			}
+			for _, ref := range *x.Referrers() {
+				switch y := ref.(type) {
+				case *ssa.Store:
+					if y.Addr == ssa.Value(x) && walk(c05V{v.Ctx, y.Val}, depth+1) {
+						return true
+					}
+				case *ssa.IndexAddr, *ssa.FieldAddr:
+					for _, r2 := range *y.(ssa.Value).Referrers() {
+						if st, ok := r2.(*ssa.Store); ok && st.Addr == y.(ssa.Value) && walk(c05V{v.Ctx, st.Val}, depth+1) {
+							return true
+						}
+					}
+				}
+			}
+			return false
+		case *ssa.UnOp:
+			if x.Op == token.MUL {
+				if cell, ok := varOf(x.X); ok {
+					if cell != x.X && target(c05V{c05CtxFor(v.Ctx, c05ValueFn(cell)), cell}) {
+						return true
+					}
+					for _, st := range storesTo(cell) {
+						if walk(c05V{c05CtxFor(v.Ctx, st.Parent()), st.Val}, depth+1) {
+							return true
+						}
+					}
+				}
+			}
+		case *ssa.Call, *ssa.Extract:
+			if k, idx, ok := g.resultOf(v); ok {
+				for _, res := range k.rets {
+					if idx < len(res) && walk(c05V{k, res[idx]}, depth+1) {
+						return true
+					}
+				}
+				return false
+			}
+		}
+		if in, ok := v.V.(ssa.Instruction); ok {
+			for _, op := range in.Operands(nil) {
+				if *op != nil && walk(c05V{v.Ctx, *op}, depth+1) {
+					return true
+				}
+			}
+		}
+		return false
+	}
+	return walk(v, 0)
+}
+
+// fieldOf: addr is &X.field of the pkg/index struct typeName; returns X.
+func (g *c05Graph) fieldOf(addr c05V, typeName, field string) (c05V, bool) {
+	if base, ok := c05FieldOf(addr.V, typeName, field); ok {
+		return c05V{addr.Ctx, base}, true
+	}
+	if o := g.origin(addr); o != addr && o.V != nil {
+		if base, ok := c05FieldOf(o.V, typeName, field); ok {
+			return c05V{o.Ctx, base}, true
+		}
+	}
+	return c05V{}, false
+}
+
+// loadOfField: v is a load of X.field; returns X.
+func (g *c05Graph) loadOfField(v c05V, typeName, field string) (c05V, bool) {
+	for i := 0; i < 2; i++ {
+		if u, ok := v.V.(*ssa.UnOp); ok && u.Op == token.MUL {
+			if base, ok := c05FieldOf(u.X, typeName, field); ok {
+				return c05V{v.Ctx, base}, true
+			}
+		}
+		o := g.origin(v)
+		if o == v || o.V == nil {
+			break
+		}
+		v = o
+	}
+	return c05V{}, false
+}
+
+// ---- branch facts
+
+// c05Fact: condition C evaluated to Val; or (IsNil) value C is nil (Val) /
+// non-nil (!Val).
+type c05Fact struct {
+	C     c05V
+	Val   bool
+	IsNil bool
+}
+
+// edgeFact: the fact established by taking the edge from -> to, if any.
+func (g *c05Graph) edgeFact(from, to *c05Node) (c05Fact, bool) {
+	if from.kid != nil || from.hi != len(from.b.Instrs) || len(from.succs) != 2 || from.succs[0] == from.succs[1] {
+		return c05Fact{}, false
+	}
+	ifi, ok := from.last().(*ssa.If)
+	if !ok {
+		return c05Fact{}, false
+	}
+	switch to {
+	case from.succs[0]:
+		return c05Fact{C: c05V{from.ctx, ifi.Cond}, Val: true}, true
+	case from.succs[1]:
+		return c05Fact{C: c05V{from.ctx, ifi.Cond}, Val: false}, true
+	}
+	return c05Fact{}, false
+}
+
+// factsAt returns what is known on every path to (the whole of) node n: the
+// conditions of the dominating branch edges, and what follows from them about
+// the returns of inlined helpers.
+func (g *c05Graph) factsAt(n *c05Node) []c05Fact {
+	if n == nil || n.rpo < 0 {
+		return nil
+	}
+	if f, ok := g.factMemo[n]; ok {
+		return f
+	}
+	var out []c05Fact
+	for d := n.idom; d != nil && d != n; d = d.idom {
+		if len(d.succs) == 2 && d.succs[0] != d.succs[1] {
+			for i := 0; i < 2; i++ {
+				s := d.succs[i]
+				if !(s == n || g.dominates(s, n)) {
+					continue
+				}
+				okEdge := true
+				for _, p := range s.preds {
+					if p != d && p.rpo >= 0 && !g.dominates(s, p) {
+						okEdge = false
+					}
+				}
+				if !okEdge {
+					continue
+				}
+				if f, ok := g.edgeFact(d, s); ok {
+					out = append(out, f)
+				}
+			}
+		}
+		if d.idom == d {
+			break
+		}
+	}
+	if g.factBusy[n] {
+		return out
+	}
+	g.factBusy[n] = true
+	out = g.expandFacts(out)
+	delete(g.factBusy, n)
+	g.factMemo[n] = out
+	return out
+}
+
+// factsOnEdge: the facts at the end of from, plus the edge's own condition.
+func (g *c05Graph) factsOnEdge(from, to *c05Node) []c05Fact {
+	out := append([]c05Fact(nil), g.factsAt(from)...)
+	if to != nil {
+		if f, ok := g.edgeFact(from, to); ok {
+			out = g.expandFacts(append(out, f))
+		}
+	}
+	return out
+}
+
+// c05ResLeaf is one value a helper may return for a result, with the node at
+// whose end it is chosen and (for phi operands) the node the edge leads to.
+type c05ResLeaf struct {
+	V    c05V
+	At   *c05Node
+	Next *c05Node
+}
+
+func (g *c05Graph) resultLeaves(k *c05Ctx, idx int) []c05ResLeaf {
+	var out []c05ResLeaf
+	for _, rn := range k.returnNodes() {
+		res := k.rets[rn.last().(*ssa.Return)]
+		if idx >= len(res) {
+			continue
+		}
+		for _, l := range c05Leaves(res[idx], rn.b, 0) {
+			at, next := rn, (*c05Node)(nil)
+			if l.To != nil {
+				at = g.lastNode(k, l.At)
+				next = g.firstNode(k, l.To)
+			}
+			out = append(out, c05ResLeaf{c05V{k, l.V}, at, next})
+		}
+	}
+	return out
+}
+
+// expandFacts adds, for every fact that says something about the result of an
+// inlined call (true/false, nil/non-nil), the facts common to all returns of
+// the callee that are compatible with it.
+func (g *c05Graph) expandFacts(facts []c05Fact) []c05Fact {
+	have := map[c05Fact]bool{}
+	for _, f := range facts {
+		have[f] = true
+	}
+	for i := 0; i < len(facts) && i < 96; i++ {
+		f := facts[i]
+		var subject c05V
+		wantNil, wantVal := false, false
+		if f.IsNil {
+			subject, wantNil, wantVal = f.C, true, f.Val
+		} else {
+			cc, val := g.condCore(f.C, f.Val)
+			cond := cc.V
+			if bo, ok := cond.(*ssa.BinOp); ok && (bo.Op == token.EQL || bo.Op == token.NEQ) && (IsNilConst(bo.X) || IsNilConst(bo.Y)) {
+				other := bo.X
+				if IsNilConst(bo.X) {
+					other = bo.Y
+				}
+				subject, wantNil, wantVal = c05V{cc.Ctx, other}, true, (bo.Op == token.EQL) == val
+			} else {
+				subject, wantVal = cc, val
+			}
+		}
+		// the subject as an inlined call's result (through parameters and plain variables)
+		so := subject
+		k, idx, ok := g.resultOf(so)
+		if !ok {
+			so = g.originShallow(subject)
+			k, idx, ok = g.resultOf(so)
+		}
+		if !ok {
+			continue
+		}
+		var common map[c05Fact]bool
+		n := 0
+		for _, l := range g.resultLeaves(k, idx) {
+			lf := g.factsOnEdge(l.At, l.Next)
+			var self *c05Fact
+			if wantNil {
+				if IsNilConst(l.V.V) {
+					if !wantVal {
+						continue
+					}
+				} else if kn, isNil := g.nilFact(lf, l.V); kn {
+					if isNil != wantVal {
+						continue
+					}
+				} else if isNonNilErrorExpr(l.V.V) {
+					if wantVal {
+						continue
+					}
+				} else {
+					self = &c05Fact{C: l.V, Val: wantVal, IsNil: true}
+				}
+			} else {
+				if c, ok := l.V.V.(*ssa.Const); ok && c.Value != nil && c.Value.Kind() == constant.Bool {
+					if constant.BoolVal(c.Value) != wantVal {
+						continue
+					}
+				} else {
+					self = &c05Fact{C: l.V, Val: wantVal}
+				}
+			}
+			set := map[c05Fact]bool{}
+			for _, x := range lf {
+				set[x] = true
+			}
+			if self != nil {
+				set[*self] = true
+			}
+			if n == 0 {
+				common = set
+			} else {
+				for x := range common {
+					if !set[x] {
+						delete(common, x)
+					}
+				}
+			}
+			n++
+		}
+		var add []c05Fact
+		for x := range common {
+			if !have[x] {
+				add = append(add, x)
+			}
+		}
+		sort.Slice(add, func(i, j int) bool { return c05FactLess(add[i], add[j]) })
+		for _, x := range add {
+			have[x] = true
+			facts = append(facts, x)
+		}
+	}
+	return facts
+}
+
+func c05FactLess(a, b c05Fact) bool {
+	ka := fmt.Sprintf("%d|%s|%v|%v", c05CtxID(a.C.Ctx), a.C.V.Name(), a.Val, a.IsNil)
+	kb := fmt.Sprintf("%d|%s|%v|%v", c05CtxID(b.C.Ctx), b.C.V.Name(), b.Val, b.IsNil)
+	return ka < kb
+}
+
+func c05CtxID(c *c05Ctx) int {
+	if c == nil {
+		return -1
+	}
+	return c.id
+}
+
+// originShallow follows only value-preserving steps that keep "the result of
+// a call" a call result: wrappers, single-store variables, parameters.
+func (g *c05Graph) originShallow(v c05V) c05V {
+	for i := 0; i < 16 && v.V != nil; i++ {
+		o := originValue(v.V)
+		if fn := c05ValueFn(o); fn != nil {
+			v = c05V{c05CtxFor(v.Ctx, fn), o}
+		} else {
+			return c05V{nil, o}
+		}
+		if p, ok := o.(*ssa.Parameter); ok {
+			if a, ok := v.Ctx.paramArg(p); ok {
+				v = a
+				continue
+			}
+		}
+		break
+	}
+	return v
+}
+
+// condCore strips negations from a condition and looks through parameters of
+// inlined helpers (the caller's argument) and plain single-assignment
+// variables; val is adjusted for the negations.
+func (g *c05Graph) condCore(c c05V, val bool) (c05V, bool) {
+	for i := 0; i < 16 && c.V != nil; i++ {
+		next := false
+		switch x := c.V.(type) {
+		case *ssa.UnOp:
+			if x.Op == token.NOT {
+				c, val, next = c05V{c.Ctx, x.X}, !val, true
+			} else if x.Op == token.MUL {
+				if o := originValue(x); o != ssa.Value(x) && o != nil {
+					if fn := c05ValueFn(o); fn != nil {
+						c = c05V{c05CtxFor(c.Ctx, fn), o}
+					} else {
+						c = c05V{nil, o}
+					}
+					next = true
+				}
+			}
+		case *ssa.Parameter:
+			if a, ok := c.Ctx.paramArg(x); ok {
+				c, next = a, true
+			}
+		}
+		if !next {
+			break
+		}
+	}
+	return c, val
+}
+
+// nilFact: what facts say about v's nil-ness.
+func (g *c05Graph) nilFact(facts []c05Fact, v c05V) (known, isNil bool) {
+	for _, f := range facts {
+		if f.IsNil {
+			if g.sameAs(f.C, v, false) {
+				return true, f.Val
+			}
+			continue
+		}
+		cc, val := g.condCore(f.C, f.Val)
+		cond := cc.V
+		bo, ok := cond.(*ssa.BinOp)
+		if !ok || (bo.Op != token.EQL && bo.Op != token.NEQ) {
+			continue
+		}
+		var other ssa.Value
+		if IsNilConst(bo.Y) {
+			other = bo.X
+		} else if IsNilConst(bo.X) {
+			other = bo.Y
+		} else {
+			continue
+		}
+		if g.sameAs(c05V{cc.Ctx, other}, v, false) {
+			return true, (bo.Op == token.EQL) == val
+		}
+	}
+	return false, false
+}
+
+// boolCallFact: a call satisfying pred is known to have returned val.
+func (g *c05Graph) boolCallFact(facts []c05Fact, pred func(c05S) bool) (known, val bool, site c05S) {
+	for _, f := range facts {
+		if f.IsNil {
+			continue
+		}
+		cc, v := g.condCore(f.C, f.Val)
+		o := g.originShallow(cc)
+		if c, ok := o.V.(*ssa.Call); ok {
+			s := c05S{o.Ctx, CallSite{c.Parent(), c}}
+			if pred(s) {
+				return true, v, s
+			}
+		}
+	}
+	return false, false, c05S{}
+}
+
+// lenZeroFact: what facts say about len(x)==0 for a slice/map x satisfying is.
+func (g *c05Graph) lenZeroFact(facts []c05Fact, is func(c05V) bool) (known, empty bool) {
+	for _, f := range facts {
+		if f.IsNil {
+			continue
+		}
+		cc, val := g.condCore(f.C, f.Val)
+		bo, ok := cc.V.(*ssa.BinOp)
+		if !ok {
+			continue
+		}
+		x, y, op := bo.X, bo.Y, bo.Op
+		if _, isC := x.(*ssa.Const); isC { // 0 == len(x), 0 < len(x)
+			x, y = y, x
+			switch op {
+			case token.LSS:
+				op = token.GTR
+			case token.GTR:
+				op = token.LSS
+			case token.LEQ:
+				op = token.GEQ
+			case token.GEQ:
+				op = token.LEQ
+			}
+		}
+		lc, ok := g.originShallow(c05V{cc.Ctx, x}).V.(*ssa.Call)
+		if !ok || !c05IsBuiltin(CallSite{lc.Parent(), lc}, "len") || len(lc.Call.Args) != 1 {
+			continue
+		}
+		lctx := c05CtxFor(cc.Ctx, lc.Parent())
+		if !is(c05V{lctx, lc.Call.Args[0]}) {
+			continue
+		}
+		n, ok := ConstInt(y)
+		if !ok {
+			continue
+		}
+		switch {
+		case n == 0 && op == token.EQL:
+			return true, val
+		case n == 0 && (op == token.NEQ || op == token.GTR):
+			return true, !val
+		case n == 0 && op == token.LEQ:
+			return true, val
+		case n == 1 && op == token.GEQ:
+			return true, !val
+		case n == 1 && op == token.LSS:
+			return true, val
+		}
+	}
+	return false, false
+}
+
+// ---- returns of the root
+
+// c05Ret is one way the root may return a possibly-nil error: the root's
+// Return, the leaf error value, and the nodes at whose ends the leaf is
+// chosen (outermost first; the facts of all of them hold).
+type c05Ret struct {
+	Ret   *ssa.Return
+	Val   c05V
+	Ats   []*c05Node
+	Nexts []*c05Node // per At: the node a phi edge leads to (nil otherwise)
+}
+
+func (g *c05Graph) rootReturns() []*c05Node { return g.root.returnNodes() }
+
+// nilRets lists the leaves of the root's error result that may be nil.
+func (g *c05Graph) nilRets() []c05Ret {
+	idx := ErrResultIndex(g.root.fn)
+	if idx < 0 {
+		return nil
+	}
+	var out []c05Ret
+	for _, rn := range g.rootReturns() {
+		ret := rn.last().(*ssa.Return)
+		g.maybeNil(ret, c05V{g.root, g.root.rets[ret][idx]}, []*c05Node{rn}, []*c05Node{nil}, 0, &out)
+	}
+	return out
+}
+
+func (g *c05Graph) retFacts(r c05Ret) []c05Fact {
+	var out []c05Fact
+	for i, n := range r.Ats {
+		out = append(out, g.factsOnEdge(n, r.Nexts[i])...)
+	}
+	return out
+}
+
+// retAfter: instruction i has executed whenever the root returns through leaf
+// r: by dominance, or because no feasible path from the entry reaches r's
+// Return with a possibly-nil error without passing i.
+func (g *c05Graph) retAfter(i c05I, r c05Ret) bool {
+	for k, n := range r.Ats {
+		if k == 0 && len(r.Ats) == 1 && r.Nexts[0] == nil {
+			if g.precedes(i, c05I{g.root, r.Ret}) {
+				return true
+			}
+			break
+		}
+		if g.precedesEnd(i, n) {
+			return true
+		}
+	}
+	x := &c05X{G: g, IgnorePanics: true, Stop: func(j c05I) bool { return j == i }, ExitOK: func(c05I) bool { return true }}
+	x.Fail = func(j c05I) bool { return j.In == ssa.Instruction(r.Ret) && g.successExit(x, j) }
+	return len(x.FromEntry()) == 0
+}
+
+// successExit: j is a Return of the root whose error result is not known
+// non-nil on the explored path.
+func (g *c05Graph) successExit(x *c05X, j c05I) bool {
+	ret, ok := j.In.(*ssa.Return)
+	if !ok || j.Ctx != g.root {
+		return false
+	}
+	idx := ErrResultIndex(g.root.fn)
+	if idx < 0 {
+		return true
+	}
+	if k, isNil := x.IsNil(c05V{g.root, g.root.rets[ret][idx]}); k && !isNil {
+		return false
+	}
+	return true
+}
+
+func (g *c05Graph) maybeNil(ret *ssa.Return, v c05V, ats, nexts []*c05Node, depth int, out *[]c05Ret) {
+	leaf := func() {
+		*out = append(*out, c05Ret{ret, v, append([]*c05Node(nil), ats...), append([]*c05Node(nil), nexts...)})
+	}
+	if IsNilConst(v.V) {
+		leaf()
+		return
+	}
+	var facts []c05Fact
+	for i, n := range ats {
+		facts = append(facts, g.factsOnEdge(n, nexts[i])...)
+	}
+	if k, isNil := g.nilFact(facts, v); k && !isNil {
+		return
+	}
+	if isNonNilErrorExpr(v.V) {
+		return
+	}
+	if depth > 8 {
+		leaf()
+		return
+	}
+	at := ats[len(ats)-1]
+	if ph, ok := v.V.(*ssa.Phi); ok {
+		for i, e := range ph.Edges {
+			pn := g.lastNode(v.Ctx, ph.Block().Preds[i])
+			nx := g.firstNode(v.Ctx, ph.Block())
+			// the phi edge replaces the innermost position when it lies in the same context
+			a2, n2 := append([]*c05Node(nil), ats...), append([]*c05Node(nil), nexts...)
+			if at.ctx == v.Ctx {
+				a2[len(a2)-1], n2[len(n2)-1] = pn, nx
+			} else {
+				a2, n2 = append(a2, pn), append(n2, nx)
+			}
+			g.maybeNil(ret, c05V{v.Ctx, e}, a2, n2, depth+1, out)
+		}
+		return
+	}
+	o := g.originShallow(v)
+	if k, idx, ok := g.resultOf(o); ok {
+		for _, rn := range k.returnNodes() {
+			res := k.rets[rn.last().(*ssa.Return)]
+			if idx < len(res) {
+				g.maybeNil(ret, c05V{k, res[idx]}, append(append([]*c05Node(nil), ats...), rn), append(append([]*c05Node(nil), nexts...), nil), depth+1, out)
+			}
+		}
+		return
+	}
+	if o != v && o.V != nil {
+		if _, isPhi := o.V.(*ssa.Phi); isPhi || IsNilConst(o.V) {
+			g.maybeNil(ret, o, ats, nexts, depth+1, out)
+			return
+		}
+	}
+	leaf()
+}
+
+// c05Tuple is one way the root may return: all results, resolved through
+// `return helper(...)`.
+type c05Tuple struct {
+	Ret     *ssa.Return
+	Results []c05V
+	Ats     []*c05Node
+}
+
+func (g *c05Graph) returnTuples() []c05Tuple {
+	var out []c05Tuple
+	var expand func(ret *ssa.Return, c *c05Ctx, rn *c05Node, ats []*c05Node, depth int)
+	expand = func(ret *ssa.Return, c *c05Ctx, rn *c05Node, ats []*c05Node, depth int) {
+		res := c.rets[rn.last().(*ssa.Return)]
+		ats = append(append([]*c05Node(nil), ats...), rn)
+		// all results are the results, in order, of one inlined call?
+		var kid *c05Ctx
+		ok := len(res) > 0 && depth < 6
+		for i, v := range res {
+			k, idx, isRes := g.resultOf(g.originShallow(c05V{c, v}))
+			if !isRes || idx != i || (kid != nil && k != kid) {
+				ok = false
+				break
+			}
+			kid = k
+		}
+		if ok && kid != nil {
+			for _, krn := range kid.returnNodes() {
+				expand(ret, kid, krn, ats, depth+1)
+			}
+			return
+		}
+		t := c05Tuple{Ret: ret, Ats: ats}
+		for _, v := range res {
+			t.Results = append(t.Results, c05V{c, v})
+		}
+		out = append(out, t)
+	}
+	for _, rn := range g.rootReturns() {
+		expand(rn.last().(*ssa.Return), g.root, rn, nil, 0)
+	}
+	return out
+}
+
+func (g *c05Graph) tupleFacts(t c05Tuple) []c05Fact {
+	var out []c05Fact
+	for _, n := range t.Ats {
+		out = append(out, g.factsAt(n)...)
+	}
+	return out
+}
+
+func (g *c05Graph) tupleAfter(i c05I, t c05Tuple) bool {
+	for _, n := range t.Ats {
+		if nn, _ := g.nodeOf(i); nn != nil && nn != n && g.dominates(nn, n) {
+			return true
+		}
+		if nn, ii := g.nodeOf(i); nn == n && ii < n.hi-1 {
+			return true
+		}
+	}
+	return false
+}
+
+// ---- path exploration
+
+// c05X explores the paths of the effective body, carrying what is known about
+// booleans (flags through phis, results of helpers) and nil-ness (errors)
+// along each path; knowledge about a value is dropped when the instruction
+// that defines it executes again.
+type c05X struct {
+	G            *c05Graph
+	Init         map[c05V]bool // initial knowledge: bool value, or (nil-able types) true = nil
+	Assume       func(cond c05V) (known, val bool)
+	Stop         func(i c05I) bool // obligation met: the path ends fine
+	Fail         func(i c05I) bool // reaching this instruction is a leak
+	ExitOK       func(i c05I) bool // acceptable Return of the top context / Panic
 	IgnorePanics bool
+	Top          *c05Ctx // the context whose returns are exits (default: the root)
+
+	env map[c05V]bool // current path's knowledge, valid during callbacks
+	cur *c05Node      // the node being walked
 }
 
-type c05Leak struct {
-	At  ssa.Instruction
-	Via []*ssa.BasicBlock
+type c05XLeak struct {
+	At  c05I
+	Via []*c05Node
 }
 
 func c05IsBool(t types.Type) bool {
@@ -77,140 +1603,440 @@ func c05IsBool(t types.Type) bool {
 	return ok && b.Info()&types.IsBoolean != 0
 }
 
-func (e *c05Explorer) cond(c ssa.Value, env map[*ssa.Phi]bool) (known, val bool) {
-	switch x := c.(type) {
-	case *ssa.Const:
-		if x.Value != nil && x.Value.Kind() == constant.Bool {
-			return true, constant.BoolVal(x.Value)
-		}
-	case *ssa.Phi:
-		if v, ok := env[x]; ok {
-			return true, v
-		}
-	case *ssa.UnOp:
-		if x.Op == token.NOT {
-			k, v := e.cond(x.X, env)
-			return k, !v
+func c05Nilable(t types.Type) bool {
+	switch t.Underlying().(type) {
+	case *types.Pointer, *types.Interface, *types.Slice, *types.Map, *types.Chan, *types.Signature:
+		return true
+	}
+	return false
+}
+
+func (x *c05X) lookup(env map[c05V]bool, v c05V) (known, val bool) {
+	if b, ok := env[v]; ok {
+		return true, b
+	}
+	if len(env) == 0 {
+		return false, false
+	}
+	if o := x.G.originShallow(v); o != v {
+		if b, ok := env[o]; ok {
+			return true, b
 		}
 	}
-	for _, v := range e.NonNil {
-		if k, isNil := condSaysNil(c, true, v); k {
-			return true, !isNil
+	if o := x.G.origin(v); o != v {
+		if b, ok := env[o]; ok {
+			return true, b
 		}
-	}
-	for _, v := range e.Nil {
-		if k, isNil := condSaysNil(c, true, v); k {
-			return true, isNil
-		}
-	}
-	if e.Assume != nil {
-		return e.Assume(c)
 	}
 	return false, false
 }
 
-func c05EnvKey(env map[*ssa.Phi]bool) string {
+func (c *c05Ctx) within(a *c05Ctx) bool {
+	for x := c; x != nil; x = x.parent {
+		if x == a {
+			return true
+		}
+	}
+	return false
+}
+
+// learnable: cond (possibly negated) is `x == nil` / `x != nil` or a plain
+// boolean whose outcome is consulted again later (it is returned by a helper,
+// flows into a phi, or is tested by more than one branch). subj is the value
+// the knowledge is about; taking the true edge means subj == eq (for nil
+// tests: subj is nil == eq).
+func (g *c05Graph) learnable(cond c05V) (subj c05V, isNilTest, eq, ok bool) {
+	subj, isNilTest, eq = g.condSubject(cond)
+	if subj.V == nil {
+		return subj, false, false, false
+	}
+	if _, isConst := subj.V.(*ssa.Const); isConst {
+		return subj, false, false, false
+	}
+	return subj, isNilTest, eq, g.relevantSet()[subj]
+}
+
+// condSubject: the value a branch condition is about.
+func (g *c05Graph) condSubject(cond c05V) (subj c05V, isNilTest, eq bool) {
+	cc, val := g.condCore(cond, true)
+	c := cc.V
+	if c == nil {
+		return c05V{}, false, false
+	}
+	if bo, ok := c.(*ssa.BinOp); ok && (bo.Op == token.EQL || bo.Op == token.NEQ) && (IsNilConst(bo.X) || IsNilConst(bo.Y)) {
+		other := bo.X
+		if IsNilConst(bo.X) {
+			other = bo.Y
+		}
+		return g.originShallow(c05V{cc.Ctx, other}), true, (bo.Op == token.EQL) == val
+	}
+	if !c05IsBool(c.Type()) {
+		return c05V{}, false, false
+	}
+	return g.originShallow(cc), false, val
+}
+
+func (g *c05Graph) relevantSet() map[c05V]bool {
+	if g.relevant != nil {
+		return g.relevant
+	}
+	rel := map[c05V]bool{}
+	tests := map[c05V]int{}
+	add := func(v c05V) {
+		if v.V == nil {
+			return
+		}
+		if _, isConst := v.V.(*ssa.Const); isConst {
+			return
+		}
+		if c05IsBool(v.V.Type()) || c05Nilable(v.V.Type()) {
+			rel[g.originShallow(v)] = true
+		}
+	}
+	for _, c := range g.ctxs {
+		for _, b := range c.fn.Blocks {
+			for _, in := range b.Instrs {
+				switch t := in.(type) {
+				case *ssa.Return:
+					if c.parent != nil {
+						for _, v := range c.rets[t] {
+							for _, l := range c05Leaves(v, nil, 0) {
+								add(c05V{c, l.V})
+							}
+						}
+					}
+				case *ssa.Phi:
+					for _, e := range t.Edges {
+						add(c05V{c, e})
+					}
+				case *ssa.If:
+					if s, _, _ := g.condSubject(c05V{c, t.Cond}); s.V != nil {
+						tests[s]++
+					}
+				}
+			}
+		}
+	}
+	for s, n := range tests {
+		if n >= 2 {
+			rel[s] = true
+		}
+	}
+	g.relevant = rel
+	return rel
+}
+
+// Bool evaluates a boolean under the current path's knowledge (for callbacks).
+func (x *c05X) Bool(v c05V) (known, val bool) { return x.evalBool(v, x.env, 0) }
+
+// IsNil evaluates nil-ness under the current path's knowledge (for callbacks).
+func (x *c05X) IsNil(v c05V) (known, isNil bool) { return x.evalNil(v, x.env, 0) }
+
+func (x *c05X) evalBool(v c05V, env map[c05V]bool, depth int) (known, val bool) {
+	if v.V == nil || depth > 12 {
+		return false, false
+	}
+	switch c := v.V.(type) {
+	case *ssa.Const:
+		if c.Value != nil && c.Value.Kind() == constant.Bool {
+			return true, constant.BoolVal(c.Value)
+		}
+		return false, false
+	case *ssa.Parameter:
+		if a, ok := v.Ctx.paramArg(c); ok {
+			return x.evalBool(a, env, depth+1)
+		}
+	case *ssa.UnOp:
+		if c.Op == token.NOT {
+			k, b := x.evalBool(c05V{v.Ctx, c.X}, env, depth+1)
+			return k, !b
+		}
+	case *ssa.BinOp:
+		if c.Op == token.EQL || c.Op == token.NEQ {
+			var other ssa.Value
+			if IsNilConst(c.Y) {
+				other = c.X
+			} else if IsNilConst(c.X) {
+				other = c.Y
+			}
+			if other != nil {
+				if k, isNil := x.evalNil(c05V{v.Ctx, other}, env, depth+1); k {
+					return true, (c.Op == token.EQL) == isNil
+				}
+			} else if c05IsBool(c.X.Type()) {
+				ka, a := x.evalBool(c05V{v.Ctx, c.X}, env, depth+1)
+				kb, b := x.evalBool(c05V{v.Ctx, c.Y}, env, depth+1)
+				if ka && kb {
+					return true, (c.Op == token.EQL) == (a == b)
+				}
+			}
+		}
+	}
+	if k, b := x.lookup(env, v); k {
+		return true, b
+	}
+	if x.Assume != nil {
+		return x.Assume(v)
+	}
+	return false, false
+}
+
+func (x *c05X) evalNil(v c05V, env map[c05V]bool, depth int) (known, isNil bool) {
+	if v.V == nil || depth > 12 {
+		return false, false
+	}
+	if IsNilConst(v.V) {
+		return true, true
+	}
+	if k, b := x.lookup(env, v); k {
+		return true, b
+	}
+	switch c := v.V.(type) {
+	case *ssa.Parameter:
+		if a, ok := v.Ctx.paramArg(c); ok {
+			return x.evalNil(a, env, depth+1)
+		}
+		return false, false
+	case *ssa.ChangeInterface:
+		return x.evalNil(c05V{v.Ctx, c.X}, env, depth+1)
+	case *ssa.ChangeType:
+		return x.evalNil(c05V{v.Ctx, c.X}, env, depth+1)
+	case *ssa.MakeInterface, *ssa.Alloc, *ssa.MakeClosure, *ssa.MakeMap, *ssa.MakeSlice, *ssa.MakeChan:
+		return true, false
+	case *ssa.Phi:
+		return false, false
+	}
+	if isNonNilErrorExpr(v.V) {
+		return true, false
+	}
+	// what dominance says at the current position holds on every path
+	if x.cur != nil {
+		if k, isNil := x.G.nilFact(x.G.factsAt(x.cur), v); k {
+			return true, isNil
+		}
+	}
+	return false, false
+}
+
+func c05EnvKey(env map[c05V]bool) string {
+	if len(env) == 0 {
+		return ""
+	}
 	var s []string
-	for ph, v := range env {
-		s = append(s, fmt.Sprintf("%s=%v", ph.Name(), v))
+	for k, v := range env {
+		s = append(s, fmt.Sprintf("%d.%s=%v", c05CtxID(k.Ctx), k.V.Name(), v))
 	}
 	sort.Strings(s)
 	return strings.Join(s, ",")
 }
 
-func (e *c05Explorer) run(b *ssa.BasicBlock, idx int, pred *ssa.BasicBlock) []c05Leak {
-	var leaks []c05Leak
+func (x *c05X) run(n *c05Node, idx int, pred *c05Node) []c05XLeak {
+	g := x.G
+	top := x.Top
+	if top == nil {
+		top = g.root
+	}
+	var leaks []c05XLeak
 	seen := map[string]bool{}
-	var walk func(b *ssa.BasicBlock, idx int, pred *ssa.BasicBlock, env map[*ssa.Phi]bool, via []*ssa.BasicBlock)
-	walk = func(b *ssa.BasicBlock, idx int, pred *ssa.BasicBlock, env map[*ssa.Phi]bool, via []*ssa.BasicBlock) {
-		nenv := env
-		if pred != nil {
-			nenv = map[*ssa.Phi]bool{}
-			for k, v := range env {
-				nenv[k] = v
+	clone := func(env map[c05V]bool) map[c05V]bool {
+		ne := make(map[c05V]bool, len(env)+2)
+		for k, v := range env {
+			ne[k] = v
+		}
+		return ne
+	}
+	set := func(env map[c05V]bool, v c05V, src c05V, old map[c05V]bool) {
+		delete(env, v)
+		switch {
+		case c05IsBool(v.V.Type()):
+			if k, b := x.evalBool(src, old, 0); k {
+				env[v] = b
 			}
+		case c05Nilable(v.V.Type()):
+			if k, b := x.evalNil(src, old, 0); k {
+				env[v] = b
+			}
+		}
+	}
+	var walk func(n *c05Node, idx int, pred *c05Node, env map[c05V]bool, via []*c05Node)
+	walk = func(n *c05Node, idx int, pred *c05Node, env map[c05V]bool, via []*c05Node) {
+		nenv := env
+		if pred != nil && idx == 0 && n.lo == 0 && pred.ctx == n.ctx && pred.kid == nil {
 			pi := -1
-			for i, pp := range b.Preds {
-				if pp == pred {
+			for i, pp := range n.b.Preds {
+				if pp == pred.b {
 					pi = i
 					break
 				}
 			}
-			for _, in := range b.Instrs {
+			first := true
+			for _, in := range n.b.Instrs {
 				ph, ok := in.(*ssa.Phi)
 				if !ok {
 					break
 				}
-				delete(nenv, ph)
-				if pi < 0 || !c05IsBool(ph.Type()) {
+				if first {
+					nenv, first = clone(env), false
+				}
+				pv := c05V{n.ctx, ph}
+				if pi < 0 {
+					delete(nenv, pv)
 					continue
 				}
-				if k, v := e.cond(ph.Edges[pi], env); k { // old env: phis are simultaneous
-					nenv[ph] = v
-				}
+				set(nenv, pv, c05V{n.ctx, ph.Edges[pi]}, env) // old env: phis are simultaneous
 			}
 		}
-		key := fmt.Sprintf("%d@%d|%s", b.Index, idx, c05EnvKey(nenv))
+		key := fmt.Sprintf("%d@%d|%s", n.id, idx, c05EnvKey(nenv))
 		if seen[key] {
 			return
 		}
 		seen[key] = true
-		via = append(via[:len(via):len(via)], b)
-		for i := idx; i < len(b.Instrs); i++ {
-			in := b.Instrs[i]
-			if e.Fail != nil && e.Fail(in) {
-				leaks = append(leaks, c05Leak{in, via})
+		via = append(via[:len(via):len(via)], n)
+		start := idx
+		if start < n.lo {
+			start = n.lo
+		}
+		for i := start; i < n.hi; i++ {
+			in := n.b.Instrs[i]
+			I := c05I{n.ctx, in}
+			if v, ok := in.(ssa.Value); ok {
+				_, isPhi := in.(*ssa.Phi)
+				_, isEx := in.(*ssa.Extract) // an Extract is as fresh as its call
+				if !isPhi && !isEx {
+					if _, has := nenv[c05V{n.ctx, v}]; has {
+						nenv = clone(nenv)
+						delete(nenv, c05V{n.ctx, v})
+					}
+					if call, ok := in.(*ssa.Call); ok && call.Referrers() != nil {
+						for _, r := range *call.Referrers() {
+							if ex, ok := r.(*ssa.Extract); ok {
+								if _, has := nenv[c05V{n.ctx, ex}]; has {
+									nenv = clone(nenv)
+									delete(nenv, c05V{n.ctx, ex})
+								}
+							}
+						}
+					}
+				}
+			}
+			x.env, x.cur = nenv, n
+			if x.Fail != nil && x.Fail(I) {
+				leaks = append(leaks, c05XLeak{I, via})
 				return
 			}
-			if e.Stop != nil && e.Stop(in) {
+			if x.Stop != nil && x.Stop(I) {
 				return
 			}
 			switch t := in.(type) {
 			case *ssa.Return:
-				if e.ExitOK == nil || !e.ExitOK(t) {
-					leaks = append(leaks, c05Leak{t, via})
+				if n.ctx == top || n.ctx.parent == nil || n.ctx.side {
+					if x.ExitOK == nil || !x.ExitOK(I) {
+						leaks = append(leaks, c05XLeak{I, via})
+					}
+					return
+				}
+				// bind the call's results in the caller; what was known about the
+				// finished activation's own values is dropped
+				cenv := make(map[c05V]bool, len(nenv)+2)
+				for k, v := range nenv {
+					if k.Ctx == nil || !k.Ctx.within(n.ctx) {
+						cenv[k] = v
+					}
+				}
+				res := n.ctx.rets[t]
+				pc := n.ctx.parent
+				if call, ok := n.ctx.site.(*ssa.Call); ok {
+					if len(res) == 1 {
+						set(cenv, c05V{pc, call}, c05V{n.ctx, res[0]}, nenv)
+					} else if call.Referrers() != nil {
+						for _, r := range *call.Referrers() {
+							if ex, ok := r.(*ssa.Extract); ok && ex.Index < len(res) {
+								set(cenv, c05V{pc, ex}, c05V{n.ctx, res[ex.Index]}, nenv)
+							}
+						}
+					}
+				}
+				for _, s := range n.succs {
+					walk(s, s.lo, n, cenv, via)
 				}
 				return
 			case *ssa.Panic:
-				if !e.IgnorePanics && (e.ExitOK == nil || !e.ExitOK(t)) {
-					leaks = append(leaks, c05Leak{t, via})
+				if !x.IgnorePanics && (x.ExitOK == nil || !x.ExitOK(I)) {
+					leaks = append(leaks, c05XLeak{I, via})
 				}
 				return
 			case *ssa.If:
-				if k, v := e.cond(t.Cond, nenv); k {
-					s := b.Succs[1]
+				if len(n.succs) != 2 {
+					break
+				}
+				if k, v := x.evalBool(c05V{n.ctx, t.Cond}, nenv, 0); k {
+					s := n.succs[1]
 					if v {
-						s = b.Succs[0]
+						s = n.succs[0]
 					}
-					walk(s, 0, b, nenv, via)
+					walk(s, s.lo, n, nenv, via)
+					return
+				}
+				// unknown: both ways, remembering the outcome when it can matter later
+				if subj, isNilTest, eq, ok := g.learnable(c05V{n.ctx, t.Cond}); ok {
+					for bi, s := range n.succs {
+						val := bi == 0
+						if !eq {
+							val = !val
+						}
+						_ = isNilTest
+						e2 := clone(nenv)
+						e2[subj] = val
+						walk(s, s.lo, n, e2, via)
+					}
 					return
 				}
 			}
 		}
-		for _, s := range b.Succs {
-			walk(s, 0, b, nenv, via)
+		for _, s := range n.succs {
+			walk(s, s.lo, n, nenv, via)
 		}
 	}
-	walk(b, idx, pred, map[*ssa.Phi]bool{}, nil)
+	init := map[c05V]bool{}
+	for k, v := range x.Init {
+		init[k] = v
+	}
+	walk(n, idx, pred, init, nil)
 	return leaks
 }
 
-// After explores the paths starting right after instruction in.
-func (e *c05Explorer) After(in ssa.Instruction) []c05Leak {
-	return e.run(in.Block(), instrIndex(in)+1, nil)
+// After explores the paths that start right after instruction i (for an
+// inlined call: after it has returned).
+func (x *c05X) After(i c05I) []c05XLeak {
+	n, idx := x.G.nodeOf(i)
+	if n == nil {
+		return []c05XLeak{{i, nil}}
+	}
+	if idx+1 == n.hi && n.kid != nil {
+		segs := x.G.segs[c05BK{n.ctx, n.b}]
+		for k, s := range segs {
+			if s == n && k+1 < len(segs) {
+				return x.run(segs[k+1], segs[k+1].lo, nil)
+			}
+		}
+	}
+	return x.run(n, idx+1, nil)
 }
 
-// FromEntry explores the paths from the first instruction of fn (inclusive).
-func (e *c05Explorer) FromEntry(fn *ssa.Function) []c05Leak {
-	return e.run(fn.Blocks[0], 0, nil)
+// FromEntry explores the paths from the first instruction of the top context.
+func (x *c05X) FromEntry() []c05XLeak {
+	top := x.Top
+	if top == nil {
+		top = x.G.root
+	}
+	return x.run(top.entry(), 0, nil)
 }
 
-// OnEdge explores the paths that start by taking the CFG edge pred->succ.
-func (e *c05Explorer) OnEdge(pred, succ *ssa.BasicBlock) []c05Leak {
-	return e.run(succ, 0, pred)
-}
+// OnEdge explores the paths that start by taking the edge from -> to.
+func (x *c05X) OnEdge(from, to *c05Node) []c05XLeak { return x.run(to, to.lo, from) }
 
-func c05DescribeLeaks(p *Program, leaks []c05Leak) string {
+func (g *c05Graph) describeLeaks(leaks []c05XLeak) string {
+	p := g.env.p
 	var s []string
 	for i, l := range leaks {
 		if i == 3 {
@@ -218,50 +2044,201 @@ func c05DescribeLeaks(p *Program, leaks []c05Leak) string {
 			break
 		}
 		what := "exit"
-		if _, ok := l.At.(*ssa.Return); !ok {
+		if _, ok := l.At.In.(*ssa.Return); !ok {
 			what = "instruction"
 		}
-		line := p.Fset.Position(l.At.Pos()).Line
-		if line == 0 && len(l.Via) > 0 {
-			for _, in := range l.At.Block().Instrs {
+		line := p.Fset.Position(l.At.In.Pos()).Line
+		if line == 0 && l.At.In.Block() != nil {
+			for _, in := range l.At.In.Block().Instrs {
 				if in.Pos().IsValid() {
 					line = p.Fset.Position(in.Pos()).Line
 				}
 			}
 		}
-		s = append(s, fmt.Sprintf("%s near line %d via blocks %s", what, line, blockNames(l.Via)))
+		var via []string
+		for _, n := range l.Via {
+			if n.ctx.parent == nil {
+				via = append(via, fmt.Sprintf("%d", n.b.Index))
+			} else {
+				via = append(via, fmt.Sprintf("%s:%d", n.ctx.fn.Name(), n.b.Index))
+			}
+		}
+		if len(via) > 12 {
+			via = append(via[:6], append([]string{"…"}, via[len(via)-5:]...)...)
+		}
+		s = append(s, fmt.Sprintf("%s near line %d via blocks %s", what, line, strings.Join(via, ">")))
 	}
 	return strings.Join(s, "; ")
 }
 
-// c05Edge is one CFG edge.
-type c05Edge struct{ From, To *ssa.BasicBlock }
+// allPathsPass: every path from the entry of the top context (default: the
+// root) to an exit passes an instruction satisfying pred: directly, as a
+// deferred call, or inside a deferred function on all of its paths.
+func (g *c05Graph) allPathsPass(top *c05Ctx, pred func(i c05I) bool) []c05XLeak {
+	return (&c05X{G: g, Top: top, IgnorePanics: true, Stop: g.passStop(pred)}).FromEntry()
+}
 
-// c05FailureEdges returns the CFG edges on which the error result of call is
-// known non-nil (the "failure edges" of the branches that test it).
-func c05FailureEdges(call *ssa.Call) (ev ssa.Value, edges []c05Edge) {
-	ev, hasErr, discarded := ErrValue(call)
-	if !hasErr || discarded || ev == nil {
-		return ev, nil
+// ---- lifting: a site that sits in a pure helper is judged in its callers
+
+// c05PureHelper reports whether fn is only ever entered by plain static calls
+// from its own package: an unexported function or method that is never used
+// as a value, never started with go/defer and not reachable through an
+// interface; or a function literal that is only called.
+func (e *c05Env) pureHelper(fn *ssa.Function) ([]CallSite, bool) {
+	p := e.p
+	if fn == nil || e.stop[fn] {
+		return nil, false
 	}
-	for _, b := range call.Parent().Blocks {
-		if len(b.Instrs) == 0 || len(b.Succs) != 2 {
-			continue
+	callers := p.StaticCallers(fn)
+	if len(callers) == 0 {
+		return nil, false
+	}
+	for _, c := range callers {
+		if c.Value() == nil || TopFunc(c.Fn).Pkg != TopFunc(fn).Pkg {
+			return nil, false
 		}
-		ifi, ok := b.Instrs[len(b.Instrs)-1].(*ssa.If)
-		if !ok {
-			continue
-		}
-		if k, isNil := condSaysNil(ifi.Cond, true, ev); k {
-			if isNil {
-				edges = append(edges, c05Edge{b, b.Succs[1]})
-			} else {
-				edges = append(edges, c05Edge{b, b.Succs[0]})
+	}
+	if fn.Parent() != nil {
+		// every use of the closure value is a call of it (directly or through a variable that is only called)
+		for _, mc := range p.cgs().closureMakers[fn] {
+			if mc.Referrers() == nil {
+				continue
+			}
+			for _, r := range *mc.Referrers() {
+				switch u := r.(type) {
+				case *ssa.Call:
+					if u.Call.Value != ssa.Value(mc) {
+						return nil, false
+					}
+				case *ssa.Store:
+					al, ok := u.Addr.(*ssa.Alloc)
+					if !ok || u.Val != ssa.Value(mc) || !plainVariable(al) {
+						return nil, false
+					}
+					okUse := true
+					followVar(al, func(ld *ssa.UnOp) {
+						if ld.Referrers() == nil {
+							return
+						}
+						for _, r2 := range *ld.Referrers() {
+							switch c := r2.(type) {
+							case *ssa.Call:
+								if c.Call.Value != ssa.Value(ld) {
+									okUse = false
+								}
+							case *ssa.DebugRef:
+							default:
+								okUse = false
+							}
+						}
+					})
+					if !okUse {
+						return nil, false
+					}
+				case *ssa.DebugRef:
+				default:
+					return nil, false
+				}
 			}
 		}
+		return callers, true
 	}
-	return ev, edges
+	if fn.Synthetic != "" || token.IsExported(fn.Name()) || len(p.FuncValueUses(fn)) > 0 {
+		return nil, false
+	}
+	if fn.Signature.Recv() != nil && len(p.InvokeSites(fn)) > 0 {
+		return nil, false
+	}
+	return callers, true
 }
+
+// c05Verdict of a lifted check.
+type c05Verdict struct {
+	OK      bool
+	Vacuous bool // nothing to judge at this level (try the callers)
+	Undec   bool
+	Detail  string
+}
+
+// lifted judges a site of function fn: check is evaluated for every context
+// in which fn runs in the effective body rooted at fn; when that does not
+// succeed and fn is a pure helper, in the effective bodies of its callers
+// (all of them must succeed), up to three levels. The verdict of the first
+// level is reported when no level succeeds.
+func (e *c05Env) lifted(fn *ssa.Function, check func(g *c05Graph, c *c05Ctx) c05Verdict) c05Verdict {
+	level := []*ssa.Function{fn}
+	var first c05Verdict
+	everyVacuous := true
+	for depth := 0; depth <= 3 && len(level) > 0; depth++ {
+		allOK, anyVacuous := true, false
+		var worst c05Verdict
+		for _, root := range level {
+			g := e.graph(root)
+			cs := g.ctxsOf(fn)
+			if len(cs) == 0 {
+				allOK = false
+				worst = c05Verdict{Detail: "the helper is not reached by plain calls from " + FuncKey(root)}
+				continue
+			}
+			for _, c := range cs {
+				v := check(g, c)
+				if v.Vacuous {
+					anyVacuous = true
+					if worst.Detail == "" {
+						worst = v
+					}
+					continue
+				}
+				if !v.OK {
+					allOK = false
+					worst = v
+				} else if worst.Detail == "" {
+					worst = v
+				}
+			}
+		}
+		if depth == 0 {
+			first = worst
+			first.OK = allOK && !anyVacuous
+		}
+		if !(allOK && anyVacuous) {
+			everyVacuous = false
+		}
+		if allOK && !anyVacuous {
+			worst.OK = true
+			return worst
+		}
+		// lift
+		var next []*ssa.Function
+		seen := map[*ssa.Function]bool{}
+		liftable := true
+		for _, root := range level {
+			callers, ok := e.pureHelper(root)
+			if !ok {
+				liftable = false
+				break
+			}
+			for _, c := range callers {
+				if !seen[c.Fn] {
+					seen[c.Fn] = true
+					next = append(next, c.Fn)
+				}
+			}
+		}
+		if !liftable {
+			break
+		}
+		sort.Slice(next, func(i, j int) bool { return FuncKey(next[i]) < FuncKey(next[j]) })
+		level = next
+	}
+	if everyVacuous {
+		first.OK, first.Vacuous = true, true
+	}
+	return first
+}
+
+// ---------------------------------------------------------------------------
+// Value-level helpers
 
 // c05FieldOf reports whether addr is &X.field for a struct type named
 // typeName declared in pkg/index, returning X.
@@ -280,18 +2257,6 @@ func c05FieldOf(addr ssa.Value, typeName, field string) (base ssa.Value, ok bool
 	return fa.X, true
 }
 
-// c05LoadOfField reports whether v is a load of X.field (see c05FieldOf).
-func c05LoadOfField(v ssa.Value, typeName, field string) (base ssa.Value, ok bool) {
-	u, isU := v.(*ssa.UnOp)
-	if !isU || u.Op != token.MUL {
-		if o := originValue(v); o != v {
-			return c05LoadOfField(o, typeName, field)
-		}
-		return nil, false
-	}
-	return c05FieldOf(u.X, typeName, field)
-}
-
 // c05GlobalLoad reports whether v is a load of the package-level variable
 // pkgPath.name.
 func c05GlobalLoad(v ssa.Value, pkgPath, name string) bool {
@@ -303,6 +2268,19 @@ func c05GlobalLoad(v ssa.Value, pkgPath, name string) bool {
 	return ok && g.Name() == name && g.Pkg != nil && g.Pkg.Pkg.Path() == pkgPath
 }
 
+// globalLoad: v stands for a load of the package-level variable (through
+// parameters of inlined helpers).
+func (g *c05Graph) globalLoad(v c05V, pkgPath, name string) bool {
+	if v.V == nil {
+		return false
+	}
+	if c05GlobalLoad(v.V, pkgPath, name) {
+		return true
+	}
+	o := g.origin(v)
+	return o.V != nil && c05GlobalLoad(o.V, pkgPath, name)
+}
+
 func c05IsBuiltin(c CallSite, name string) bool {
 	b, ok := c.Common().Value.(*ssa.Builtin)
 	return ok && b.Name() == name
@@ -310,32 +2288,30 @@ func c05IsBuiltin(c CallSite, name string) bool {
 
 // c05MapWrite is one write into a map-typed field: m[k] = v or mak.Set(&x.f, k, v).
 type c05MapWrite struct {
-	Instr    ssa.Instruction
-	Base     ssa.Value // the struct the field belongs to
-	Key, Val ssa.Value
+	I        c05I
+	Base     c05V // the struct the field belongs to
+	Key, Val c05V
 }
 
-// c05FieldMapWrites lists the writes in fn (not nested literals) into the map
-// field typeName.field.
-func c05FieldMapWrites(fn *ssa.Function, typeName, field string) []c05MapWrite {
+// fieldMapWrites lists the writes of the effective body into the map field
+// typeName.field.
+func (g *c05Graph) fieldMapWrites(typeName, field string) []c05MapWrite {
 	var out []c05MapWrite
-	for _, b := range fn.Blocks {
-		for _, in := range b.Instrs {
-			switch x := in.(type) {
-			case *ssa.MapUpdate:
-				if base, ok := c05LoadOfField(x.Map, typeName, field); ok {
-					out = append(out, c05MapWrite{x, base, x.Key, x.Value})
-				}
-			case ssa.CallInstruction:
-				c := CallSite{fn, x}
-				if c05IsGenericFunc(c.Callee(), "tailscale.com/util/mak", "Set") && len(c.Common().Args) == 3 {
-					if base, ok := c05FieldOf(c.Common().Args[0], typeName, field); ok {
-						out = append(out, c05MapWrite{x, base, c.Common().Args[1], c.Common().Args[2]})
-					}
+	g.instrs(func(i c05I) {
+		switch x := i.In.(type) {
+		case *ssa.MapUpdate:
+			if base, ok := g.loadOfField(c05V{i.Ctx, x.Map}, typeName, field); ok {
+				out = append(out, c05MapWrite{i, base, c05V{i.Ctx, x.Key}, c05V{i.Ctx, x.Value}})
+			}
+		case ssa.CallInstruction:
+			c := CallSite{i.Ctx.fn, x}
+			if c05IsGenericFunc(c.Callee(), "tailscale.com/util/mak", "Set") && len(c.Common().Args) == 3 {
+				if base, ok := g.fieldOf(c05V{i.Ctx, c.Common().Args[0]}, typeName, field); ok {
+					out = append(out, c05MapWrite{i, base, c05V{i.Ctx, c.Common().Args[1]}, c05V{i.Ctx, c.Common().Args[2]}})
 				}
 			}
 		}
-	}
+	})
 	return out
 }
 
@@ -351,24 +2327,19 @@ func c05IsGenericFunc(f *ssa.Function, pkgPath, name string) bool {
 	return f.Name() == name && f.Pkg != nil && f.Pkg.Pkg.Path() == pkgPath && f.Signature.Recv() == nil
 }
 
-// c05FieldMapBuiltin lists calls of builtin name (delete, clear, len) in fn whose
-// first argument is a load of typeName.field.
-func c05FieldMapBuiltin(fn *ssa.Function, builtin, typeName, field string) []CallSite {
-	var out []CallSite
-	for _, c := range CallsIn(fn, false) {
-		if !c05IsBuiltin(c, builtin) || len(c.Common().Args) == 0 {
+// fieldMapBuiltin lists calls of builtin name (delete, clear, len) in the
+// effective body whose first argument is a load of typeName.field.
+func (g *c05Graph) fieldMapBuiltin(builtin, typeName, field string) []c05S {
+	var out []c05S
+	for _, c := range g.calls() {
+		if !c05IsBuiltin(c.CallSite, builtin) || len(c.Common().Args) == 0 {
 			continue
 		}
-		if _, ok := c05LoadOfField(c.Common().Args[0], typeName, field); ok {
+		if _, ok := g.loadOfField(c05V{c.Ctx, c.Common().Args[0]}, typeName, field); ok {
 			out = append(out, c)
 		}
 	}
 	return out
-}
-
-// c05CallsTo lists the call instructions of fn (not nested) whose static callee is callee.
-func c05CallsTo(fn, callee *ssa.Function) []CallSite {
-	return FindCalls(fn, false, func(c CallSite) bool { return c.Callee() == callee })
 }
 
 // c05VarargElems returns the values stored, in order, into the backing array of
@@ -409,94 +2380,6 @@ func c05VarargElems(v ssa.Value) []ssa.Value {
 	return out
 }
 
-func c05LenZeroFact(b *ssa.BasicBlock, isSlice func(ssa.Value) bool) (known, empty bool) {
-	for _, f := range FactsAt(b) {
-		bo, ok := f.Cond.(*ssa.BinOp)
-		if !ok {
-			continue
-		}
-		lc, ok := bo.X.(*ssa.Call)
-		if !ok || !c05IsBuiltin(CallSite{lc.Parent(), lc}, "len") || !isSlice(lc.Call.Args[0]) {
-			continue
-		}
-		n, ok := ConstInt(bo.Y)
-		if !ok || n != 0 {
-			continue
-		}
-		switch bo.Op {
-		case token.EQL:
-			return true, f.Val
-		case token.NEQ, token.GTR:
-			return true, !f.Val
-		}
-	}
-	return false, false
-}
-
-// c05DependsOn is DependsOn that additionally looks into the elements stored
-// into locally allocated arrays/structs (variadic argument packs, composite
-// literals), which go/ssa builds with Alloc + IndexAddr/FieldAddr + Store.
-func c05DependsOn(v ssa.Value, target func(ssa.Value) bool) bool {
-	seen := map[ssa.Value]bool{}
-	var walk func(v ssa.Value, depth int) bool
-	walk = func(v ssa.Value, depth int) bool {
-		if v == nil || seen[v] || depth > 60 {
-			return false
-		}
-		seen[v] = true
-		if target(v) {
-			return true
-		}
-		switch x := v.(type) {
-		case *ssa.Alloc:
-			if x.Referrers() == nil {
-				return false
-			}
-			for _, ref := range *x.Referrers() {
-				switch y := ref.(type) {
-				case *ssa.Store:
-					if y.Addr == ssa.Value(x) && walk(y.Val, depth+1) {
-						return true
-					}
-				case *ssa.IndexAddr, *ssa.FieldAddr:
-					for _, r2 := range *y.(ssa.Value).Referrers() {
-						if st, ok := r2.(*ssa.Store); ok && st.Addr == y.(ssa.Value) && walk(st.Val, depth+1) {
-							return true
-						}
-					}
-				}
-			}
-			return false
-		case *ssa.UnOp:
-			if x.Op == token.MUL {
-				if cell, ok := varOf(x.X); ok {
-					for _, st := range storesTo(cell) {
-						if walk(st.Val, depth+1) {
-							return true
-						}
-					}
-				}
-			}
-		}
-		if in, ok := v.(ssa.Instruction); ok {
-			for _, op := range in.Operands(nil) {
-				if *op != nil && walk(*op, depth+1) {
-					return true
-				}
-			}
-		}
-		return false
-	}
-	return walk(v, 0)
-}
-
-func c05ParamIs(v ssa.Value, fn *ssa.Function, idx int) bool {
-	return idx < len(fn.Params) && sameOrigin(v, fn.Params[idx])
-}
-
-// ---------------------------------------------------------------------------
-// I-pending
-
 // c05MayReturnMissingDep computes the functions of pkg/index that may return
 // the errMissingDep sentinel: directly, or (over-approximated) by calling a
 // function that does.
@@ -535,63 +2418,115 @@ func c05MayReturnMissingDep(p *Program) (direct, all map[*ssa.Function]bool) {
 
 type c05Leaf struct {
 	V  ssa.Value
-	At *ssa.BasicBlock
+	At *ssa.BasicBlock // the block at whose end the value is chosen
+	To *ssa.BasicBlock // for phi operands: the phi's block (the edge At -> To selects V)
 }
 
 // c05Leaves expands phis: each leaf value with the block in which it is chosen
 // (the predecessor contributing the phi edge).
 func c05Leaves(v ssa.Value, at *ssa.BasicBlock, depth int) []c05Leaf {
+	return c05LeavesTo(v, at, nil, depth)
+}
+
+func c05LeavesTo(v ssa.Value, at, to *ssa.BasicBlock, depth int) []c05Leaf {
 	if ph, ok := v.(*ssa.Phi); ok && depth < 6 {
 		var out []c05Leaf
 		for i, e := range ph.Edges {
-			out = append(out, c05Leaves(e, ph.Block().Preds[i], depth+1)...)
+			out = append(out, c05LeavesTo(e, ph.Block().Preds[i], ph.Block(), depth+1)...)
 		}
 		return out
 	}
-	return []c05Leaf{{v, at}}
+	return []c05Leaf{{v, at, to}}
 }
 
-// c05NotMissingDep reports whether at block b it is known that one of errs is
-// not errMissingDep (errors.Is false, == false, != true, or known nil).
-func c05NotMissingDep(b *ssa.BasicBlock, errs []ssa.Value) bool {
-	about := func(a ssa.Value) bool {
+// c05VLeaf is a leaf of a value in the effective body: phis and the results
+// of inlined helpers are expanded; Facts are those known where the leaf is
+// chosen (plus those at the place of use).
+type c05VLeaf struct {
+	V     c05V
+	Facts []c05Fact
+	Where string
+}
+
+// valueLeaves expands v (used at node at) into its leaves.
+func (g *c05Graph) valueLeaves(v c05V, at *c05Node) []c05VLeaf {
+	var out []c05VLeaf
+	var walk func(v c05V, facts []c05Fact, where string, depth int)
+	walk = func(v c05V, facts []c05Fact, where string, depth int) {
+		if depth < 8 {
+			if ph, ok := v.V.(*ssa.Phi); ok {
+				for i, e := range ph.Edges {
+					pn, nx := g.lastNode(v.Ctx, ph.Block().Preds[i]), g.firstNode(v.Ctx, ph.Block())
+					f2 := append(append([]c05Fact(nil), facts...), g.factsOnEdge(pn, nx)...)
+					walk(c05V{v.Ctx, e}, f2, fmt.Sprintf("%s block %d", v.Ctx.fn.Name(), ph.Block().Preds[i].Index), depth+1)
+				}
+				return
+			}
+			o := g.originShallow(v)
+			if k, idx, ok := g.resultOf(o); ok {
+				for _, rn := range k.returnNodes() {
+					res := k.rets[rn.last().(*ssa.Return)]
+					if idx < len(res) {
+						f2 := append(append([]c05Fact(nil), facts...), g.factsAt(rn)...)
+						walk(c05V{k, res[idx]}, f2, fmt.Sprintf("%s block %d", k.fn.Name(), rn.b.Index), depth+1)
+					}
+				}
+				return
+			}
+			if o != v && o.V != nil {
+				if _, isPhi := o.V.(*ssa.Phi); isPhi {
+					walk(o, facts, where, depth+1)
+					return
+				}
+			}
+		}
+		out = append(out, c05VLeaf{v, facts, where})
+	}
+	walk(v, append([]c05Fact(nil), g.factsAt(at)...), fmt.Sprintf("%s block %d", at.ctx.fn.Name(), at.b.Index), 0)
+	return out
+}
+
+// notMissingDep reports whether facts say that one of errs is not
+// errMissingDep (errors.Is false, == false, != true, or known nil).
+func (g *c05Graph) notMissingDep(facts []c05Fact, errs []c05V) bool {
+	about := func(a c05V) bool {
 		for _, e := range errs {
-			if sameOrigin(a, e) {
+			if g.same(a, e) {
 				return true
 			}
 		}
 		return false
 	}
-	for _, f := range FactsAt(b) {
-		cond, val := f.Cond, f.Val
-		for {
-			if u, ok := cond.(*ssa.UnOp); ok && u.Op == token.NOT {
-				cond, val = u.X, !val
-				continue
+	for _, f := range facts {
+		if f.IsNil {
+			if f.Val && about(f.C) {
+				return true
 			}
-			break
+			continue
 		}
-		switch x := cond.(type) {
+		cc, val := g.condCore(f.C, f.Val)
+		ctx := cc.Ctx
+		switch x := cc.V.(type) {
 		case *ssa.Call:
 			c := CallSite{x.Parent(), x}
-			if c.IsStatic("errors", "", "Is") && about(x.Call.Args[0]) && c05GlobalLoad(x.Call.Args[1], c05PkgPath, "errMissingDep") && !val {
+			if c.IsStatic("errors", "", "Is") && about(c05V{ctx, x.Call.Args[0]}) && g.globalLoad(c05V{ctx, x.Call.Args[1]}, c05PkgPath, "errMissingDep") && !val {
 				return true
 			}
 		case *ssa.BinOp:
 			if x.Op != token.EQL && x.Op != token.NEQ {
 				continue
 			}
-			a, g := x.X, x.Y
-			if c05GlobalLoad(a, c05PkgPath, "errMissingDep") {
-				a, g = g, a
+			a, gl := x.X, x.Y
+			if g.globalLoad(c05V{ctx, a}, c05PkgPath, "errMissingDep") {
+				a, gl = gl, a
 			}
-			if c05GlobalLoad(g, c05PkgPath, "errMissingDep") && about(a) && (x.Op == token.EQL) != val {
+			if g.globalLoad(c05V{ctx, gl}, c05PkgPath, "errMissingDep") && about(c05V{ctx, a}) && (x.Op == token.EQL) != val {
 				return true
 			}
 		}
 	}
 	for _, e := range errs {
-		if k, isNil := NilFact(b, e); k && isNil {
+		if k, isNil := g.nilFact(facts, e); k && isNil {
 			return true
 		}
 	}
@@ -635,64 +2570,121 @@ func c05MayEndWith(v ssa.Value, suffix string) int {
 	return -1
 }
 
-// c05KeyPrefix: for key = "<const>" + rest, returns the constant.
-func c05KeyPrefix(v ssa.Value) (string, ssa.Value, bool) {
-	bo, ok := originValue(v).(*ssa.BinOp)
-	if !ok || bo.Op != token.ADD {
-		return "", nil, false
+// keyPrefix: for key = "<const>" + rest, returns the constant and rest.
+func (g *c05Graph) keyPrefix(v c05V) (string, c05V, bool) {
+	try := func(v c05V) (string, c05V, bool) {
+		bo, ok := v.V.(*ssa.BinOp)
+		if !ok || bo.Op != token.ADD {
+			return "", c05V{}, false
+		}
+		s, ok := ConstString(bo.X)
+		return s, c05V{v.Ctx, bo.Y}, ok
 	}
-	s, ok := ConstString(bo.X)
-	return s, bo.Y, ok
+	if v.V == nil {
+		return "", c05V{}, false
+	}
+	if s, r, ok := try(c05V{v.Ctx, originValue(v.V)}); ok {
+		return s, r, true
+	}
+	return try(g.origin(v))
 }
 
-// c05IsRefString: v is (blob.Ref).String(ref) with ref the same value as want.
-func c05IsRefString(v ssa.Value, want ssa.Value) bool {
-	call, ok := originValue(v).(*ssa.Call)
+// isRefString: v is (blob.Ref).String(ref) with ref the same value as want.
+func (g *c05Graph) isRefString(v c05V, want c05V) bool {
+	o := g.origin(v)
+	call, ok := o.V.(*ssa.Call)
 	if !ok {
 		return false
 	}
 	c := CallSite{call.Parent(), call}
-	return c.IsStatic("perkeep.org/pkg/blob", "Ref", "String") && sameOrigin(call.Call.Args[0], want)
+	return c.IsStatic("perkeep.org/pkg/blob", "Ref", "String") && g.same(c05V{o.Ctx, call.Call.Args[0]}, want)
 }
 
-func c05RulePending(p *Program, r *Reporter) {
+func c05RetPos(ret *ssa.Return) token.Pos {
+	if ret.Pos().IsValid() {
+		return ret.Pos()
+	}
+	var pos token.Pos
+	for _, in := range ret.Block().Instrs {
+		if in.Pos().IsValid() {
+			pos = in.Pos()
+		}
+	}
+	return pos
+}
+
+// c05LeafPos: a position for a return leaf (the innermost return).
+func c05LeafPos(r c05Ret) token.Pos {
+	for i := len(r.Ats) - 1; i >= 0; i-- {
+		n := r.Ats[i]
+		if ret, ok := n.last().(*ssa.Return); ok {
+			if p := c05RetPos(ret); p.IsValid() {
+				return p
+			}
+		}
+	}
+	return c05RetPos(r.Ret)
+}
+
+func c05IsTrue(v ssa.Value) bool {
+	c, ok := v.(*ssa.Const)
+	return ok && c.Value != nil && c.Value.Kind() == constant.Bool && constant.BoolVal(c.Value)
+}
+
+// ---------------------------------------------------------------------------
+// I-pending
+
+func c05RulePending(p *Program, r *Reporter, env *c05Env) {
 	const rule = "I-pending"
 	rb := p.Func(c05Pkg, "Index", "ReceiveBlob")
 	pmmFn := p.Func(c05Pkg, "Index", "populateMutationMap")
 	commitFn := p.Func(c05Pkg, "Index", "commit")
 	addBlobFn := p.Func(c05Pkg, "Corpus", "addBlob")
 	nnl := p.Func(c05Pkg, "Index", "noteNeededLocked")
-	nn := p.Func(c05Pkg, "Index", "noteNeeded")
-	nnm := p.Func(c05Pkg, "Index", "noteNeededMemoryLocked")
+	nn := p.LookupFunc(c05Pkg, "Index", "noteNeeded")              // optional: a locking wrapper
+	nnm := p.LookupFunc(c05Pkg, "Index", "noteNeededMemoryLocked") // optional: may be written out in its callers
 	nbi := p.Func(c05Pkg, "Index", "noteBlobIndexedLocked")
 	rme := p.Func(c05Pkg, "Index", "removeAllMissingEdges")
 	key := FuncKey(rb)
 	if len(rb.Params) < 4 {
 		brokenf("anchor unresolved: (*Index).ReceiveBlob no longer has (ix, ctx, blobRef, source) parameters")
 	}
-	blobRef := ssa.Value(rb.Params[2])
+	g := env.graph(rb)
+	blobRef := c05V{g.root, rb.Params[2]}
 
-	pmmCalls := c05CallsTo(rb, pmmFn)
+	pmmCalls := g.callsTo(pmmFn)
 	if len(pmmCalls) != 1 || pmmCalls[0].Value() == nil {
-		r.Undecided(rule, key+"#populate", p.Pos(rb.Pos()), fmt.Sprintf("expected exactly one plain call of populateMutationMap in ReceiveBlob, found %d: the success returns cannot be classified", len(pmmCalls)))
+		r.Undecided(rule, key+"#populate", p.Pos(rb.Pos()), fmt.Sprintf("expected exactly one plain call of populateMutationMap in the effective body of ReceiveBlob, found %d: the success returns cannot be classified", len(pmmCalls)))
 		r.Floor(rule, 11)
 		return
 	}
-	pmm := pmmCalls[0].Value()
-	pErr, _, _ := ErrValue(pmm)
-	pMM := ResultValue(pmm, 0)
-	fetcherArg := pmm.Call.Args[2]
+	pmmS := pmmCalls[0]
+	pmm := pmmS.Value()
+	pe, _, _ := ErrValue(pmm)
+	pErr := c05V{pmmS.Ctx, pe}
+	pMM := c05V{pmmS.Ctx, ResultValue(pmm, 0)}
+	fetcherArg := pmmS.Arg(2)
 
 	maybeNil := map[*ssa.Return]bool{}
-	nilRets := MaybeNilErrorReturns(rb)
+	nilRets := g.nilRets()
 	for _, nr := range nilRets {
 		maybeNil[nr.Ret] = true
 	}
+	successExit := func(x *c05X, i c05I) bool {
+		ret, ok := i.In.(*ssa.Return)
+		return ok && i.Ctx == g.root && maybeNil[ret] && g.successExit(x, i)
+	}
 
 	// (1) calls whose failure must exclude a success return
-	mustSucceed := map[*ssa.Function]string{nnl: "noteNeededLocked", nn: "noteNeeded", commitFn: "commit", addBlobFn: "addBlob"}
-	var noteCalls []CallSite
-	for _, c := range CallsIn(rb, false) {
+	mustSucceed := map[*ssa.Function]string{nnl: "noteNeededLocked", commitFn: "commit", addBlobFn: "addBlob"}
+	if nn != nil {
+		mustSucceed[nn] = "noteNeeded"
+	}
+	var noteCalls []c05S
+	for _, c := range g.calls() {
+		if c.Callee() == nil {
+			continue
+		}
 		name, ok := mustSucceed[c.Callee()]
 		if !ok {
 			continue
@@ -706,34 +2698,54 @@ func c05RulePending(p *Program, r *Reporter) {
 			r.Violation(rule, construct, p.Pos(c.Pos()), name+" is started with go/defer: its error cannot gate the success return")
 			continue
 		}
-		ev, edges := c05FailureEdges(call)
-		if len(edges) == 0 {
-			r.Violation(rule, construct, p.Pos(c.Pos()), "the error of "+name+" is never tested by a branch (discarded or only folded into a value): a failure cannot be shown to exclude the success return, so a blob could be acknowledged without being recorded/committed")
+		ev, hasErr, discarded := ErrValue(call)
+		if !hasErr || discarded || ev == nil {
+			r.Violation(rule, construct, p.Pos(c.Pos()), "the error of "+name+" is discarded: a failure cannot be shown to exclude the success return, so a blob could be acknowledged without being recorded/committed")
 			continue
 		}
-		var leaks []c05Leak
-		for _, e := range edges {
-			ex := &c05Explorer{NonNil: []ssa.Value{ev}, IgnorePanics: true,
-				ExitOK: func(in ssa.Instruction) bool { ret, ok := in.(*ssa.Return); return ok && !maybeNil[ret] }}
-			leaks = append(leaks, ex.OnEdge(e.From, e.To)...)
-		}
+		x := &c05X{G: g, Init: map[c05V]bool{{c.Ctx, ev}: false}, IgnorePanics: true}
+		x.ExitOK = func(i c05I) bool { return !successExit(x, i) }
+		leaks := x.After(c.I())
 		r.Check(len(leaks) == 0, rule, construct, p.Pos(c.Pos()),
-			"no return with a possibly-nil error is reachable from the err!=nil edge of "+name+" (boolean flags tracked through phis)",
-			"a success return is reachable after "+name+" failed: "+c05DescribeLeaks(p, leaks)+" — the blob is acknowledged although it was neither indexed nor recorded as waiting")
+			"no return with a possibly-nil error is reachable once "+name+" has failed (flags, helper results and error values tracked along the paths of the effective body)",
+			"a success return is reachable after "+name+" failed: "+g.describeLeaks(leaks)+" — the blob is acknowledged although it was neither indexed nor recorded as waiting")
+	}
+
+	retAfter := g.retAfter
+	successDominatesRet := func(c c05S, nr c05Ret) (bool, string) {
+		if !retAfter(c.I(), nr) {
+			return false, "the call does not precede the return on every path"
+		}
+		ev, hasErr, discarded := ErrValue(c.Value())
+		if !hasErr {
+			return true, ""
+		}
+		if discarded || ev == nil {
+			return false, "error result of the call is discarded"
+		}
+		if k, isNil := g.nilFact(g.retFacts(nr), c05V{c.Ctx, ev}); k && isNil {
+			return true, ""
+		}
+		// path-wise: no success return is reachable once the call failed
+		x := &c05X{G: g, Init: map[c05V]bool{{c.Ctx, ev}: false}, IgnorePanics: true}
+		x.ExitOK = func(i c05I) bool { return !(i.In == ssa.Instruction(nr.Ret) && successExit(x, i)) }
+		if len(x.After(c.I())) == 0 {
+			return true, ""
+		}
+		return false, "the return is not on the err==nil side of the call"
 	}
 
 	// (2) classify every success return
-	isMissingSlice := func(v ssa.Value) bool {
-		base, ok := c05LoadOfField(v, "missTrackFetcher", "missing")
-		return ok && sameOrigin(base, fetcherArg)
+	isMissingSlice := func(v c05V) bool {
+		base, ok := g.loadOfField(v, "missTrackFetcher", "missing")
+		return ok && g.same(base, fetcherArg)
 	}
 	var shortcutPrefix, shortcutSuffix string
 	haveShortcut, sawShortcut := false, false
 	seq := map[string]int{}
 	for _, nr := range nilRets {
-		ret := nr.Ret
-		site := p.Pos(c05RetPos(ret))
-		blk := ret.Block()
+		site := p.Pos(c05LeafPos(nr))
+		facts := g.retFacts(nr)
 		name := func(class string) string {
 			seq[class]++
 			if seq[class] > 1 {
@@ -741,35 +2753,42 @@ func c05RulePending(p *Program, r *Reporter) {
 			}
 			return key + "#return-" + class
 		}
-		if !Precedes(pmm, ret) {
+		if !retAfter(pmmS.I(), nr) {
 			sawShortcut = true
 			// already-indexed shortcut
 			construct := name("already-indexed")
-			k, val, hs := BoolCallFact(blk, func(c CallSite) bool { return c.IsStatic("strings", "", "HasSuffix") })
+			k, val, hs := g.boolCallFact(facts, func(c c05S) bool { return c.IsStatic("strings", "", "HasSuffix") })
 			if !k || !val {
 				r.Violation(rule, construct, site, "success return before populateMutationMap that is not under strings.HasSuffix(<have row>, <indexed suffix>)==true: a blob that was never (fully) indexed is acknowledged without indexing — a waiting blob re-submitted by indexReadyBlobs would be dropped")
 				continue
 			}
-			suffix, okS := ConstString(hs.Common().Args[1])
-			var get *ssa.Call
-			if ex, ok := originValue(hs.Common().Args[0]).(*ssa.Extract); ok && ex.Index == 0 {
-				get, _ = ex.Tuple.(*ssa.Call)
+			suffix, okS := "", false
+			if so := g.origin(hs.Arg(1)); so.V != nil {
+				suffix, okS = ConstString(so.V)
+			}
+			var get c05S
+			if o := g.origin(hs.Arg(0)); o.V != nil {
+				if ex, ok := o.V.(*ssa.Extract); ok && ex.Index == 0 {
+					if gc, ok := ex.Tuple.(*ssa.Call); ok {
+						get = c05S{o.Ctx, CallSite{gc.Parent(), gc}}
+					}
+				}
 			}
 			bad := ""
 			switch {
 			case !okS:
 				bad = "the suffix tested is not a constant"
-			case get == nil || !get.Call.IsInvoke() || get.Call.Method.Name() != "Get" || !strings.HasSuffix(typeKey(get.Call.Value.Type()), "sorted.KeyValue"):
+			case get.Instr == nil || !get.Common().IsInvoke() || get.Common().Method.Name() != "Get" || !strings.HasSuffix(typeKey(get.Common().Value.Type()), "sorted.KeyValue"):
 				bad = "the tested string is not the value of a sorted.KeyValue.Get"
 			default:
-				if _, ok := c05LoadOfField(get.Call.Value, "Index", "s"); !ok {
+				if _, ok := g.loadOfField(c05V{get.Ctx, get.Common().Value}, "Index", "s"); !ok {
 					bad = "the Get is not on the index's own storage ix.s"
 				}
-				pre, rest, ok := c05KeyPrefix(get.Call.Args[0])
-				if !ok || !c05IsRefString(rest, blobRef) {
+				pre, rest, ok := g.keyPrefix(c05V{get.Ctx, get.Common().Args[0]})
+				if !ok || !g.isRefString(rest, blobRef) {
 					bad = "the row read is not <const prefix>+blobRef.String() of the blob being received"
 				}
-				if ok2, why := SuccessDominates(get, ret); !ok2 {
+				if ok2, why := successDominatesRet(get, nr); !ok2 {
 					bad = "the Get's error is not known nil at the return (" + why + ")"
 				}
 				shortcutPrefix, shortcutSuffix, haveShortcut = pre, suffix, bad == ""
@@ -779,17 +2798,17 @@ func c05RulePending(p *Program, r *Reporter) {
 				"already-indexed shortcut is not justified: "+bad)
 			continue
 		}
-		kn, isNil := NilFact(blk, pErr)
+		kn, isNil := g.nilFact(facts, pErr)
 		switch {
 		case kn && !isNil:
 			construct := name("missing-dep")
-			var good []CallSite
+			var good []c05S
 			for _, c := range noteCalls {
-				if c.Value() == nil || !ReachableFrom(c.Instr, nil)[ret] {
+				if c.Value() == nil || !g.reaches(c.I(), c05I{g.root, nr.Ret}) {
 					continue
 				}
-				a := c.Args()
-				if len(a) == 3 && sameOrigin(a[1], blobRef) && DependsOn(a[2], isMissingSlice) && inLoop(c.Block()) {
+				// the element handed over comes from the miss list itself, not from a proper sub-slice of it
+				if c.NArgs() == 3 && g.same(c.Arg(1), blobRef) && g.dependsOnB(c.Arg(2), isMissingSlice, c05IsSubSlice) && g.inCycle(c.I()) {
 					good = append(good, c)
 				}
 			}
@@ -797,44 +2816,66 @@ func c05RulePending(p *Program, r *Reporter) {
 				r.Violation(rule, construct, site, "success return on the populate-error path is not preceded by a loop calling noteNeeded(Locked)(blobRef, m) for the misses m recorded in the fetcher handed to populateMutationMap: the blob would be acknowledged but never re-indexed when its dependencies arrive")
 				continue
 			}
-			r.OK(rule, construct, site, fmt.Sprintf("%d noteNeeded call(s) over fetcher.missing lie on the way to this return (their failure edges are checked under must-succeed)", len(good)))
+			r.OK(rule, construct, site, fmt.Sprintf("%d noteNeeded call(s) over fetcher.missing lie on the way to this return (their failure is checked under must-succeed)", len(good)))
 			// zero-iteration guard: the miss list is known non-empty here, or
 			// populateMutationMap only returns an error together with a non-empty list
-			c2 := key + "#missing-nonempty"
-			if k, empty := c05LenZeroFact(blk, isMissingSlice); k && !empty {
-				r.OK(rule, c2, site, "len(fetcher.missing)!=0 is known at the missing-dependency success return")
-			} else if ok, why := c05PmmErrImpliesMisses(pmmFn); ok {
-				r.OK(rule, c2, site, "populateMutationMap returns (mm, err) with err possibly non-nil only under len(fetcher.missing)!=0")
+			c3 := key + "#missing-nonempty"
+			if k, empty := g.lenZeroFact(facts, isMissingSlice); k && !empty {
+				r.OK(rule, c3, site, "len(fetcher.missing)!=0 is known at the missing-dependency success return")
+			} else if ok, why := c05PmmErrImpliesMisses(env, pmmFn); ok {
+				r.OK(rule, c3, site, "populateMutationMap returns (mm, err) with err possibly non-nil only under len(fetcher.missing)!=0")
 			} else {
-				r.Violation(rule, c2, site, "nothing guarantees a non-empty miss list on the missing-dependency path ("+why+"): with zero recorded misses the loop records nothing and the blob is acknowledged and forgotten")
+				r.Violation(rule, c3, site, "nothing guarantees a non-empty miss list on the missing-dependency path ("+why+"): with zero recorded misses the loop records nothing and the blob is acknowledged and forgotten")
 			}
 		case kn && isNil:
 			construct := name("indexed")
 			var bad []string
-			var commit *ssa.Call
-			for _, c := range c05CallsTo(rb, commitFn) {
-				if v := c.Value(); v != nil && sameOrigin(v.Call.Args[1], pMM) {
-					commit = v
+			var commit c05S
+			for _, c := range g.callsTo(commitFn) {
+				if v := c.Value(); v != nil && g.same(c.Arg(1), pMM) {
+					commit = c
 				}
 			}
-			if commit == nil {
+			var commitErr c05V
+			if commit.Instr == nil {
 				bad = append(bad, "no commit of the mutation map returned by populateMutationMap")
-			} else if ok, why := SuccessDominates(commit, ret); !ok {
-				bad = append(bad, "commit(mm) success does not dominate the return ("+why+")")
+			} else {
+				if ok, why := successDominatesRet(commit, nr); !ok {
+					bad = append(bad, "commit(mm) success does not dominate the return ("+why+")")
+				}
+				ce, _, _ := ErrValue(commit.Value())
+				commitErr = c05V{commit.Ctx, ce}
 			}
 			need := func(fn *ssa.Function, what string) {
-				var found ssa.Instruction
-				for _, c := range c05CallsTo(rb, fn) {
-					if a := c.Args(); len(a) >= 2 && sameOrigin(a[1], blobRef) && Precedes(c.Instr, ret) {
-						found = c.Instr
+				var found c05S
+				for _, c := range g.callsTo(fn) {
+					if _, isCall := c.Instr.(*ssa.Call); !isCall {
+						continue
+					}
+					if c.NArgs() >= 2 && g.same(c.Arg(1), blobRef) && retAfter(c.I(), nr) {
+						found = c
 					}
 				}
-				if found == nil {
+				if found.Instr == nil {
 					bad = append(bad, what+"(blobRef) does not precede the return on every path")
 					return
 				}
-				if commit != nil {
-					if ok, _ := SuccessDominates(commit, found); !ok {
+				if commit.Instr != nil {
+					fnode, _ := g.nodeOf(found.I())
+					ok := g.precedes(commit.I(), found.I())
+					if ok && commitErr.V != nil {
+						k, isNil := g.nilFact(g.factsAt(fnode), commitErr)
+						ok = k && isNil
+					}
+					if !ok {
+						// path-wise: after a failed commit the call is not reached
+						x := &c05X{G: g, Init: map[c05V]bool{commitErr: false}, IgnorePanics: true,
+							Fail: func(j c05I) bool { return j == found.I() }, ExitOK: func(c05I) bool { return true }}
+						x2 := &c05X{G: g, IgnorePanics: true, Stop: func(j c05I) bool { return j == commit.I() },
+							Fail: func(j c05I) bool { return j == found.I() }, ExitOK: func(c05I) bool { return true }}
+						ok = commitErr.V != nil && len(x.After(commit.I())) == 0 && len(x2.FromEntry()) == 0
+					}
+					if !ok {
 						bad = append(bad, what+" is not after the successful commit (dependants released/edges removed before the rows they need are stored)")
 					}
 				}
@@ -854,44 +2895,36 @@ func c05RulePending(p *Program, r *Reporter) {
 	if !sawShortcut {
 		shortcutPrefix = "none"
 	}
-	c05HaveRow(p, r, rule, pmmFn, mayMD, haveShortcut, shortcutPrefix, shortcutSuffix)
+	c05HaveRow(p, r, env, rule, pmmFn, mayMD, haveShortcut, shortcutPrefix, shortcutSuffix)
 
 	// (4) noteNeededLocked persists before it reports success; map roles
-	c05NoteNeeded(p, r, rule, nnl, nnm)
+	c05NoteNeeded(p, r, env, rule, nnl, nnm)
 	r.Floor(rule, 11)
-}
-
-func c05RetPos(ret *ssa.Return) token.Pos {
-	if ret.Pos().IsValid() {
-		return ret.Pos()
-	}
-	var pos token.Pos
-	for _, in := range ret.Block().Instrs {
-		if in.Pos().IsValid() {
-			pos = in.Pos()
-		}
-	}
-	return pos
 }
 
 // c05PmmErrImpliesMisses: every return of populateMutationMap that hands back a
 // non-nil map together with a possibly non-nil error is under len(fetcher.missing)!=0.
-func c05PmmErrImpliesMisses(pmmFn *ssa.Function) (bool, string) {
+func c05PmmErrImpliesMisses(env *c05Env, pmmFn *ssa.Function) (bool, string) {
 	if len(pmmFn.Params) < 3 {
 		return false, "populateMutationMap has no fetcher parameter"
 	}
-	fetcher := pmmFn.Params[2]
-	isMissing := func(v ssa.Value) bool {
-		base, ok := c05LoadOfField(v, "missTrackFetcher", "missing")
-		return ok && sameOrigin(base, fetcher)
+	g := env.graph(pmmFn)
+	fetcher := c05V{g.root, pmmFn.Params[2]}
+	isMissing := func(v c05V) bool {
+		base, ok := g.loadOfField(v, "missTrackFetcher", "missing")
+		return ok && g.same(base, fetcher)
 	}
 	n := 0
-	for _, ri := range Returns(pmmFn) {
-		if len(ri.Results) != 2 || IsNilConst(ri.Results[1]) || IsNilConst(ri.Results[0]) {
+	for _, t := range g.returnTuples() {
+		if len(t.Results) != 2 || IsNilConst(t.Results[1].V) || IsNilConst(t.Results[0].V) {
+			continue
+		}
+		facts := g.tupleFacts(t)
+		if k, isNil := g.nilFact(facts, t.Results[1]); k && isNil {
 			continue
 		}
 		n++
-		if k, empty := c05LenZeroFact(ri.Ret.Block(), isMissing); !(k && !empty) {
+		if k, empty := g.lenZeroFact(facts, isMissing); !(k && !empty) {
 			return false, "populateMutationMap can return (mm, err) without len(fetcher.missing)!=0 being known"
 		}
 	}
@@ -901,7 +2934,7 @@ func c05PmmErrImpliesMisses(pmmFn *ssa.Function) (bool, string) {
 	return true, ""
 }
 
-func c05HaveRow(p *Program, r *Reporter, rule string, pmmFn *ssa.Function, mayMD map[*ssa.Function]bool, haveShortcut bool, prefix, suffix string) {
+func c05HaveRow(p *Program, r *Reporter, env *c05Env, rule string, pmmFn *ssa.Function, mayMD map[*ssa.Function]bool, haveShortcut bool, prefix, suffix string) {
 	key := FuncKey(pmmFn)
 	if !haveShortcut && prefix == "none" {
 		r.OKTable(rule, key+"#have-row", p.Pos(pmmFn.Pos()), "ReceiveBlob has no already-indexed shortcut: no reader relies on an 'indexed' marker in the have row")
@@ -911,63 +2944,101 @@ func c05HaveRow(p *Program, r *Reporter, rule string, pmmFn *ssa.Function, mayMD
 		r.Undecided(rule, key+"#have-row", p.Pos(pmmFn.Pos()), "the already-indexed shortcut of ReceiveBlob was not recognised, so the row prefix/suffix it relies on are unknown and the writer cannot be checked against them")
 		return
 	}
-	// errors, in each function, that may be errMissingDep
-	errsOf := func(fn *ssa.Function) []ssa.Value {
-		var out []ssa.Value
-		for _, c := range CallsIn(fn, false) {
-			if f := c.Callee(); f != nil && mayMD[f] && c.Value() != nil {
-				if ev, has, disc := ErrValue(c.Value()); has && !disc {
-					out = append(out, ev)
-				}
+	// is `in` (of fn) a write of a row under the prefix? returns key and value operands
+	writeOf := func(fn *ssa.Function, in ssa.Instruction) (k, v ssa.Value) {
+		switch x := in.(type) {
+		case *ssa.MapUpdate:
+			return x.Key, x.Value
+		case *ssa.Call:
+			c := CallSite{fn, x}
+			if c.MethodName() == "Set" && len(c.Args()) == 3 {
+				return c.Args()[1], c.Args()[2]
 			}
 		}
-		return out
+		return nil, nil
 	}
 	writers := 0
 	for _, fn := range p.FuncsIn(c05Pkg) {
 		for _, b := range fn.Blocks {
 			for _, in := range b.Instrs {
-				var k, v ssa.Value
-				switch x := in.(type) {
-				case *ssa.MapUpdate:
-					k, v = x.Key, x.Value
-				case *ssa.Call:
-					c := CallSite{fn, x}
-					if c.MethodName() == "Set" && len(c.Args()) == 3 {
-						k, v = c.Args()[1], c.Args()[2]
-					}
-				}
+				k, v := writeOf(fn, in)
 				if k == nil {
 					continue
 				}
-				pre, _, ok := c05KeyPrefix(k)
-				if !ok || pre != prefix {
+				// cheap pre-filter: a constant other prefix, or a key that does not involve a parameter
+				if bo, ok := originValue(k).(*ssa.BinOp); ok && bo.Op == token.ADD {
+					if pre, ok := ConstString(bo.X); ok && pre != prefix {
+						continue
+					}
+				}
+				if _, _, ok := env.graphless.keyPrefix(c05V{nil, k}); !ok {
+					if !DependsOn(k, func(x ssa.Value) bool { _, isP := x.(*ssa.Parameter); return isP }) {
+						continue
+					}
+				}
+				// the key's constant prefix may come from the caller: judged per context
+				var nWriters int
+				in := in
+				verdict := env.lifted(fn, func(g *c05Graph, c *c05Ctx) c05Verdict {
+					pre, _, ok := g.keyPrefix(c05V{c, k})
+					if !ok {
+						// the key is assembled from the helper's parameters: judged in the callers
+						return c05Verdict{Vacuous: true, Detail: "key without a constant prefix"}
+					}
+					if pre != prefix {
+						return c05Verdict{OK: true, Detail: "not a " + prefix + " row"}
+					}
+					nWriters++
+					// errors, in the effective body, that may be errMissingDep
+					var errs []c05V
+					for _, cs := range g.calls() {
+						if f := cs.Callee(); f != nil && mayMD[f] && cs.Value() != nil {
+							if ev, has, disc := ErrValue(cs.Value()); has && !disc && ev != nil {
+								errs = append(errs, c05V{cs.Ctx, ev})
+							}
+						}
+					}
+					n, _ := g.nodeOf(c05I{c, in})
+					if n == nil {
+						return c05Verdict{Undec: true, Detail: "the write is not part of the effective body"}
+					}
+					nYes := 0
+					unknown := false
+					bad := ""
+					for _, l := range g.valueLeaves(c05V{c, v}, n) {
+						switch c05MayEndWith(l.V.V, suffix) {
+						case 1:
+							nYes++
+							if len(errs) > 0 && !g.notMissingDep(l.Facts, errs) {
+								bad = fmt.Sprintf("a value ending in %q is chosen in %s where the populate error is not known to differ from errMissingDep: a blob with a missing dependency would be marked fully indexed and skipped by the shortcut when it is re-submitted", suffix, l.Where)
+							}
+						case -1:
+							unknown = true
+						}
+					}
+					switch {
+					case bad != "":
+						return c05Verdict{Detail: bad}
+					case unknown:
+						return c05Verdict{Undec: true, Detail: "a value written under the " + prefix + " key cannot be classified (not a constant or Sprintf with constant format)"}
+					case len(errs) == 0 && nYes > 0:
+						return c05Verdict{Vacuous: true, Detail: fmt.Sprintf("%d value(s) ending in %q; no call that may return errMissingDep in scope", nYes, suffix)}
+					}
+					return c05Verdict{OK: true, Detail: fmt.Sprintf("%d value(s) ending in %q, each chosen only where the populate error is known not to be errMissingDep (errors.Is/==/nil fact); %d candidate error(s)", nYes, suffix, len(errs))}
+				})
+				if nWriters == 0 {
 					continue
 				}
 				writers++
 				construct := FuncKey(fn) + "#have-row"
-				errs := errsOf(fn)
-				bad, undecided := "", ""
-				nYes := 0
-				for _, l := range c05Leaves(v, b, 0) {
-					switch c05MayEndWith(l.V, suffix) {
-					case 1:
-						nYes++
-						if len(errs) > 0 && !c05NotMissingDep(l.At, errs) {
-							bad = fmt.Sprintf("a value ending in %q is chosen in block %d where the populate error is not known to differ from errMissingDep: a blob with a missing dependency would be marked fully indexed and skipped by the shortcut when it is re-submitted", suffix, l.At.Index)
-						}
-					case -1:
-						undecided = "a value written under the " + prefix + " key cannot be classified (not a constant or Sprintf with constant format)"
-					}
-				}
 				switch {
-				case bad != "":
-					r.Violation(rule, construct, p.Pos(in.Pos()), bad)
-				case undecided != "":
-					r.Undecided(rule, construct, p.Pos(in.Pos()), undecided)
-				default:
-					r.OK(rule, construct, p.Pos(in.Pos()), fmt.Sprintf("%d value(s) ending in %q, each chosen only where the populate error is known not to be errMissingDep (errors.Is/==/nil fact); %d candidate error(s)", nYes, suffix, len(errs)))
+				case verdict.OK:
+					r.OK(rule, construct, p.Pos(in.Pos()), verdict.Detail)
 					r.OKTable(rule, construct+"-agreement", p.Pos(in.Pos()), fmt.Sprintf("writer and ReceiveBlob's shortcut agree on key prefix %q and suffix %q", prefix, suffix))
+				case verdict.Undec:
+					r.Undecided(rule, construct, p.Pos(in.Pos()), verdict.Detail)
+				default:
+					r.Violation(rule, construct, p.Pos(in.Pos()), verdict.Detail)
 				}
 			}
 		}
@@ -977,69 +3048,86 @@ func c05HaveRow(p *Program, r *Reporter, rule string, pmmFn *ssa.Function, mayMD
 	}
 }
 
-func c05NoteNeeded(p *Program, r *Reporter, rule string, nnl, nnm *ssa.Function) {
+func c05NoteNeeded(p *Program, r *Reporter, env *c05Env, rule string, nnl, nnm *ssa.Function) {
 	key := FuncKey(nnl)
-	var set *ssa.Call
-	for _, c := range CallsIn(nnl, false) {
+	g := env.graph(nnl)
+	if len(nnl.Params) != 3 {
+		brokenf("anchor unresolved: noteNeededLocked(have, missing) signature changed")
+	}
+	var set c05S
+	for _, c := range g.calls() {
 		v := c.Value()
 		if v == nil || !v.Call.IsInvoke() || v.Call.Method.Name() != "Set" {
 			continue
 		}
-		if kc, ok := originValue(v.Call.Args[0]).(*ssa.Call); ok {
-			kcs := CallSite{nnl, kc}
+		if kc, ok := g.origin(c05V{c.Ctx, v.Call.Args[0]}).V.(*ssa.Call); ok {
+			kcs := CallSite{kc.Parent(), kc}
 			if kcs.IsStatic(c05PkgPath, "keyType", "Key") && c05GlobalLoad(kc.Call.Args[0], c05PkgPath, "keyMissing") {
-				set = v
+				set = c
 			}
 		}
 	}
 	var bad []string
-	if set == nil {
+	if set.Instr == nil {
 		bad = append(bad, "no store of a keyMissing row into the index storage")
 	}
-	mem := c05CallsTo(nnl, nnm)
-	for _, nr := range MaybeNilErrorReturns(nnl) {
-		if set != nil && !sameOrigin(nr.Val, set) {
-			if ok, why := SuccessDominates(set, nr.Ret); !ok {
-				bad = append(bad, "a success return is not dominated by the row store succeeding ("+why+"): the need would be lost at the next restart")
+	mem := c05MemUpdates(g, nnm)
+	for _, nr := range g.nilRets() {
+		facts := g.retFacts(nr)
+		returnsSetErr := set.Instr != nil && !IsNilConst(nr.Val.V) && g.same(nr.Val, c05V{set.Ctx, set.Value()})
+		if set.Instr != nil && !returnsSetErr {
+			ok := g.retAfter(set.I(), nr)
+			if ok {
+				k, isNil := g.nilFact(facts, c05V{set.Ctx, set.Value()})
+				ok = k && isNil
+			}
+			if !ok {
+				bad = append(bad, "a success return is not dominated by the row store succeeding: the need would be lost at the next restart")
 			}
 		}
 		okMem := false
 		for _, m := range mem {
-			if Precedes(m.Instr, nr.Ret) && len(nnl.Params) == 3 && c05ParamIs(m.Args()[1], nnl, 1) && c05ParamIs(m.Args()[2], nnl, 2) {
+			if g.retAfter(m.I, nr) && g.isParam(m.Have, 1) && g.isParam(m.Missing, 2) {
 				okMem = true
 			}
 		}
-		if !okMem && !IsNilConst(nr.Val) && set != nil && sameOrigin(nr.Val, set) {
+		if !okMem && returnsSetErr {
 			okMem = true // returning Set's own error value; memory update checked on the nil path
 		}
 		if !okMem {
-			bad = append(bad, "a success return is not preceded by noteNeededMemoryLocked(have, missing)")
+			bad = append(bad, "a success return is not preceded by the update of needs/neededBy for (have, missing)")
 		}
 	}
 	r.Check(len(bad) == 0, rule, key+"#persist", p.Pos(nnl.Pos()),
 		"success is reported only after the missing| row was stored without error and needs/neededBy were updated",
 		strings.Join(bad, "; "))
 
-	// roles in the in-memory maps
-	mk := FuncKey(nnm)
-	if len(nnm.Params) != 3 {
+	// roles in the in-memory maps (judged in noteNeededMemoryLocked, or where its body was written out)
+	mfn := nnm
+	if mfn == nil {
+		mfn = nnl
+	}
+	mk := FuncKey(mfn)
+	if len(mfn.Params) != 3 {
 		brokenf("anchor unresolved: noteNeededMemoryLocked(have, missing) signature changed")
 	}
+	gm := env.graph(mfn)
 	check := func(field string, keyIdx, valIdx int) string {
-		ws := c05FieldMapWrites(nnm, "Index", field)
-		for _, w := range ws {
-			if !c05ParamIs(w.Key, nnm, keyIdx) {
+		for _, w := range gm.fieldMapWrites("Index", field) {
+			if !gm.isParam(w.Key, keyIdx) {
 				continue
 			}
-			if !c05DependsOn(w.Val, func(v ssa.Value) bool { return v == ssa.Value(nnm.Params[valIdx]) }) {
+			if !gm.dependsOn(w.Val, func(v c05V) bool { return gm.isParam(v, valIdx) }) {
 				continue
 			}
-			leaks := (&c05Explorer{IgnorePanics: true, Stop: func(in ssa.Instruction) bool { return in == w.Instr }}).FromEntry(nnm)
-			if len(leaks) == 0 {
+			// on every path that does not end in an error return
+			x := &c05X{G: gm, IgnorePanics: true, Stop: gm.passStop(func(i c05I) bool { return i == w.I })}
+			x.ExitOK = func(j c05I) bool { return !gm.successExit(x, j) }
+			if len(x.FromEntry()) == 0 {
 				return ""
 			}
 		}
-		return fmt.Sprintf("%s is not updated on every path with key=%s and a value containing %s", field, nnm.Params[keyIdx].Name(), nnm.Params[valIdx].Name())
+		return fmt.Sprintf("%s is not updated on every path with key=%s and a value containing %s", field, mfn.Params[keyIdx].Name(), mfn.Params[valIdx].Name())
 	}
 	var bad2 []string
 	if s := check("needs", 1, 2); s != "" {
@@ -1048,19 +3136,69 @@ func c05NoteNeeded(p *Program, r *Reporter, rule string, nnl, nnm *ssa.Function)
 	if s := check("neededBy", 2, 1); s != "" {
 		bad2 = append(bad2, s)
 	}
-	r.Check(len(bad2) == 0, rule, mk+"#maps", p.Pos(nnm.Pos()),
+	r.Check(len(bad2) == 0, rule, mk+"#maps", p.Pos(mfn.Pos()),
 		"needs[have] gains missing and neededBy[missing] gains have on every path",
 		strings.Join(bad2, "; ")+" — noteBlobIndexedLocked(missing) would not find the waiting blob")
+}
+
+// c05MemUpdate is one update of the in-memory needs/neededBy maps for the
+// pair (Have, Missing): a call of noteNeededMemoryLocked, or - where that
+// helper's body is written out - a pair of writes needs[Have] <- ..Missing..
+// and neededBy[Missing] <- ..Have.. on the same Index. Both have happened
+// after I.
+type c05MemUpdate struct {
+	Recv, Have, Missing c05V
+	I                   c05I
+	Pos                 token.Pos
+}
+
+func c05MemUpdates(g *c05Graph, nnm *ssa.Function) []c05MemUpdate {
+	var out []c05MemUpdate
+	if nnm != nil {
+		for _, c := range g.callsTo(nnm) {
+			if _, isCall := c.Instr.(*ssa.Call); isCall && c.NArgs() == 3 {
+				out = append(out, c05MemUpdate{c.Arg(0), c.Arg(1), c.Arg(2), c.I(), c.Pos()})
+			}
+		}
+	}
+	ns, bs := g.fieldMapWrites("Index", "needs"), g.fieldMapWrites("Index", "neededBy")
+	for _, n := range ns {
+		for _, b := range bs {
+			if !g.same(n.Base, b.Base) {
+				continue
+			}
+			if !g.dependsOn(n.Val, func(v c05V) bool { return g.same(v, b.Key) }) || !g.dependsOn(b.Val, func(v c05V) bool { return g.same(v, n.Key) }) {
+				continue
+			}
+			later := b.I
+			switch {
+			case g.precedes(n.I, b.I):
+			case g.precedes(b.I, n.I):
+				later = n.I
+			default:
+				continue
+			}
+			out = append(out, c05MemUpdate{n.Base, n.Key, b.Key, later, later.In.Pos()})
+		}
+	}
+	return out
 }
 
 // ---------------------------------------------------------------------------
 // I-miss
 
-func c05RuleMiss(p *Program, r *Reporter) {
+// c05OuterParam: v is a parameter of the view's root (or of a function
+// enclosing it).
+func c05OuterParam(v c05V) bool {
+	p, ok := v.V.(*ssa.Parameter)
+	return ok && (v.Ctx == nil || v.Ctx.parent == nil || p.Parent() != v.Ctx.fn)
+}
+
+func c05RuleMiss(p *Program, r *Reporter, env *c05Env) {
 	const rule = "I-miss"
 	direct, _ := c05MayReturnMissingDep(p)
 	nnl := p.Func(c05Pkg, "Index", "noteNeededLocked")
-	nn := p.Func(c05Pkg, "Index", "noteNeeded")
+	nn := p.LookupFunc(c05Pkg, "Index", "noteNeeded") // optional: a locking wrapper
 	allNotExist := p.Func(c05Pkg, "trackErrorsFetcher", "allErrNotExist")
 	mtf := p.NamedType(c05Pkg, "missTrackFetcher")
 	if mtf == nil {
@@ -1075,96 +3213,116 @@ func c05RuleMiss(p *Program, r *Reporter) {
 	sort.Slice(fns, func(i, j int) bool { return FuncKey(fns[i]) < FuncKey(fns[j]) })
 	for _, fn := range fns {
 		idx := ErrResultIndex(fn)
-		n := 0
 		for _, ri := range Returns(fn) {
 			for _, l := range c05Leaves(ri.Results[idx], ri.Ret.Block(), 0) {
 				if !c05GlobalLoad(l.V, c05PkgPath, "errMissingDep") {
 					continue
 				}
-				n++
+				l := l
 				construct := FuncKey(fn) + "#return-errMissingDep"
 				site := p.Pos(c05RetPos(ri.Ret))
-				last := l.At.Instrs[len(l.At.Instrs)-1]
-				// (ii) a successful noteNeeded dominates
-				why := ""
-				for _, c := range CallsIn(fn, false) {
-					if (c.Callee() == nnl || c.Callee() == nn) && c.Value() != nil {
-						if ok, _ := SuccessDominates(c.Value(), last); ok {
-							why = "dominated by a successful " + c.MethodName() + " (the need is stored before the sentinel is returned)"
+				v := env.lifted(fn, func(g *c05Graph, c *c05Ctx) c05Verdict {
+					at := g.lastNode(c, l.At)
+					var next *c05Node
+					if l.To != nil {
+						next = g.firstNode(c, l.To)
+					}
+					if at == nil {
+						return c05Verdict{Detail: "the return is not part of the effective body"}
+					}
+					facts := g.factsOnEdge(at, next)
+					// (ii) a successful noteNeeded precedes
+					for _, cs := range g.calls() {
+						if cs.Callee() != nil && (cs.Callee() == nnl || cs.Callee() == nn) && cs.Value() != nil && g.precedesEnd(cs.I(), at) {
+							if ev, has, disc := ErrValue(cs.Value()); has && !disc && ev != nil {
+								if k, isNil := g.nilFact(facts, c05V{cs.Ctx, ev}); k && isNil {
+									return c05Verdict{OK: true, Detail: "dominated by a successful " + cs.MethodName() + " (the need is stored before the sentinel is returned)"}
+								}
+							}
 						}
 					}
-				}
-				// (i) allErrNotExist()==true on a tracker wrapping the function's missTrackFetcher
-				if why == "" {
-					k, val, ac := BoolCallFact(l.At, func(c CallSite) bool { return c.Callee() == allNotExist })
+					// (i) allErrNotExist()==true on a tracker wrapping the function's missTrackFetcher
+					k, val, ac := g.boolCallFact(facts, func(cs c05S) bool { return cs.Callee() == allNotExist })
 					if k && val {
-						if bad := c05TrackerWrapsMissTracker(fn, ac.Args()[0], mtfPtr); bad == "" {
-							why = "under allErrNotExist()==true of a trackErrorsFetcher that wraps the *missTrackFetcher passed in (every NotExist fetch was recorded in fetcher.missing)"
+						if bad := c05TrackerWrapsMissTracker(g, ac.Arg(0), mtfPtr); bad == "" {
+							return c05Verdict{OK: true, Detail: "under allErrNotExist()==true of a trackErrorsFetcher that wraps the *missTrackFetcher passed in (every NotExist fetch was recorded in fetcher.missing)"}
 						} else {
-							r.Violation(rule, construct, site, "errMissingDep is returned under allErrNotExist(), but "+bad+": the misses are not recorded where ReceiveBlob looks for them, so the blob is marked 'have' without '|indexed' and never re-indexed")
-							continue
+							return c05Verdict{Detail: "errMissingDep is returned under allErrNotExist(), but " + bad + ": the misses are not recorded where ReceiveBlob looks for them, so the blob is marked 'have' without '|indexed' and never re-indexed"}
 						}
 					}
-				}
-				r.Check(why != "", rule, construct, site, why,
-					"errMissingDep is returned without a recorded miss (no successful noteNeeded dominates, no allErrNotExist()==true on a tracking fetcher): ReceiveBlob turns this sentinel into success, so the blob would be forgotten")
+					return c05Verdict{Detail: "errMissingDep is returned without a recorded miss (no successful noteNeeded dominates, no allErrNotExist()==true on a tracking fetcher): ReceiveBlob turns this sentinel into success, so the blob would be forgotten"}
+				})
+				r.Check(v.OK, rule, construct, site, v.Detail, v.Detail)
 			}
 		}
-		_ = n
 	}
 
 	// missTrackFetcher.Fetch records every NotExist
 	fetch := p.Func(c05Pkg, "missTrackFetcher", "Fetch")
 	fkey := FuncKey(fetch) + "#record"
-	var inner *ssa.Call
-	for _, c := range CallsIn(fetch, false) {
+	g := env.graph(fetch)
+	var inner c05S
+	for _, c := range g.calls() {
 		if v := c.Value(); v != nil && v.Call.IsInvoke() && v.Call.Method.Name() == "Fetch" {
-			if _, ok := c05LoadOfField(v.Call.Value, "missTrackFetcher", "fetcher"); ok {
-				inner = v
+			if base, ok := g.loadOfField(c05V{c.Ctx, v.Call.Value}, "missTrackFetcher", "fetcher"); ok && g.isParam(base, 0) {
+				inner = c
 			}
 		}
 	}
-	if inner == nil || len(fetch.Params) < 3 {
+	if inner.Instr == nil || len(fetch.Params) < 3 {
 		r.Violation(rule, fkey, p.Pos(fetch.Pos()), "missTrackFetcher.Fetch no longer forwards to its wrapped fetcher")
 	} else {
-		ev, _, _ := ErrValue(inner)
-		br := fetch.Params[2]
-		isNotExistTest := func(cond ssa.Value) (bool, bool) {
-			call, ok := cond.(*ssa.Call)
+		e, _, _ := ErrValue(inner.Value())
+		ev := c05V{inner.Ctx, e}
+		isNotExistTest := func(cond c05V) (bool, bool) {
+			call, ok := cond.V.(*ssa.Call)
 			if !ok {
 				return false, false
 			}
-			c := CallSite{fetch, call}
-			if c.IsStatic("errors", "", "Is") && sameOrigin(call.Call.Args[0], ev) &&
-				(c05GlobalLoad(call.Call.Args[1], "os", "ErrNotExist") || c05GlobalLoad(call.Call.Args[1], "io/fs", "ErrNotExist")) {
+			c := CallSite{call.Parent(), call}
+			if c.IsStatic("errors", "", "Is") && g.same(c05V{cond.Ctx, call.Call.Args[0]}, ev) &&
+				(g.globalLoad(c05V{cond.Ctx, call.Call.Args[1]}, "os", "ErrNotExist") || g.globalLoad(c05V{cond.Ctx, call.Call.Args[1]}, "io/fs", "ErrNotExist")) {
 				return true, true
 			}
-			if c.IsStatic("os", "", "IsNotExist") && sameOrigin(call.Call.Args[0], ev) {
+			if c.IsStatic("os", "", "IsNotExist") && g.same(c05V{cond.Ctx, call.Call.Args[0]}, ev) {
 				return true, true
 			}
 			return false, false
 		}
-		stop := func(in ssa.Instruction) bool {
-			st, ok := in.(*ssa.Store)
+		stop := func(i c05I) bool {
+			st, ok := i.In.(*ssa.Store)
 			if !ok {
 				return false
 			}
-			base, ok := c05FieldOf(st.Addr, "missTrackFetcher", "missing")
-			return ok && sameOrigin(base, fetch.Params[0]) && c05DependsOn(st.Val, func(v ssa.Value) bool { return v == ssa.Value(br) })
+			base, ok := g.fieldOf(c05V{i.Ctx, st.Addr}, "missTrackFetcher", "missing")
+			return ok && g.isParam(base, 0) && g.dependsOn(c05V{i.Ctx, st.Val}, func(v c05V) bool { return g.isParamDirect(v, 2) })
 		}
-		leaks := (&c05Explorer{NonNil: []ssa.Value{ev}, Assume: isNotExistTest, Stop: stop, IgnorePanics: true}).After(inner)
+		init := map[c05V]bool{}
+		if e != nil {
+			init[ev] = false
+		}
+		leaks := (&c05X{G: g, Init: init, Assume: isNotExistTest, Stop: stop, IgnorePanics: true}).After(inner.I())
 		r.Check(len(leaks) == 0, rule, fkey, p.Pos(inner.Pos()),
 			"assuming the wrapped Fetch's error is NotExist, every path to an exit appends br to f.missing",
-			"with a NotExist error from the wrapped fetcher an exit is reachable without br being appended to f.missing ("+c05DescribeLeaks(p, leaks)+"): the dependency is not recorded, errMissingDep is then swallowed and the blob never re-indexed")
+			"with a NotExist error from the wrapped fetcher an exit is reachable without br being appended to f.missing ("+g.describeLeaks(leaks)+"): the dependency is not recorded, errMissingDep is then swallowed and the blob never re-indexed")
 	}
 	r.Floor(rule, 5)
 }
 
+// isParamDirect: v is (syntactically, through helper parameters) the root's
+// parameter idx; cheaper than isParam and usable as a dependsOn target.
+func (g *c05Graph) isParamDirect(v c05V, idx int) bool {
+	ps := g.root.fn.Params
+	return idx < len(ps) && v.Ctx == g.root && v.V == ssa.Value(ps[idx])
+}
+
 // c05TrackerWrapsMissTracker checks that tf (receiver of allErrNotExist) is a
-// trackErrorsFetcher allocated in fn whose field f is only ever set to a
-// *missTrackFetcher that derives from one of fn's parameters.
-func c05TrackerWrapsMissTracker(fn *ssa.Function, tf ssa.Value, mtfPtr types.Type) string {
-	al, ok := originValue(tf).(*ssa.Alloc)
+// trackErrorsFetcher allocated in the effective body whose field f is only
+// ever set to a *missTrackFetcher that derives from one of the root's
+// parameters.
+func c05TrackerWrapsMissTracker(g *c05Graph, tf c05V, mtfPtr types.Type) string {
+	o := g.origin(tf)
+	al, ok := o.V.(*ssa.Alloc)
 	if !ok {
 		return "the tracking fetcher is not allocated in this function"
 	}
@@ -1197,9 +3355,15 @@ func c05TrackerWrapsMissTracker(fn *ssa.Function, tf ssa.Value, mtfPtr types.Typ
 				t = ta.AssertedType
 			}
 			if !types.Identical(t, mtfPtr) {
+				// an interface-typed parameter of a helper: look at what the caller passes
+				if ov := g.origin(c05V{o.Ctx, v}); ov.V != nil && types.Identical(ov.V.Type(), mtfPtr) {
+					t = ov.V.Type()
+				}
+			}
+			if !types.Identical(t, mtfPtr) {
 				return "its wrapped fetcher is a " + t.String() + ", not the *missTrackFetcher"
 			}
-			if !DependsOn(v, func(x ssa.Value) bool { _, isP := x.(*ssa.Parameter); return isP && x.Parent() == TopFunc(fn) }) {
+			if !g.dependsOn(c05V{o.Ctx, v}, c05OuterParam) {
 				return "its wrapped *missTrackFetcher is not the one passed to this function"
 			}
 		}
@@ -1213,50 +3377,67 @@ func c05TrackerWrapsMissTracker(fn *ssa.Function, tf ssa.Value, mtfPtr types.Typ
 // ---------------------------------------------------------------------------
 // I-wg
 
-var c05WgSpec = &PairSpec{
-	Rule: "I-wg",
-	Acquire: func(c CallSite) (string, bool) {
-		if c.IsStatic("sync", "WaitGroup", "Add") {
-			return AccessPath(c.Args()[0]), true
-		}
-		return "", false
-	},
-	Release: func(c CallSite) (string, bool) {
-		if c.IsStatic("sync", "WaitGroup", "Done") {
-			return AccessPath(c.Args()[0]), true
-		}
-		return "", false
-	},
+func c05IsJoin(c CallSite) bool {
+	return c.IsStatic("sync", "WaitGroup", "Wait") || c.IsStatic("go4.org/syncutil", "Group", "Wait") ||
+		c.IsStatic("go4.org/syncutil", "Group", "Err") || c.IsStatic("golang.org/x/sync/errgroup", "Group", "Wait")
 }
 
-// c05GoReleases reports whether instruction in starts (go) a function that
-// Dones the WaitGroup at caller-side path on all of its paths.
-func c05GoReleases(in ssa.Instruction, path string) bool {
-	g, ok := in.(*ssa.Go)
+// passStop turns "instruction satisfies pred" into the stop test of a
+// must-pass exploration: a plain call or a deferred call satisfying pred, or
+// a deferred function that passes pred on all of its own paths. Goroutines
+// started with go do not count.
+func (g *c05Graph) passStop(pred func(i c05I) bool) func(i c05I) bool {
+	var stop func(i c05I, depth int) bool
+	stop = func(i c05I, depth int) bool {
+		if _, isGo := i.In.(*ssa.Go); isGo {
+			return false
+		}
+		if pred(i) {
+			return true
+		}
+		if d, ok := i.In.(*ssa.Defer); ok && depth < 3 {
+			if k := g.sideCtx(i.Ctx, d); k != nil {
+				lk := (&c05X{G: g, Top: k, IgnorePanics: true, Stop: func(j c05I) bool { return stop(j, depth+1) }}).FromEntry()
+				return len(lk) == 0
+			}
+		}
+		return false
+	}
+	return func(i c05I) bool { return stop(i, 0) }
+}
+
+// wgBase: for a call of sync.WaitGroup.<method> whose receiver is
+// &X.reindexWg, the value X.
+func (g *c05Graph) wgBase(s c05S, method string) (c05V, bool) {
+	if !s.IsStatic("sync", "WaitGroup", method) || s.NArgs() == 0 {
+		return c05V{}, false
+	}
+	return g.fieldOf(s.Arg(0), "Index", "reindexWg")
+}
+
+// goReleases reports whether instruction i starts (go) a function that Dones
+// the reindexWg of base on all of its paths.
+func (g *c05Graph) goReleases(i c05I, base c05V) bool {
+	gi, ok := i.In.(*ssa.Go)
 	if !ok {
 		return false
 	}
-	c := CallSite{in.Parent(), g}
-	if c05WgSpec.stop(in, path, 0) { // go func(){ defer wg.Done() ... }()
-		return true
-	}
-	f := c.Callee()
-	if f == nil || f.Parent() != nil || len(f.Blocks) == 0 {
+	k := g.sideCtx(i.Ctx, gi)
+	if k == nil {
 		return false
 	}
-	for _, d := range CallsIn(f, false) {
-		pth, ok := c05WgSpec.Release(d)
+	isDone := func(j c05I) bool {
+		ci, ok := j.In.(ssa.CallInstruction)
 		if !ok {
-			continue
+			return false
 		}
-		if tp, ok := TranslatePath(c, f, pth); ok && tp == path && c05WgSpec.releasesOnAllPaths(f, pth, 0) {
-			return true
-		}
+		b, ok := g.wgBase(c05S{j.Ctx, CallSite{j.Ctx.fn, ci}}, "Done")
+		return ok && g.same(b, base)
 	}
-	return false
+	return len(g.allPathsPass(k, isDone)) == 0
 }
 
-func c05RuleWg(p *Program, r *Reporter) {
+func c05RuleWg(p *Program, r *Reporter, env *c05Env) {
 	const rule = "I-wg"
 	irb := p.Func(c05Pkg, "Index", "indexReadyBlobs")
 	indexBlob := p.Func(c05Pkg, "Index", "indexBlob")
@@ -1273,17 +3454,28 @@ func c05RuleWg(p *Program, r *Reporter) {
 				continue
 			}
 			nAdd++
+			c := c
 			construct := FuncKey(fn) + "#reindexWg.Add"
 			site := p.Pos(c.Pos())
 			if n, ok := ConstInt(c.Args()[1]); !ok || n != 1 || c.IsDefer() || c.IsGo() {
 				r.Undecided(rule, construct, site, "reindexWg.Add with a delta other than the constant 1 (or deferred): cannot be paired with one goroutine")
 				continue
 			}
-			path := AccessPath(c.Args()[0])
-			leaks := (&c05Explorer{IgnorePanics: true, Stop: func(in ssa.Instruction) bool { return c05GoReleases(in, path) }}).After(c.Instr)
-			r.Check(len(leaks) == 0, rule, construct, site,
+			v := env.lifted(fn, func(g *c05Graph, ctx *c05Ctx) c05Verdict {
+				s := c05S{ctx, c}
+				base, ok := g.wgBase(s, "Add")
+				if !ok {
+					return c05Verdict{Detail: "receiver is not an Index's reindexWg"}
+				}
+				leaks := (&c05X{G: g, IgnorePanics: true, Stop: func(i c05I) bool { return g.goReleases(i, base) }}).After(s.I())
+				if len(leaks) == 0 {
+					return c05Verdict{OK: true}
+				}
+				return c05Verdict{Detail: g.describeLeaks(leaks)}
+			})
+			r.Check(v.OK, rule, construct, site,
 				"on every path the Add(1) is followed by a go statement whose function calls Done on the same WaitGroup on all its paths",
-				"reindexWg.Add(1) is not followed on every path by a goroutine that Dones it ("+c05DescribeLeaks(p, leaks)+"): Reindex's reindexWg.Wait() would hang, or the ready blob is never re-indexed")
+				"reindexWg.Add(1) is not followed on every path by a goroutine that Dones it ("+v.Detail+"): Reindex's reindexWg.Wait() would hang, or the ready blob is never re-indexed")
 		}
 	}
 	if nAdd == 0 {
@@ -1296,238 +3488,280 @@ func c05RuleWg(p *Program, r *Reporter) {
 		r.Undecided(rule, ikey+"#callers", p.Pos(uses[0].Pos()), "indexReadyBlobs is used as a function value; its callers cannot be enumerated")
 	}
 	for _, c := range p.StaticCallers(irb) {
+		c := c
 		construct := FuncKey(c.Fn) + "#start-indexReadyBlobs"
 		ok := false
 		if c.IsGo() {
-			for _, a := range CallsIn(c.Fn, false) {
-				if a.IsStatic("sync", "WaitGroup", "Add") && isReindexWg(a.Args()[0]) && Precedes(a.Instr, c.Instr) {
-					ok = true
+			v := env.lifted(c.Fn, func(g *c05Graph, ctx *c05Ctx) c05Verdict {
+				s := c05S{ctx, c}
+				for _, a := range g.calls() {
+					if _, isCall := a.Instr.(*ssa.Call); !isCall {
+						continue
+					}
+					if base, isAdd := g.wgBase(a, "Add"); isAdd && g.same(base, s.Arg(0)) && g.precedes(a.I(), s.I()) {
+						return c05Verdict{OK: true}
+					}
 				}
-			}
+				return c05Verdict{}
+			})
+			ok = v.OK
 		}
 		r.Check(ok, rule, construct, p.Pos(c.Pos()),
 			"started with go, after a reindexWg.Add on every path",
 			"indexReadyBlobs (which Dones reindexWg) is started without a preceding reindexWg.Add, or not as a goroutine: the counter goes negative (panic) or the caller blocks while holding the index lock")
 	}
-	okDone := false
-	for _, d := range CallsIn(irb, false) {
-		if pth, ok := c05WgSpec.Release(d); ok && isReindexWg(d.Args()[0]) && c05WgSpec.releasesOnAllPaths(irb, pth, 0) {
-			okDone = true
+	gi := env.graph(irb)
+	isOwnDone := func(j c05I) bool {
+		ci, ok := j.In.(ssa.CallInstruction)
+		if !ok {
+			return false
 		}
+		b, ok := gi.wgBase(c05S{j.Ctx, CallSite{j.Ctx.fn, ci}}, "Done")
+		return ok && gi.isParam(b, 0)
 	}
+	okDone := len(gi.allPathsPass(nil, isOwnDone)) == 0
 	r.Check(okDone, rule, ikey+"#Done", p.Pos(irb.Pos()), "reindexWg.Done runs on every path (deferred)", "indexReadyBlobs does not call reindexWg.Done on every path: Reindex would wait forever")
 
 	// (3) failed re-index attempts are put back into readyReindex
-	c05Requeue(p, r, rule, irb, indexBlob)
+	c05Requeue(p, r, env, rule, irb, indexBlob)
 
 	// (4) getNewPendingBlobIndex ... MarkDone
 	gnp := p.Func(c05Pkg, "Index", "getNewPendingBlobIndex")
 	markDone := p.Func(c05Pkg, "pendingBlobIndex", "MarkDone")
 	for _, c := range p.StaticCallers(gnp) {
+		c := c
 		construct := FuncKey(c.Fn) + "#MarkDone"
 		call := c.Value()
 		if call == nil {
 			r.Undecided(rule, construct, p.Pos(c.Pos()), "getNewPendingBlobIndex called with go/defer")
 			continue
 		}
-		pv := ResultValue(call, 0)
-		ev, _, disc := ErrValue(call)
-		if pv == nil || disc {
+		pvS := ResultValue(call, 0)
+		evS, _, disc := ErrValue(call)
+		if pvS == nil || disc || evS == nil {
 			r.Violation(rule, construct, p.Pos(c.Pos()), "the pending entry or the error returned by getNewPendingBlobIndex is discarded: the entry can never be marked done, so len(pending) never drops to zero and recentDone dependencies are never swept")
 			continue
 		}
-		marks := func(f *ssa.Function, in ssa.Instruction) bool {
-			ci, ok := in.(ssa.CallInstruction)
-			if !ok {
-				return false
-			}
-			cs := CallSite{f, ci}
-			return cs.Callee() == markDone && sameOrigin(cs.Args()[0], pv)
-		}
-		stop := func(in ssa.Instruction) bool {
-			if marks(in.Parent(), in) {
-				return true
-			}
-			if d, ok := in.(*ssa.Defer); ok {
-				if cl := ClosureOf(CallSite{in.Parent(), d}); cl != nil && len(cl.Blocks) > 0 {
-					lk := (&c05Explorer{IgnorePanics: true, Stop: func(x ssa.Instruction) bool { return marks(cl, x) }}).FromEntry(cl)
-					return len(lk) == 0
+		v := env.lifted(c.Fn, func(g *c05Graph, ctx *c05Ctx) c05Verdict {
+			s := c05S{ctx, c}
+			pv, ev := c05V{ctx, pvS}, c05V{ctx, evS}
+			marks := func(i c05I) bool {
+				ci, ok := i.In.(ssa.CallInstruction)
+				if !ok {
+					return false
 				}
+				cs := c05S{i.Ctx, CallSite{i.Ctx.fn, ci}}
+				return cs.Callee() == markDone && g.same(cs.Arg(0), pv)
 			}
-			return false
-		}
-		leaks := (&c05Explorer{Nil: []ssa.Value{ev}, Stop: stop, IgnorePanics: true}).After(call)
-		r.Check(len(leaks) == 0, rule, construct, p.Pos(c.Pos()),
-			"on the err==nil edge every path to an exit passes MarkDone of the returned entry (call, defer, or deferred literal)",
-			"a successful getNewPendingBlobIndex is not followed by MarkDone on every path ("+c05DescribeLeaks(p, leaks)+"): the entry stays in Index.pending, concurrent receivers of the same blob wait forever and recentDone is never swept")
+			leaks := (&c05X{G: g, Init: map[c05V]bool{ev: true}, Stop: g.passStop(marks), IgnorePanics: true}).After(s.I())
+			if len(leaks) == 0 {
+				return c05Verdict{OK: true}
+			}
+			return c05Verdict{Detail: g.describeLeaks(leaks)}
+		})
+		r.Check(v.OK, rule, construct, p.Pos(c.Pos()),
+			"on the err==nil edge every path to an exit passes MarkDone of the returned entry (call, defer, or deferred function)",
+			"a successful getNewPendingBlobIndex is not followed by MarkDone on every path ("+v.Detail+"): the entry stays in Index.pending, concurrent receivers of the same blob wait forever and recentDone is never swept")
 	}
 
 	// (5) MarkDone always unregisters and wakes
 	mkey := FuncKey(markDone)
-	recv := markDone.Params[0]
-	isRecvField := func(v ssa.Value, field string) bool {
-		base, ok := c05LoadOfField(v, "pendingBlobIndex", field)
-		return ok && sameOrigin(base, recv)
+	gm := env.graph(markDone)
+	isRecvField := func(v c05V, field string) bool {
+		base, ok := gm.loadOfField(v, "pendingBlobIndex", field)
+		return ok && gm.isParam(base, 0)
 	}
-	allPaths := func(pred func(CallSite) bool) bool {
-		stop := func(in ssa.Instruction) bool {
-			ci, ok := in.(ssa.CallInstruction)
-			return ok && pred(CallSite{markDone, ci})
+	builtinOn := func(name string, test func(s c05S) bool) func(i c05I) bool {
+		return func(i c05I) bool {
+			ci, ok := i.In.(ssa.CallInstruction)
+			if !ok {
+				return false
+			}
+			s := c05S{i.Ctx, CallSite{i.Ctx.fn, ci}}
+			return c05IsBuiltin(s.CallSite, name) && test(s)
 		}
-		return len((&c05Explorer{IgnorePanics: true, Stop: stop}).FromEntry(markDone)) == 0
 	}
-	okDel := allPaths(func(c CallSite) bool {
-		if !c05IsBuiltin(c, "delete") || c.IsGo() {
+	okDel := len(gm.allPathsPass(nil, builtinOn("delete", func(s c05S) bool {
+		if len(s.Common().Args) < 2 {
 			return false
 		}
-		_, ok := c05LoadOfField(c.Common().Args[0], "Index", "pending")
-		return ok && isRecvField(c.Common().Args[1], "blobRef")
-	})
+		_, ok := gm.loadOfField(c05V{s.Ctx, s.Common().Args[0]}, "Index", "pending")
+		return ok && isRecvField(c05V{s.Ctx, s.Common().Args[1]}, "blobRef")
+	}))) == 0
 	r.Check(okDel, rule, mkey+"#unregister", p.Pos(markDone.Pos()), "delete(x.pending, p.blobRef) runs on every path", "MarkDone does not remove its entry from Index.pending on every path: len(pending) never reaches zero, recentDone is never swept, dependants recorded during the race window are never re-indexed")
-	okClose := allPaths(func(c CallSite) bool {
-		return c05IsBuiltin(c, "close") && !c.IsGo() && isRecvField(c.Common().Args[0], "done")
-	})
+	okClose := len(gm.allPathsPass(nil, builtinOn("close", func(s c05S) bool {
+		return len(s.Common().Args) == 1 && isRecvField(c05V{s.Ctx, s.Common().Args[0]}, "done")
+	}))) == 0
 	r.Check(okClose, rule, mkey+"#wake", p.Pos(markDone.Pos()), "close(p.done) runs on every path (call or defer)", "MarkDone does not close p.done on every path: a concurrent ReceiveBlob of the same ref waits forever in getNewPendingBlobIndex")
 
 	// (6) Reindex drains: workers joined, then reindexWg, before the verdict
-	c05ReindexDrain(p, r, rule, indexBlob, isReindexWg)
+	c05ReindexDrain(p, r, env, rule, indexBlob)
 	r.Floor(rule, 8)
 }
 
-func c05Requeue(p *Program, r *Reporter, rule string, irb, indexBlob *ssa.Function) {
-	for _, c := range c05CallsTo(irb, indexBlob) {
+func c05Requeue(p *Program, r *Reporter, env *c05Env, rule string, irb, indexBlob *ssa.Function) {
+	g := env.graph(irb)
+	for _, c := range g.callsTo(indexBlob) {
 		construct := FuncKey(irb) + "#requeue"
 		call := c.Value()
 		if call == nil {
 			r.Undecided(rule, construct, p.Pos(c.Pos()), "indexBlob started asynchronously in indexReadyBlobs")
 			continue
 		}
-		br := call.Call.Args[2]
-		ev, edges := c05FailureEdges(call)
-		if len(edges) == 0 {
+		br := c.Arg(2)
+		e, _, disc := ErrValue(call)
+		if disc || e == nil {
 			r.Violation(rule, construct, p.Pos(c.Pos()), "the error of indexBlob is not tested: a blob popped from readyReindex whose re-index fails is forgotten")
 			continue
 		}
+		ev := c05V{c.Ctx, e}
 		// where is br recorded on the failure path?
-		var sink ssa.Value
+		var sink c05V
 		direct := false
-		stop := func(in ssa.Instruction) bool {
-			mu, ok := in.(*ssa.MapUpdate)
-			if !ok || !sameOrigin(mu.Key, br) {
+		stop := func(i c05I) bool {
+			mu, ok := i.In.(*ssa.MapUpdate)
+			if !ok || !g.same(c05V{i.Ctx, mu.Key}, br) {
 				return false
 			}
-			if _, ok := c05LoadOfField(mu.Map, "Index", "readyReindex"); ok {
+			if _, ok := g.loadOfField(c05V{i.Ctx, mu.Map}, "Index", "readyReindex"); ok {
 				direct = true
 				return true
 			}
-			sink = originValue(mu.Map)
+			sink = g.origin(c05V{i.Ctx, mu.Map})
 			return true
 		}
-		var leaks []c05Leak
-		for _, e := range edges {
-			ex := &c05Explorer{NonNil: []ssa.Value{ev}, Stop: stop, IgnorePanics: true,
-				Fail: func(in ssa.Instruction) bool { return in == ssa.Instruction(call) }}
-			leaks = append(leaks, ex.OnEdge(e.From, e.To)...)
-		}
+		self := c.I()
+		leaks := (&c05X{G: g, Init: map[c05V]bool{ev: false}, Stop: stop, IgnorePanics: true,
+			Fail: func(i c05I) bool { return i == self }}).After(self)
 		if len(leaks) > 0 {
-			r.Violation(rule, construct, p.Pos(c.Pos()), "after indexBlob fails, the next iteration or an exit is reached without the ref being recorded ("+c05DescribeLeaks(p, leaks)+"): the blob has already been removed from needs and readyReindex, so it is dropped")
+			r.Violation(rule, construct, p.Pos(c.Pos()), "after indexBlob fails, the next iteration or an exit is reached without the ref being recorded ("+g.describeLeaks(leaks)+"): the blob has already been removed from needs and readyReindex, so it is dropped")
 			continue
 		}
-		if direct && sink == nil {
+		if direct && sink.V == nil {
 			r.OK(rule, construct, p.Pos(c.Pos()), "on failure the ref is put back into readyReindex")
 			continue
 		}
 		// the local set must be drained into readyReindex before every return
 		okDrain := false
-		for _, b := range irb.Blocks {
-			for _, in := range b.Instrs {
-				rg, ok := in.(*ssa.Range)
-				if !ok || originValue(rg.X) != sink {
+		g.instrs(func(i c05I) {
+			rg, ok := i.In.(*ssa.Range)
+			if !ok || g.origin(c05V{i.Ctx, rg.X}) != sink {
+				return
+			}
+			fromRange := func(v c05V) bool {
+				nx, ok := v.V.(*ssa.Next)
+				return ok && nx.Iter == ssa.Value(rg) && v.Ctx == i.Ctx
+			}
+			for _, w := range g.fieldMapWrites("Index", "readyReindex") {
+				if !g.dependsOn(w.Key, fromRange) {
 					continue
 				}
-				fromRange := func(v ssa.Value) bool {
-					nx, ok := v.(*ssa.Next)
-					return ok && nx.Iter == ssa.Value(rg)
+				all := true
+				for _, rn := range g.rootReturns() {
+					if !g.precedes(i, c05I{g.root, rn.last()}) {
+						all = false
+					}
 				}
-				for _, w := range c05FieldMapWrites(irb, "Index", "readyReindex") {
-					if !DependsOn(w.Key, fromRange) {
-						continue
-					}
-					all := true
-					for _, ri := range Returns(irb) {
-						if !Precedes(rg, ri.Ret) {
-							all = false
-						}
-					}
-					if all {
-						okDrain = true
-					}
+				if all {
+					okDrain = true
 				}
 			}
-		}
+		})
 		r.Check(okDrain, rule, construct, p.Pos(c.Pos()),
 			"on failure the ref is recorded in a local set that is copied into readyReindex before every return",
 			"failed refs are collected but not copied back into Index.readyReindex before every return: Reindex would report success although blobs were not indexed")
 	}
 }
 
-func c05ReindexDrain(p *Program, r *Reporter, rule string, indexBlob *ssa.Function, isReindexWg func(ssa.Value) bool) {
-	reindex := p.Func(c05Pkg, "Index", "Reindex")
-	key := FuncKey(reindex)
-	var waitR *ssa.Call
-	for _, c := range CallsIn(reindex, false) {
-		if c.IsStatic("sync", "WaitGroup", "Wait") && isReindexWg(c.Args()[0]) && c.Value() != nil {
-			waitR = c.Value()
+// accessPath renders v in the root's terms (a helper's parameter is the
+// caller's argument).
+func (g *c05Graph) accessPath(v c05V) string {
+	for i := 0; i < 8 && v.Ctx != nil && v.Ctx.parent != nil; i++ {
+		o := g.originShallow(v)
+		if o == v {
+			break
+		}
+		v = o
+	}
+	if v.Ctx == nil || v.Ctx.parent == nil {
+		return AccessPath(v.V)
+	}
+	switch x := v.V.(type) {
+	case *ssa.FieldAddr:
+		base := g.accessPath(c05V{v.Ctx, x.X})
+		base = strings.TrimPrefix(base, "&")
+		return "&" + base + "." + fieldName(x.X.Type(), x.Field)
+	case *ssa.UnOp:
+		if x.Op == token.MUL {
+			s := g.accessPath(c05V{v.Ctx, x.X})
+			if strings.HasPrefix(s, "&") {
+				return s[1:]
+			}
+			return "*" + s
 		}
 	}
-	if waitR == nil {
+	return fmt.Sprintf("?%d.%s", v.Ctx.id, v.V.Name())
+}
+
+func c05ReindexDrain(p *Program, r *Reporter, env *c05Env, rule string, indexBlob *ssa.Function) {
+	reindex := p.Func(c05Pkg, "Index", "Reindex")
+	key := FuncKey(reindex)
+	g := env.graph(reindex)
+	var waitR c05S
+	for _, c := range g.calls() {
+		if _, isCall := c.Instr.(*ssa.Call); !isCall {
+			continue
+		}
+		if base, ok := g.wgBase(c, "Wait"); ok && g.isParam(base, 0) {
+			waitR = c
+		}
+	}
+	if waitR.Instr == nil {
 		r.Violation(rule, key+"#drain", p.Pos(reindex.Pos()), "Reindex does not wait for reindexWg: it can return (and read needs/readyReindex) while out-of-order re-indexing is still running, so its result is not the final state")
 		return
 	}
 	var bad []string
-	for _, nr := range MaybeNilErrorReturns(reindex) {
-		if !Precedes(waitR, nr.Ret) {
-			bad = append(bad, fmt.Sprintf("the success return at line %d is not preceded by reindexWg.Wait()", p.Fset.Position(c05RetPos(nr.Ret)).Line))
+	for _, nr := range g.nilRets() {
+		if !g.retAfter(waitR.I(), nr) {
+			bad = append(bad, fmt.Sprintf("the success return at line %d is not preceded by reindexWg.Wait()", p.Fset.Position(c05LeafPos(nr)).Line))
 		}
 	}
 	// the verdict reads come after the wait
-	for _, b := range reindex.Blocks {
-		for _, in := range b.Instrs {
-			fa, ok := in.(*ssa.FieldAddr)
-			if !ok {
-				continue
-			}
-			for _, f := range []string{"readyReindex", "needs"} {
-				if _, ok := c05FieldOf(fa, "Index", f); ok && !Precedes(waitR, fa) {
-					bad = append(bad, "Index."+f+" is read before reindexWg.Wait()")
-				}
+	g.instrs(func(i c05I) {
+		fa, ok := i.In.(*ssa.FieldAddr)
+		if !ok {
+			return
+		}
+		for _, f := range []string{"readyReindex", "needs"} {
+			if _, ok := c05FieldOf(fa, "Index", f); ok && !g.precedes(waitR.I(), i) {
+				bad = append(bad, "Index."+f+" is read before reindexWg.Wait()")
 			}
 		}
-	}
+	})
 	// workers that call indexBlob are joined before reindexWg.Wait
 	nSpawn := 0
-	for _, c := range CallsIn(reindex, false) {
-		var lits []*ssa.Function
-		lits = append(lits, spawnedClosures(c)...)
-		for _, lit := range lits {
-			calls := false
-			for _, cc := range CallsIn(lit, true) {
-				if cc.Callee() == indexBlob {
-					calls = true
+	for _, c := range g.calls() {
+		for _, lit := range spawnedClosures(c.CallSite) {
+			if len(env.graph(lit).callsTo(indexBlob)) == 0 {
+				deep := false
+				for _, cc := range CallsIn(lit, true) {
+					if cc.Callee() == indexBlob {
+						deep = true
+					}
+				}
+				if !deep {
+					continue
 				}
 			}
-			if !calls {
-				continue
-			}
 			nSpawn++
-			if !isSpawner(c) {
+			if !isSpawner(c.CallSite) {
 				bad = append(bad, "a worker calling indexBlob is started with a bare go statement; its join cannot be identified")
 				continue
 			}
-			grp := AccessPath(c.Args()[0])
+			grp := g.accessPath(c.Arg(0))
 			joined := false
-			for _, w := range CallsIn(reindex, false) {
-				if isJoin(w) && AccessPath(w.Args()[0]) == grp && Precedes(w.Instr, waitR) {
+			for _, w := range g.calls() {
+				if _, isCall := w.Instr.(*ssa.Call); isCall && c05IsJoin(w.CallSite) && g.accessPath(w.Arg(0)) == grp && g.precedes(w.I(), waitR.I()) {
 					joined = true
 				}
 			}
@@ -1553,33 +3787,47 @@ var c05OpenExceptions = map[string]string{
 	"aboutToReindex": "the storage has just been wiped and everything is rebuilt by Reindex: there are no missing| rows to reload (re-checked: aboutToReindex is only set where a successful Wipe precedes every later New)",
 }
 
-func c05RuleOpen(p *Program, r *Reporter) {
+func c05RuleOpen(p *Program, r *Reporter, env *c05Env) {
 	const rule = "I-open"
 	newFn := p.Func(c05Pkg, "", "New")
 	init := p.Func(c05Pkg, "Index", "initNeededMapsLocked")
-	nnm := p.Func(c05Pkg, "Index", "noteNeededMemoryLocked")
+	nnm := p.LookupFunc(c05Pkg, "Index", "noteNeededMemoryLocked") // optional: may be written out in its callers
 	nnl := p.Func(c05Pkg, "Index", "noteNeededLocked")
 	key := FuncKey(newFn)
+	g := env.graph(newFn)
 
-	rets := map[*ssa.Return]ReturnInfo{}
-	for _, ri := range Returns(newFn) {
-		rets[ri.Ret] = ri
+	// the returned index, per return
+	idxOf := map[*ssa.Return]c05V{}
+	for _, rn := range g.rootReturns() {
+		ret := rn.last().(*ssa.Return)
+		if res := g.root.rets[ret]; len(res) > 0 {
+			idxOf[ret] = c05V{g.root, res[0]}
+		}
 	}
 	usedException := false
-	seq := 0
-	for _, nr := range MaybeNilErrorReturns(newFn) {
-		seq++
-		site := p.Pos(c05RetPos(nr.Ret))
-		idx := rets[nr.Ret].Results[0]
-		if IsNilConst(idx) {
+	for _, nr := range g.nilRets() {
+		site := p.Pos(c05LeafPos(nr))
+		idx := idxOf[nr.Ret]
+		// `return helper(...)`: the index is what the helper returns on this leaf
+		if len(nr.Ats) > 1 {
+			for _, t := range g.returnTuples() {
+				if t.Ret == nr.Ret && len(t.Ats) == len(nr.Ats) && t.Ats[len(t.Ats)-1] == nr.Ats[len(nr.Ats)-1] && len(t.Results) > 0 {
+					idx = t.Results[0]
+				}
+			}
+		}
+		if idx.V == nil || IsNilConst(idx.V) {
 			continue
 		}
+		facts := g.retFacts(nr)
 		okInit := false
-		for _, c := range c05CallsTo(newFn, init) {
-			if v := c.Value(); v != nil && sameOrigin(v.Call.Args[0], idx) {
-				if ok, _ := SuccessDominates(v, nr.Ret); ok {
-					okInit = true
-				}
+		for _, c := range g.callsTo(init) {
+			v := c.Value()
+			if v == nil || !g.same(c.Arg(0), idx) || !g.retAfter(c.I(), nr) {
+				continue
+			}
+			if k, isNil := g.nilFact(facts, c05V{c.Ctx, v}); k && isNil {
+				okInit = true
 			}
 		}
 		if okInit {
@@ -1587,8 +3835,8 @@ func c05RuleOpen(p *Program, r *Reporter) {
 			continue
 		}
 		exc := false
-		for _, f := range FactsAt(nr.Ret.Block()) {
-			if c05GlobalLoad(f.Cond, c05PkgPath, "aboutToReindex") && f.Val {
+		for _, f := range facts {
+			if !f.IsNil && f.Val && g.globalLoad(f.C, c05PkgPath, "aboutToReindex") {
 				exc = true
 			}
 		}
@@ -1610,8 +3858,8 @@ func c05RuleOpen(p *Program, r *Reporter) {
 					if !ok {
 						continue
 					}
-					g, ok := st.Addr.(*ssa.Global)
-					if !ok || g.Name() != "aboutToReindex" {
+					gl, ok := st.Addr.(*ssa.Global)
+					if !ok || gl.Name() != "aboutToReindex" || gl.Pkg == nil || gl.Pkg.Pkg.Path() != c05PkgPath {
 						continue
 					}
 					if c, ok := st.Val.(*ssa.Const); ok && c.Value != nil && c.Value.Kind() == constant.Bool && !constant.BoolVal(c.Value) {
@@ -1622,32 +3870,61 @@ func c05RuleOpen(p *Program, r *Reporter) {
 					}
 					nStores++
 					construct := FuncKey(fn) + "#aboutToReindex-implies-wipe"
-					isNew := func(x ssa.Instruction) bool {
-						ci, ok := x.(ssa.CallInstruction)
-						return ok && (CallSite{fn, ci}).Callee() == newFn
-					}
-					var wipe *ssa.Call
-					isWipe := func(x ssa.Instruction) bool {
-						call, ok := x.(*ssa.Call)
-						if ok && call.Call.IsInvoke() && call.Call.Method.Name() == "Wipe" && strings.HasSuffix(typeKey(call.Call.Value.Type()), "sorted.Wiper") {
-							wipe = call
-							return true
+					v := env.lifted(fn, func(g *c05Graph, ctx *c05Ctx) c05Verdict {
+						isNew := func(i c05I) bool {
+							ci, ok := i.In.(ssa.CallInstruction)
+							return ok && (CallSite{i.Ctx.fn, ci}).Callee() == newFn
 						}
-						return false
-					}
-					leaks := (&c05Explorer{IgnorePanics: true, Stop: isWipe, Fail: isNew, ExitOK: func(ssa.Instruction) bool { return true }}).After(st)
-					if wipe != nil {
-						ev, edges := c05FailureEdges(wipe)
-						if len(edges) == 0 {
-							leaks = append(leaks, c05Leak{wipe, nil})
+						var wipes []c05S
+						isWipe := func(i c05I) bool {
+							call, ok := i.In.(*ssa.Call)
+							if ok && call.Call.IsInvoke() && call.Call.Method.Name() == "Wipe" && strings.HasSuffix(typeKey(call.Call.Value.Type()), "sorted.Wiper") {
+								s := c05S{i.Ctx, CallSite{i.Ctx.fn, call}}
+								dup := false
+								for _, w := range wipes {
+									if w.I() == s.I() {
+										dup = true
+									}
+								}
+								if !dup {
+									wipes = append(wipes, s)
+								}
+								return true
+							}
+							return false
 						}
-						for _, e := range edges {
-							leaks = append(leaks, (&c05Explorer{NonNil: []ssa.Value{ev}, IgnorePanics: true, Fail: isNew, ExitOK: func(ssa.Instruction) bool { return true }}).OnEdge(e.From, e.To)...)
+						// leaving a pure helper undecided is no verdict: its callers go on from there
+						_, rootIsHelper := env.pureHelper(g.root.fn)
+						exitOK := func(c05I) bool { return !rootIsHelper }
+						leaks := (&c05X{G: g, IgnorePanics: true, Stop: isWipe, Fail: isNew, ExitOK: exitOK}).After(c05I{ctx, st})
+						for _, w := range wipes {
+							e, _, disc := ErrValue(w.Value())
+							if disc || e == nil {
+								leaks = append(leaks, c05XLeak{w.I(), nil})
+								continue
+							}
+							leaks = append(leaks, (&c05X{G: g, Init: map[c05V]bool{{w.Ctx, e}: false}, IgnorePanics: true, Fail: isNew, ExitOK: exitOK}).After(w.I())...)
 						}
-					}
-					r.Check(len(leaks) == 0 && wipe != nil, rule, construct, p.Pos(st.Pos()),
+						// at this level the path ends without reaching New: the callers decide
+						if len(leaks) == 0 && len(wipes) == 0 {
+							reachesNew := false
+							for _, c := range g.calls() {
+								if c.Callee() == newFn && g.reaches(c05I{ctx, st}, c.I()) {
+									reachesNew = true
+								}
+							}
+							if !reachesNew {
+								return c05Verdict{Vacuous: true, Detail: "index.New is not reached from here"}
+							}
+						}
+						if len(leaks) == 0 && len(wipes) > 0 {
+							return c05Verdict{OK: true}
+						}
+						return c05Verdict{Detail: g.describeLeaks(leaks)}
+					})
+					r.Check(v.OK && !v.Vacuous, rule, construct, p.Pos(st.Pos()),
 						"after aboutToReindex is set, index.New is reached only through a successful sorted.Wiper.Wipe()",
-						"aboutToReindex is set on a path that reaches index.New without a successful Wipe ("+c05DescribeLeaks(p, leaks)+"): New would skip loading needs/neededBy (and the deletes cache) from rows that still exist")
+						"aboutToReindex is set on a path that reaches index.New without a successful Wipe ("+v.Detail+"): New would skip loading needs/neededBy (and the deletes cache) from rows that still exist")
 				}
 			}
 		}
@@ -1658,14 +3935,19 @@ func c05RuleOpen(p *Program, r *Reporter) {
 
 	// reload loop + key part order agreement
 	ikey := FuncKey(init)
+	gi := env.graph(init)
+	isQueryPrefix := func(c c05S) bool {
+		f := c.Callee()
+		return c.MethodName() == "queryPrefix" && f != nil && f.Pkg != nil && f.Pkg.Pkg.Path() == c05PkgPath
+	}
 	var bad []string
 	okQuery := false
-	for _, c := range CallsIn(init, false) {
-		if c.MethodName() != "queryPrefix" || c.Callee() == nil || c.Callee().Pkg == nil || c.Callee().Pkg.Pkg.Path() != c05PkgPath {
+	for _, c := range gi.calls() {
+		if !isQueryPrefix(c) {
 			continue
 		}
-		for i, a := range c.Args() {
-			if c05GlobalLoad(a, c05PkgPath, "keyMissing") {
+		for i := 0; i < c.NArgs(); i++ {
+			if gi.globalLoad(c.Arg(i), c05PkgPath, "keyMissing") {
 				rest := c.Args()[i+1:]
 				if len(rest) == 1 && (IsNilConst(rest[0]) || len(c05VarargElems(rest[0])) == 0) {
 					okQuery = true
@@ -1676,23 +3958,26 @@ func c05RuleOpen(p *Program, r *Reporter) {
 	if !okQuery {
 		bad = append(bad, "does not iterate over the whole keyMissing prefix")
 	}
-	var memCall *ssa.Call
-	for _, c := range c05CallsTo(init, nnm) {
-		if c.Value() != nil && inLoop(c.Block()) && sameOrigin(c.Args()[0], init.Params[0]) {
-			memCall = c.Value()
+	var memCall *c05MemUpdate
+	for _, u := range c05MemUpdates(gi, nnm) {
+		u := u
+		if gi.inCycle(u.I) && gi.isParam(u.Recv, 0) {
+			memCall = &u
 		}
 	}
 	if memCall == nil {
-		bad = append(bad, "does not call noteNeededMemoryLocked on the receiver for each row")
+		bad = append(bad, "does not update needs/neededBy of the receiver (noteNeededMemoryLocked) for each row")
 	}
 	r.Check(len(bad) == 0, rule, ikey+"#reload", p.Pos(init.Pos()),
 		"ranges over every missing| row and feeds each into noteNeededMemoryLocked",
 		"initNeededMapsLocked "+strings.Join(bad, " and "))
 
+	gn := env.graph(nnl)
 	if memCall != nil {
 		// reader: which key part feeds which parameter position
-		part := func(v ssa.Value) int {
-			ex, ok := originValue(v).(*ssa.Extract)
+		part := func(v c05V) int {
+			o := gi.origin(v)
+			ex, ok := o.V.(*ssa.Extract)
 			if !ok || ex.Index != 0 {
 				return -1
 			}
@@ -1700,7 +3985,7 @@ func c05RuleOpen(p *Program, r *Reporter) {
 			if !ok || len(call.Call.Args) != 1 {
 				return -1
 			}
-			sl, ok := originValue(call.Call.Args[0]).(*ssa.Slice)
+			sl, ok := gi.origin(c05V{o.Ctx, call.Call.Args[0]}).V.(*ssa.Slice)
 			if !ok {
 				return -1
 			}
@@ -1712,23 +3997,23 @@ func c05RuleOpen(p *Program, r *Reporter) {
 			}
 			return -1
 		}
-		readerHave, readerMissing := part(memCall.Call.Args[1]), part(memCall.Call.Args[2])
+		readerHave, readerMissing := part(memCall.Have), part(memCall.Missing)
 		// writer: which parameter position is stored as which key part
 		writerHave, writerMissing := -1, -1
-		for _, c := range CallsIn(nnl, false) {
-			if c.IsStatic(c05PkgPath, "keyType", "Key") && c05GlobalLoad(c.Args()[0], c05PkgPath, "keyMissing") {
+		for _, c := range gn.calls() {
+			if c.IsStatic(c05PkgPath, "keyType", "Key") && gn.globalLoad(c.Arg(0), c05PkgPath, "keyMissing") {
 				for i, e := range c05VarargElems(c.Args()[1]) {
-					if c05ParamIs(e, nnl, 1) {
+					if gn.isParam(c05V{c.Ctx, e}, 1) {
 						writerHave = i
 					}
-					if c05ParamIs(e, nnl, 2) {
+					if gn.isParam(c05V{c.Ctx, e}, 2) {
 						writerMissing = i
 					}
 				}
 			}
 		}
 		construct := ikey + "#key-order"
-		site := p.Pos(memCall.Pos())
+		site := p.Pos(memCall.Pos)
 		switch {
 		case readerHave < 0 || readerMissing < 0 || writerHave < 0 || writerMissing < 0:
 			r.Undecided(rule, construct, site, fmt.Sprintf("cannot relate key parts to roles (reader have=%d missing=%d, writer have=%d missing=%d): the parse is not <prefix slice>/<suffix slice> of the key or the writer is not keyMissing.Key(have, missing)", readerHave, readerMissing, writerHave, writerMissing))
@@ -1741,28 +4026,28 @@ func c05RuleOpen(p *Program, r *Reporter) {
 	// removeAllMissingEdges(br) removes the rows in which br is the *waiting* blob
 	rme := p.Func(c05Pkg, "Index", "removeAllMissingEdges")
 	rkey := FuncKey(rme) + "#prefix-role"
+	gr := env.graph(rme)
 	okRole, okDelete := false, false
-	for _, c := range CallsIn(rme, false) {
-		if c.MethodName() == "queryPrefix" && c.Callee() != nil && c.Callee().Pkg != nil && c.Callee().Pkg.Pkg.Path() == c05PkgPath {
-			a := c.Args()
-			for i := range a {
-				if c05GlobalLoad(a[i], c05PkgPath, "keyMissing") && i+1 < len(a) {
-					if el := c05VarargElems(a[i+1]); len(el) == 1 && c05ParamIs(el[0], rme, 1) {
+	for _, c := range gr.calls() {
+		if isQueryPrefix(c) {
+			for i := 0; i+1 < c.NArgs(); i++ {
+				if gr.globalLoad(c.Arg(i), c05PkgPath, "keyMissing") {
+					if el := c05VarargElems(c.Args()[i+1]); len(el) == 1 && gr.isParam(c05V{c.Ctx, el[0]}, 1) {
 						okRole = true
 					}
 				}
 			}
 		}
 		if v := c.Value(); v != nil && v.Call.IsInvoke() && v.Call.Method.Name() == "Delete" {
-			if _, ok := c05LoadOfField(v.Call.Value, "Index", "s"); ok {
+			if _, ok := gr.loadOfField(c05V{c.Ctx, v.Call.Value}, "Index", "s"); ok {
 				okDelete = true
 			}
 		}
 	}
 	writerHaveFirst := false
-	for _, c := range CallsIn(nnl, false) {
-		if c.IsStatic(c05PkgPath, "keyType", "Key") && c05GlobalLoad(c.Args()[0], c05PkgPath, "keyMissing") {
-			if el := c05VarargElems(c.Args()[1]); len(el) >= 1 && c05ParamIs(el[0], nnl, 1) {
+	for _, c := range gn.calls() {
+		if c.IsStatic(c05PkgPath, "keyType", "Key") && gn.globalLoad(c.Arg(0), c05PkgPath, "keyMissing") {
+			if el := c05VarargElems(c.Args()[1]); len(el) >= 1 && gn.isParam(c05V{c.Ctx, el[0]}, 1) {
 				writerHaveFirst = true
 			}
 		}
@@ -1774,24 +4059,23 @@ func c05RuleOpen(p *Program, r *Reporter) {
 }
 
 // ---------------------------------------------------------------------------
-// I-recent
+// I-recent (also reported by C14 as L-pending: the signature is fixed)
 
 func c05RuleRecent(p *Program, r *Reporter) {
 	const rule = "I-recent"
+	env := c05EnvFor(p)
 	nbi := p.Func(c05Pkg, "Index", "noteBlobIndexedLocked")
-	markDone := p.Func(c05Pkg, "pendingBlobIndex", "MarkDone")
 	gnp := p.Func(c05Pkg, "Index", "getNewPendingBlobIndex")
+	newFn := p.LookupFunc(c05Pkg, "", "New")
 	nkey := FuncKey(nbi)
-	isTrue := func(v ssa.Value) bool {
-		c, ok := v.(*ssa.Const)
-		return ok && c.Value != nil && c.Value.Kind() == constant.Bool && constant.BoolVal(c.Value)
-	}
+	g := env.graph(nbi)
 
 	// (1) noteBlobIndexedLocked records br in recentDone on every path
 	okRec := false
-	for _, w := range c05FieldMapWrites(nbi, "Index", "recentDone") {
-		if c05ParamIs(w.Key, nbi, 1) && isTrue(w.Val) && sameOrigin(w.Base, nbi.Params[0]) {
-			if len((&c05Explorer{IgnorePanics: true, Stop: func(in ssa.Instruction) bool { return in == w.Instr }}).FromEntry(nbi)) == 0 {
+	for _, w := range g.fieldMapWrites("Index", "recentDone") {
+		if g.isParam(w.Key, 1) && c05IsTrue(g.origin(w.Val).V) && g.isParam(w.Base, 0) {
+			w := w
+			if len(g.allPathsPass(nil, func(i c05I) bool { return i == w.I })) == 0 {
 				okRec = true
 			}
 		}
@@ -1801,14 +4085,18 @@ func c05RuleRecent(p *Program, r *Reporter) {
 		"noteBlobIndexedLocked does not record br in recentDone on every path: a blob that notes its need for br just after br was indexed (before its own MarkDone) is never released")
 
 	// (2) a blob leaves needs only into readyReindex
-	for _, d := range c05FieldMapBuiltin(nbi, "delete", "Index", "needs") {
-		k := d.Common().Args[1]
+	for _, d := range g.fieldMapBuiltin("delete", "Index", "needs") {
+		if len(d.Common().Args) < 2 {
+			continue
+		}
+		k := c05V{d.Ctx, d.Common().Args[1]}
 		ok := false
-		for _, w := range c05FieldMapWrites(nbi, "Index", "readyReindex") {
-			if !sameOrigin(w.Key, k) || !isTrue(w.Val) {
+		for _, w := range g.fieldMapWrites("Index", "readyReindex") {
+			if !g.same(w.Key, k) || !c05IsTrue(g.origin(w.Val).V) {
 				continue
 			}
-			if Precedes(w.Instr, d.Instr) || len((&c05Explorer{IgnorePanics: true, Stop: func(in ssa.Instruction) bool { return in == w.Instr }}).After(d.Instr)) == 0 {
+			w := w
+			if g.precedes(w.I, d.I()) || len((&c05X{G: g, IgnorePanics: true, Stop: func(i c05I) bool { return i == w.I }}).After(d.I())) == 0 {
 				ok = true
 			}
 		}
@@ -1818,82 +4106,112 @@ func c05RuleRecent(p *Program, r *Reporter) {
 	}
 
 	// (3) recentDone is cleared only when nothing is pending and after the sweep
-	nClear := 0
 	for _, fn := range p.FuncsIn(c05Pkg) {
 		var resets []ssa.Instruction
-		for _, c := range c05FieldMapBuiltin(fn, "clear", "Index", "recentDone") {
-			resets = append(resets, c.Instr)
-		}
-		for _, c := range c05FieldMapBuiltin(fn, "delete", "Index", "recentDone") {
-			resets = append(resets, c.Instr)
+		for _, c := range CallsIn(fn, false) {
+			if (c05IsBuiltin(c, "clear") || c05IsBuiltin(c, "delete")) && len(c.Common().Args) > 0 {
+				if u, ok := c.Common().Args[0].(*ssa.UnOp); ok && u.Op == token.MUL {
+					if _, ok := c05FieldOf(u.X, "Index", "recentDone"); ok {
+						resets = append(resets, c.Instr)
+					}
+				} else if _, ok := env.graphless.loadOfField(c05V{nil, c.Common().Args[0]}, "Index", "recentDone"); ok {
+					resets = append(resets, c.Instr)
+				}
+			}
 		}
 		for _, b := range fn.Blocks {
 			for _, in := range b.Instrs {
 				if st, ok := in.(*ssa.Store); ok {
-					if _, ok := c05FieldOf(st.Addr, "Index", "recentDone"); ok && fn.Name() != "New" {
+					if _, ok := c05FieldOf(st.Addr, "Index", "recentDone"); ok && fn != newFn {
 						resets = append(resets, st)
 					}
 				}
 			}
 		}
 		for _, in := range resets {
-			nClear++
+			in := in
 			construct := FuncKey(fn) + "#recentDone-reset"
-			var bad []string
-			isPending := func(v ssa.Value) bool { _, ok := c05LoadOfField(v, "Index", "pending"); return ok }
-			if k, empty := c05LenZeroFact(in.Block(), isPending); !(k && empty) {
-				bad = append(bad, "not under len(pending)==0")
-			}
-			// the sweep: noteBlobIndexedLocked(k) for k ranging over neededBy with recentDone[k]
-			swept := false
-			for _, c := range c05CallsTo(fn, nbi) {
-				if !inLoop(c.Block()) || ReachableFrom(in, nil)[c.Instr] {
-					continue
+			v := env.lifted(fn, func(g *c05Graph, ctx *c05Ctx) c05Verdict {
+				self := c05I{ctx, in}
+				n, _ := g.nodeOf(self)
+				if n == nil {
+					return c05Verdict{Detail: "not part of the effective body"}
 				}
-				arg := c.Args()[1]
-				fromNeededBy := DependsOn(arg, func(v ssa.Value) bool {
-					rg, ok := v.(*ssa.Range)
-					if !ok {
-						return false
+				var bad []string
+				isPending := func(v c05V) bool { _, ok := g.loadOfField(v, "Index", "pending"); return ok }
+				if k, empty := g.lenZeroFact(g.factsAt(n), isPending); !(k && empty) {
+					bad = append(bad, "not under len(pending)==0")
+				}
+				// the sweep: noteBlobIndexedLocked(k) for k ranging over neededBy with recentDone[k]
+				swept := false
+				for _, c := range g.callsTo(nbi) {
+					if _, isCall := c.Instr.(*ssa.Call); !isCall {
+						continue
 					}
-					_, ok = c05LoadOfField(rg.X, "Index", "neededBy")
-					return ok
-				})
-				underRecent := false
-				for _, f := range FactsAt(c.Block()) {
-					if lk, ok := f.Cond.(*ssa.Lookup); ok && f.Val && sameOrigin(lk.Index, arg) {
-						if _, ok := c05LoadOfField(lk.X, "Index", "recentDone"); ok {
-							underRecent = true
+					if !g.inCycle(c.I()) || g.reaches(self, c.I()) {
+						continue
+					}
+					arg := c.Arg(1)
+					fromNeededBy := g.dependsOn(arg, func(v c05V) bool {
+						rg, ok := v.V.(*ssa.Range)
+						if !ok {
+							return false
+						}
+						_, ok = g.loadOfField(c05V{v.Ctx, rg.X}, "Index", "neededBy")
+						return ok
+					})
+					underRecent := false
+					cn, _ := g.nodeOf(c.I())
+					for _, f := range g.factsAt(cn) {
+						if f.IsNil || !f.Val {
+							continue
+						}
+						o := g.originShallow(f.C)
+						var lk *ssa.Lookup
+						switch x := o.V.(type) {
+						case *ssa.Lookup:
+							lk = x
+						case *ssa.Extract: // v, ok := m[k]
+							lk, _ = x.Tuple.(*ssa.Lookup)
+						}
+						if lk != nil && g.same(c05V{o.Ctx, lk.Index}, arg) {
+							if _, ok := g.loadOfField(c05V{o.Ctx, lk.X}, "Index", "recentDone"); ok {
+								underRecent = true
+							}
 						}
 					}
+					if fromNeededBy && underRecent && g.reaches(c.I(), self) {
+						swept = true
+					}
 				}
-				if fromNeededBy && underRecent && ReachableFrom(c.Instr, nil)[in] {
-					swept = true
+				if !swept {
+					bad = append(bad, "not after a sweep calling noteBlobIndexedLocked(k) for every k in neededBy with recentDone[k]")
 				}
-			}
-			if !swept {
-				bad = append(bad, "not after a sweep calling noteBlobIndexedLocked(k) for every k in neededBy with recentDone[k]")
-			}
-			r.Check(len(bad) == 0, rule, construct, p.Pos(in.Pos()),
+				if len(bad) == 0 {
+					return c05Verdict{OK: true}
+				}
+				return c05Verdict{Detail: strings.Join(bad, " and ")}
+			})
+			r.Check(v.OK, rule, construct, p.Pos(in.Pos()),
 				"recentDone is reset only under len(pending)==0 and after the sweep over neededBy",
-				"recentDone is reset "+strings.Join(bad, " and ")+": a dependency indexed while its dependant was still in flight is forgotten, the dependant stays in needs forever")
+				"recentDone is reset "+v.Detail+": a dependency indexed while its dependant was still in flight is forgotten, the dependant stays in needs forever")
 		}
 	}
-	_ = markDone
 
 	// (4) getNewPendingBlobIndex registers the entry it returns
 	gkey := FuncKey(gnp)
-	for _, ri := range Returns(gnp) {
-		if len(ri.Results) != 2 || IsNilConst(ri.Results[0]) {
+	gg := env.graph(gnp)
+	for _, t := range gg.returnTuples() {
+		if len(t.Results) != 2 || IsNilConst(t.Results[0].V) {
 			continue
 		}
 		ok := false
-		for _, w := range c05FieldMapWrites(gnp, "Index", "pending") {
-			if c05ParamIs(w.Key, gnp, 2) && sameOrigin(w.Val, ri.Results[0]) && Precedes(w.Instr, ri.Ret) {
+		for _, w := range gg.fieldMapWrites("Index", "pending") {
+			if gg.isParam(w.Key, 2) && gg.same(w.Val, t.Results[0]) && gg.tupleAfter(w.I, t) {
 				ok = true
 			}
 		}
-		r.Check(ok, rule, gkey+"#register", p.Pos(c05RetPos(ri.Ret)),
+		r.Check(ok, rule, gkey+"#register", p.Pos(c05RetPos(t.Ret)),
 			"the returned entry is stored in pending[br] before the return",
 			"getNewPendingBlobIndex returns an entry that is not registered in Index.pending under br: len(pending) can reach zero (and recentDone be cleared) while this blob is still being indexed")
 	}
